@@ -3,37 +3,37 @@ the branch conditions, calls, literals and returns of its body in source order (
 namespace Panacea.Expected.Skel
 
 /-- app.App.setAnteHandler -/
-def app_App_setAnteHandler : List String := ["call app.SetAnteHandler", "call sdktypes.ChainAnteDecorators", "call ante.NewSetUpContextDecorator", "call ante.NewExtensionOptionsDecorator", "call ante.NewValidateBasicDecorator", "call ante.NewTxTimeoutHeightDecorator", "call ante.NewValidateMemoDecorator", "call ante.NewConsumeGasForTxSizeDecorator", "call ante.NewDeductFeeDecorator", "call ante.NewSetPubKeyDecorator", "call ante.NewValidateSigCountDecorator", "call ante.NewSigGasConsumeDecorator", "call ante.NewSigVerificationDecorator", "call txConfig.SignModeHandler", "call ante.NewIncrementSequenceDecorator", "call ibcante.NewRedundantRelayDecorator"]
+def app_App_setAnteHandler : List String := ["call app.SetAnteHandler(_)", "call sdktypes.ChainAnteDecorators(ante.NewSetUpContextDecorator(), ante.NewExtensionOptionsDecorator(nil), ante.NewValidateBasicDecorator(), ante.NewTxTimeoutHeightDecorator(), ante.NewValidateMemoDecorator(app.AccountKeeper), ante.NewConsumeGasForTxSizeDecorator(app.AccountKeeper), _, ante.NewSetPubKeyDecorator(app.AccountKeeper), ante.NewValidateSigCountDecorator(app.AccountKeeper), _, _, ante.NewIncrementSequenceDecorator(app.AccountKeeper), ibcante.NewRedundantRelayDecorator(app.IBCKeeper))", "call ante.NewSetUpContextDecorator()", "call ante.NewExtensionOptionsDecorator(nil)", "call ante.NewValidateBasicDecorator()", "call ante.NewTxTimeoutHeightDecorator()", "call ante.NewValidateMemoDecorator(app.AccountKeeper)", "call ante.NewConsumeGasForTxSizeDecorator(app.AccountKeeper)", "call ante.NewDeductFeeDecorator(app.AccountKeeper, app.BankKeeper, app.FeeGrantKeeper, nil)", "call ante.NewSetPubKeyDecorator(app.AccountKeeper)", "call ante.NewValidateSigCountDecorator(app.AccountKeeper)", "call ante.NewSigGasConsumeDecorator(app.AccountKeeper, ante.DefaultSigVerificationGasConsumer)", "call ante.NewSigVerificationDecorator(app.AccountKeeper, txConfig.SignModeHandler())", "call txConfig.SignModeHandler()", "call ante.NewIncrementSequenceDecorator(app.AccountKeeper)", "call ibcante.NewRedundantRelayDecorator(app.IBCKeeper)"]
 
 /-- types/compkey.Decode -/
-def types_compkey_Decode : List String := ["assign values := make([][]byte, 0)", "call make", "lit 0", "assign idx := 0", "lit 0", "for idx < len(bz)", "call len", "assign valueSize := int(bz[idx])", "call int", "assign idx += 1", "lit 1", "assign exclusiveEnd := idx + valueSize", "op +", "if exclusiveEnd > len(bz)", "call len", "return _", "call fmt.Errorf", "assign value := make([]byte, valueSize)", "call make", "assign idx += copy(value, bz[idx:exclusiveEnd])", "call copy", "assign values = append(values, value)", "call append", "return _", "call out.FromByteSlices"]
+def types_compkey_Decode : List String := ["assign values := make([][]byte, 0)", "call make([][]byte, 0)", "lit 0", "assign idx := 0", "lit 0", "for idx < len(bz)", "call len(bz)", "assign valueSize := int(bz[idx])", "call int(bz[idx])", "assign idx += 1", "lit 1", "assign exclusiveEnd := idx + valueSize", "op +", "if exclusiveEnd > len(bz)", "call len(bz)", "return _", "call fmt.Errorf(_)", "assign value := make([]byte, valueSize)", "call make([]byte, valueSize)", "assign idx += copy(value, bz[idx:exclusiveEnd])", "call copy(value, bz[idx:exclusiveEnd])", "assign values = append(values, value)", "call append(values, value)", "return _", "call out.FromByteSlices(values)"]
 
 /-- types/compkey.DecodeFromString -/
-def types_compkey_DecodeFromString : List String := ["assign values := strings.Split(encoded, separator)", "call strings.Split", "return _", "call out.FromStrings"]
+def types_compkey_DecodeFromString : List String := ["assign values := strings.Split(encoded, separator)", "call strings.Split(encoded, separator)", "return _", "call out.FromStrings(values)"]
 
 /-- types/compkey.Encode -/
-def types_compkey_Encode : List String := ["return _", "call encode", "call key.ByteSlices"]
+def types_compkey_Encode : List String := ["return _", "call encode(key.ByteSlices())", "call key.ByteSlices()"]
 
 /-- types/compkey.EncodeToString -/
-def types_compkey_EncodeToString : List String := ["range key.Strings()", "call key.Strings", "if i > 0", "lit 0", "call builder.WriteString", "call builder.WriteString", "return _", "call builder.String"]
+def types_compkey_EncodeToString : List String := ["range key.Strings()", "call key.Strings()", "if i > 0", "lit 0", "call builder.WriteString(separator)", "call builder.WriteString(value)", "return _", "call builder.String()"]
 
 /-- types/compkey.MustDecode -/
-def types_compkey_MustDecode : List String := ["if err != nil", "assign err := Decode(bz, out)", "call Decode", "call panic"]
+def types_compkey_MustDecode : List String := ["if err != nil", "assign err := Decode(bz, out)", "call Decode(bz, out)", "call panic(err)"]
 
 /-- types/compkey.MustDecodeFromString -/
-def types_compkey_MustDecodeFromString : List String := ["if err != nil", "assign err := DecodeFromString(encoded, separator, out)", "call DecodeFromString", "call panic"]
+def types_compkey_MustDecodeFromString : List String := ["if err != nil", "assign err := DecodeFromString(encoded, separator, out)", "call DecodeFromString(encoded, separator, out)", "call panic(err)"]
 
 /-- types/compkey.MustEncode -/
-def types_compkey_MustEncode : List String := ["assign bz,err := Encode(key)", "call Encode", "if err != nil", "call panic", "return bz"]
+def types_compkey_MustEncode : List String := ["assign bz,err := Encode(key)", "call Encode(key)", "if err != nil", "call panic(err)", "return bz"]
 
 /-- types/compkey.MustPartialEncode -/
-def types_compkey_MustPartialEncode : List String := ["assign bz,err := PartialEncode(key, numValues)", "call PartialEncode", "if err != nil", "call panic", "return bz"]
+def types_compkey_MustPartialEncode : List String := ["assign bz,err := PartialEncode(key, numValues)", "call PartialEncode(key, numValues)", "if err != nil", "call panic(err)", "return bz"]
 
 /-- types/compkey.PartialEncode -/
-def types_compkey_PartialEncode : List String := ["assign values := key.ByteSlices()", "call key.ByteSlices", "if len(values) < numValues", "call len", "return nil,_", "call fmt.Errorf", "return _", "call encode"]
+def types_compkey_PartialEncode : List String := ["assign values := key.ByteSlices()", "call key.ByteSlices()", "if len(values) < numValues", "call len(values)", "return nil,_", "call fmt.Errorf(_, numValues)", "return _", "call encode(values[:numValues])"]
 
 /-- types/compkey.encode -/
-def types_compkey_encode : List String := ["assign size := 0", "lit 0", "range values", "assign size += sizeUint8 + len(value)", "op +", "call len", "assign bz := make([]byte, size)", "call make", "assign idx := 0", "lit 0", "range values", "if len(value) > maxUint8", "call len", "return nil,_", "call fmt.Errorf", "assign bz[idx] = uint8(len(value))", "call uint8", "call len", "assign idx += 1", "lit 1", "assign idx += copy(bz[idx:], value)", "call copy", "return bz,nil"]
+def types_compkey_encode : List String := ["assign size := 0", "lit 0", "range values", "assign size += sizeUint8 + len(value)", "op +", "call len(value)", "assign bz := make([]byte, size)", "call make([]byte, size)", "assign idx := 0", "lit 0", "range values", "if len(value) > maxUint8", "call len(value)", "return nil,_", "call fmt.Errorf(_)", "assign bz[idx] = uint8(len(value))", "call uint8(len(value))", "call len(value)", "assign idx += 1", "lit 1", "assign idx += copy(bz[idx:], value)", "call copy(bz[idx:], value)", "return bz,nil"]
 
 /-- x/aol.AppModule.BeginBlock -/
 def x_aol_AppModule_BeginBlock : List String := []
@@ -45,13 +45,13 @@ def x_aol_AppModule_ConsensusVersion : List String := ["return 1", "lit 1"]
 def x_aol_AppModule_EndBlock : List String := ["return _"]
 
 /-- x/aol.AppModule.ExportGenesis -/
-def x_aol_AppModule_ExportGenesis : List String := ["assign genState := ExportGenesis(ctx, am.keeper)", "call ExportGenesis", "return _", "call cdc.MustMarshalJSON"]
+def x_aol_AppModule_ExportGenesis : List String := ["assign genState := ExportGenesis(ctx, am.keeper)", "call ExportGenesis(ctx, am.keeper)", "return _", "call cdc.MustMarshalJSON(genState)"]
 
 /-- x/aol.AppModule.InitGenesis -/
-def x_aol_AppModule_InitGenesis : List String := ["call cdc.MustUnmarshalJSON", "call InitGenesis", "return _"]
+def x_aol_AppModule_InitGenesis : List String := ["call cdc.MustUnmarshalJSON(gs, &genState)", "call InitGenesis(ctx, am.keeper, genState)", "return _"]
 
 /-- x/aol.AppModule.Name -/
-def x_aol_AppModule_Name : List String := ["return _", "call _.Name"]
+def x_aol_AppModule_Name : List String := ["return _", "call _.Name()"]
 
 /-- x/aol.AppModule.QuerierRoute -/
 def x_aol_AppModule_QuerierRoute : List String := ["return _"]
@@ -60,115 +60,115 @@ def x_aol_AppModule_QuerierRoute : List String := ["return _"]
 def x_aol_AppModule_RegisterInvariants : List String := []
 
 /-- x/aol.AppModule.RegisterServices -/
-def x_aol_AppModule_RegisterServices : List String := ["call types.RegisterQueryServer", "call cfg.QueryServer", "call types.RegisterMsgServer", "call cfg.MsgServer", "call keeper.NewMsgServerImpl"]
+def x_aol_AppModule_RegisterServices : List String := ["call types.RegisterQueryServer(cfg.QueryServer(), am.keeper)", "call cfg.QueryServer()", "call types.RegisterMsgServer(cfg.MsgServer(), keeper.NewMsgServerImpl(am.keeper))", "call cfg.MsgServer()", "call keeper.NewMsgServerImpl(am.keeper)"]
 
 /-- x/aol.AppModuleBasic.DefaultGenesis -/
-def x_aol_AppModuleBasic_DefaultGenesis : List String := ["return _", "call cdc.MustMarshalJSON", "call types.DefaultGenesis"]
+def x_aol_AppModuleBasic_DefaultGenesis : List String := ["return _", "call cdc.MustMarshalJSON(types.DefaultGenesis())", "call types.DefaultGenesis()"]
 
 /-- x/aol.AppModuleBasic.GetQueryCmd -/
-def x_aol_AppModuleBasic_GetQueryCmd : List String := ["return _", "call cli.GetQueryCmd"]
+def x_aol_AppModuleBasic_GetQueryCmd : List String := ["return _", "call cli.GetQueryCmd(types.StoreKey)"]
 
 /-- x/aol.AppModuleBasic.GetTxCmd -/
-def x_aol_AppModuleBasic_GetTxCmd : List String := ["return _", "call cli.GetTxCmd"]
+def x_aol_AppModuleBasic_GetTxCmd : List String := ["return _", "call cli.GetTxCmd()"]
 
 /-- x/aol.AppModuleBasic.Name -/
 def x_aol_AppModuleBasic_Name : List String := ["return _"]
 
 /-- x/aol.AppModuleBasic.RegisterCodec -/
-def x_aol_AppModuleBasic_RegisterCodec : List String := ["call types.RegisterCodec"]
+def x_aol_AppModuleBasic_RegisterCodec : List String := ["call types.RegisterCodec(cdc)"]
 
 /-- x/aol.AppModuleBasic.RegisterGRPCGatewayRoutes -/
-def x_aol_AppModuleBasic_RegisterGRPCGatewayRoutes : List String := ["if err != nil", "assign err := _", "call types.RegisterQueryHandlerClient", "call context.Background", "call types.NewQueryClient", "call panic"]
+def x_aol_AppModuleBasic_RegisterGRPCGatewayRoutes : List String := ["if err != nil", "assign err := _", "call types.RegisterQueryHandlerClient(context.Background(), mux, types.NewQueryClient(clientCtx))", "call context.Background()", "call types.NewQueryClient(clientCtx)", "call panic(err)"]
 
 /-- x/aol.AppModuleBasic.RegisterInterfaces -/
-def x_aol_AppModuleBasic_RegisterInterfaces : List String := ["call types.RegisterInterfaces"]
+def x_aol_AppModuleBasic_RegisterInterfaces : List String := ["call types.RegisterInterfaces(reg)"]
 
 /-- x/aol.AppModuleBasic.RegisterLegacyAminoCodec -/
-def x_aol_AppModuleBasic_RegisterLegacyAminoCodec : List String := ["call types.RegisterCodec"]
+def x_aol_AppModuleBasic_RegisterLegacyAminoCodec : List String := ["call types.RegisterCodec(cdc)"]
 
 /-- x/aol.AppModuleBasic.ValidateGenesis -/
-def x_aol_AppModuleBasic_ValidateGenesis : List String := ["if err != nil", "assign err := cdc.UnmarshalJSON(bz, &genState)", "call cdc.UnmarshalJSON", "return _", "call fmt.Errorf", "return _", "call genState.Validate"]
+def x_aol_AppModuleBasic_ValidateGenesis : List String := ["if err != nil", "assign err := cdc.UnmarshalJSON(bz, &genState)", "call cdc.UnmarshalJSON(bz, &genState)", "return _", "call fmt.Errorf(_, types.ModuleName, err)", "return _", "call genState.Validate()"]
 
 /-- x/aol.ExportGenesis -/
-def x_aol_ExportGenesis : List String := ["assign genesis := types.DefaultGenesis()", "call types.DefaultGenesis", "assign ownerKeys,owners := k.GetAllOwners(ctx)", "call k.GetAllOwners", "range ownerKeys", "assign genesis.Owners[compkey.EncodeToString(&key, types.GenesisKeySeparator)] = &owners[i]", "call compkey.EncodeToString", "assign topicKeys,topics := k.GetAllTopics(ctx)", "call k.GetAllTopics", "range topicKeys", "assign genesis.Topics[compkey.EncodeToString(&key, types.GenesisKeySeparator)] = &topics[i]", "call compkey.EncodeToString", "assign writerKeys,writers := k.GetAllWriters(ctx)", "call k.GetAllWriters", "range writerKeys", "assign genesis.Writers[compkey.EncodeToString(&key, types.GenesisKeySeparator)] = &writers[i]", "call compkey.EncodeToString", "assign recordKeys,records := k.GetAllRecords(ctx)", "call k.GetAllRecords", "range recordKeys", "assign genesis.Records[compkey.EncodeToString(&key, types.GenesisKeySeparator)] = &records[i]", "call compkey.EncodeToString", "return genesis"]
+def x_aol_ExportGenesis : List String := ["assign genesis := types.DefaultGenesis()", "call types.DefaultGenesis()", "assign ownerKeys,owners := k.GetAllOwners(ctx)", "call k.GetAllOwners(ctx)", "range ownerKeys", "assign genesis.Owners[compkey.EncodeToString(&key, types.GenesisKeySeparator)] = &owners[i]", "call compkey.EncodeToString(&key, types.GenesisKeySeparator)", "assign topicKeys,topics := k.GetAllTopics(ctx)", "call k.GetAllTopics(ctx)", "range topicKeys", "assign genesis.Topics[compkey.EncodeToString(&key, types.GenesisKeySeparator)] = &topics[i]", "call compkey.EncodeToString(&key, types.GenesisKeySeparator)", "assign writerKeys,writers := k.GetAllWriters(ctx)", "call k.GetAllWriters(ctx)", "range writerKeys", "assign genesis.Writers[compkey.EncodeToString(&key, types.GenesisKeySeparator)] = &writers[i]", "call compkey.EncodeToString(&key, types.GenesisKeySeparator)", "assign recordKeys,records := k.GetAllRecords(ctx)", "call k.GetAllRecords(ctx)", "range recordKeys", "assign genesis.Records[compkey.EncodeToString(&key, types.GenesisKeySeparator)] = &records[i]", "call compkey.EncodeToString(&key, types.GenesisKeySeparator)", "return genesis"]
 
 /-- x/aol.InitGenesis -/
-def x_aol_InitGenesis : List String := ["range genState.Owners", "call compkey.MustDecodeFromString", "call k.SetOwner", "range genState.Topics", "call compkey.MustDecodeFromString", "call k.SetTopic", "range genState.Writers", "call compkey.MustDecodeFromString", "call k.SetWriter", "range genState.Records", "call compkey.MustDecodeFromString", "call k.SetRecord"]
+def x_aol_InitGenesis : List String := ["range genState.Owners", "call compkey.MustDecodeFromString(keyStr, types.GenesisKeySeparator, &key)", "call k.SetOwner(ctx, key, *owner)", "range genState.Topics", "call compkey.MustDecodeFromString(keyStr, types.GenesisKeySeparator, &key)", "call k.SetTopic(ctx, key, *topic)", "range genState.Writers", "call compkey.MustDecodeFromString(keyStr, types.GenesisKeySeparator, &key)", "call k.SetWriter(ctx, key, *writer)", "range genState.Records", "call compkey.MustDecodeFromString(keyStr, types.GenesisKeySeparator, &key)", "call k.SetRecord(ctx, key, *record)"]
 
 /-- x/aol.NewAppModule -/
-def x_aol_NewAppModule : List String := ["return _", "kv AppModuleBasic=NewAppModuleBasic(cdc)", "call NewAppModuleBasic", "kv keeper=keeper"]
+def x_aol_NewAppModule : List String := ["return _", "kv AppModuleBasic=NewAppModuleBasic(cdc)", "call NewAppModuleBasic(cdc)", "kv keeper=keeper"]
 
 /-- x/aol.NewAppModuleBasic -/
 def x_aol_NewAppModuleBasic : List String := ["return _", "kv cdc=cdc"]
 
 /-- x/aol/keeper.Keeper.GetAllOwners -/
-def x_aol_keeper_Keeper_GetAllOwners : List String := ["assign store := prefix.NewStore(ctx.KVStore(k.storeKey), types.OwnerKeyPrefix)", "call prefix.NewStore", "call ctx.KVStore", "assign iterator := _", "call sdk.KVStorePrefixIterator", "defer", "call iterator.Close", "assign keys := make([]types.OwnerCompositeKey, 0)", "call make", "lit 0", "assign values := make([]types.Owner, 0)", "call make", "lit 0", "for iterator.Valid()", "call iterator.Valid", "call iterator.Next", "call compkey.MustDecode", "call iterator.Key", "assign keys = append(keys, key)", "call append", "call _.MustUnmarshal", "call iterator.Value", "assign values = append(values, value)", "call append", "return keys,values"]
+def x_aol_keeper_Keeper_GetAllOwners : List String := ["assign store := prefix.NewStore(ctx.KVStore(k.storeKey), types.OwnerKeyPrefix)", "call prefix.NewStore(ctx.KVStore(k.storeKey), types.OwnerKeyPrefix)", "call ctx.KVStore(k.storeKey)", "assign iterator := _", "call sdk.KVStorePrefixIterator(store, _)", "defer", "call iterator.Close()", "assign keys := make([]types.OwnerCompositeKey, 0)", "call make([]types.OwnerCompositeKey, 0)", "lit 0", "assign values := make([]types.Owner, 0)", "call make([]types.Owner, 0)", "lit 0", "for iterator.Valid()", "call iterator.Valid()", "call iterator.Next()", "call compkey.MustDecode(iterator.Key(), &key)", "call iterator.Key()", "assign keys = append(keys, key)", "call append(keys, key)", "call _.MustUnmarshal(iterator.Value(), &value)", "call iterator.Value()", "assign values = append(values, value)", "call append(values, value)", "return keys,values"]
 
 /-- x/aol/keeper.Keeper.GetAllRecords -/
-def x_aol_keeper_Keeper_GetAllRecords : List String := ["assign store := prefix.NewStore(ctx.KVStore(k.storeKey), types.RecordKeyPrefix)", "call prefix.NewStore", "call ctx.KVStore", "assign iterator := _", "call sdk.KVStorePrefixIterator", "defer", "call iterator.Close", "assign keys := make([]types.RecordCompositeKey, 0)", "call make", "lit 0", "assign values := make([]types.Record, 0)", "call make", "lit 0", "for iterator.Valid()", "call iterator.Valid", "call iterator.Next", "call compkey.MustDecode", "call iterator.Key", "assign keys = append(keys, key)", "call append", "call _.MustUnmarshal", "call iterator.Value", "assign values = append(values, value)", "call append", "return keys,values"]
+def x_aol_keeper_Keeper_GetAllRecords : List String := ["assign store := prefix.NewStore(ctx.KVStore(k.storeKey), types.RecordKeyPrefix)", "call prefix.NewStore(ctx.KVStore(k.storeKey), types.RecordKeyPrefix)", "call ctx.KVStore(k.storeKey)", "assign iterator := _", "call sdk.KVStorePrefixIterator(store, _)", "defer", "call iterator.Close()", "assign keys := make([]types.RecordCompositeKey, 0)", "call make([]types.RecordCompositeKey, 0)", "lit 0", "assign values := make([]types.Record, 0)", "call make([]types.Record, 0)", "lit 0", "for iterator.Valid()", "call iterator.Valid()", "call iterator.Next()", "call compkey.MustDecode(iterator.Key(), &key)", "call iterator.Key()", "assign keys = append(keys, key)", "call append(keys, key)", "call _.MustUnmarshal(iterator.Value(), &value)", "call iterator.Value()", "assign values = append(values, value)", "call append(values, value)", "return keys,values"]
 
 /-- x/aol/keeper.Keeper.GetAllTopics -/
-def x_aol_keeper_Keeper_GetAllTopics : List String := ["assign store := prefix.NewStore(ctx.KVStore(k.storeKey), types.TopicKeyPrefix)", "call prefix.NewStore", "call ctx.KVStore", "assign iterator := _", "call sdk.KVStorePrefixIterator", "defer", "call iterator.Close", "assign keys := make([]types.TopicCompositeKey, 0)", "call make", "lit 0", "assign values := make([]types.Topic, 0)", "call make", "lit 0", "for iterator.Valid()", "call iterator.Valid", "call iterator.Next", "call compkey.MustDecode", "call iterator.Key", "assign keys = append(keys, key)", "call append", "call _.MustUnmarshal", "call iterator.Value", "assign values = append(values, value)", "call append", "return keys,values"]
+def x_aol_keeper_Keeper_GetAllTopics : List String := ["assign store := prefix.NewStore(ctx.KVStore(k.storeKey), types.TopicKeyPrefix)", "call prefix.NewStore(ctx.KVStore(k.storeKey), types.TopicKeyPrefix)", "call ctx.KVStore(k.storeKey)", "assign iterator := _", "call sdk.KVStorePrefixIterator(store, _)", "defer", "call iterator.Close()", "assign keys := make([]types.TopicCompositeKey, 0)", "call make([]types.TopicCompositeKey, 0)", "lit 0", "assign values := make([]types.Topic, 0)", "call make([]types.Topic, 0)", "lit 0", "for iterator.Valid()", "call iterator.Valid()", "call iterator.Next()", "call compkey.MustDecode(iterator.Key(), &key)", "call iterator.Key()", "assign keys = append(keys, key)", "call append(keys, key)", "call _.MustUnmarshal(iterator.Value(), &value)", "call iterator.Value()", "assign values = append(values, value)", "call append(values, value)", "return keys,values"]
 
 /-- x/aol/keeper.Keeper.GetAllWriters -/
-def x_aol_keeper_Keeper_GetAllWriters : List String := ["assign store := prefix.NewStore(ctx.KVStore(k.storeKey), types.WriterKeyPrefix)", "call prefix.NewStore", "call ctx.KVStore", "assign iterator := _", "call sdk.KVStorePrefixIterator", "defer", "call iterator.Close", "assign keys := make([]types.WriterCompositeKey, 0)", "call make", "lit 0", "assign values := make([]types.Writer, 0)", "call make", "lit 0", "for iterator.Valid()", "call iterator.Valid", "call iterator.Next", "call compkey.MustDecode", "call iterator.Key", "assign keys = append(keys, key)", "call append", "call _.MustUnmarshal", "call iterator.Value", "assign values = append(values, value)", "call append", "return keys,values"]
+def x_aol_keeper_Keeper_GetAllWriters : List String := ["assign store := prefix.NewStore(ctx.KVStore(k.storeKey), types.WriterKeyPrefix)", "call prefix.NewStore(ctx.KVStore(k.storeKey), types.WriterKeyPrefix)", "call ctx.KVStore(k.storeKey)", "assign iterator := _", "call sdk.KVStorePrefixIterator(store, _)", "defer", "call iterator.Close()", "assign keys := make([]types.WriterCompositeKey, 0)", "call make([]types.WriterCompositeKey, 0)", "lit 0", "assign values := make([]types.Writer, 0)", "call make([]types.Writer, 0)", "lit 0", "for iterator.Valid()", "call iterator.Valid()", "call iterator.Next()", "call compkey.MustDecode(iterator.Key(), &key)", "call iterator.Key()", "assign keys = append(keys, key)", "call append(keys, key)", "call _.MustUnmarshal(iterator.Value(), &value)", "call iterator.Value()", "assign values = append(values, value)", "call append(values, value)", "return keys,values"]
 
 /-- x/aol/keeper.Keeper.GetOwner -/
-def x_aol_keeper_Keeper_GetOwner : List String := ["assign store := prefix.NewStore(ctx.KVStore(k.storeKey), types.OwnerKeyPrefix)", "call prefix.NewStore", "call ctx.KVStore", "call _.MustUnmarshal", "call store.Get", "call compkey.MustEncode", "return owner"]
+def x_aol_keeper_Keeper_GetOwner : List String := ["assign store := prefix.NewStore(ctx.KVStore(k.storeKey), types.OwnerKeyPrefix)", "call prefix.NewStore(ctx.KVStore(k.storeKey), types.OwnerKeyPrefix)", "call ctx.KVStore(k.storeKey)", "call _.MustUnmarshal(store.Get(compkey.MustEncode(&key)), &owner)", "call store.Get(compkey.MustEncode(&key))", "call compkey.MustEncode(&key)", "return owner"]
 
 /-- x/aol/keeper.Keeper.GetRecord -/
-def x_aol_keeper_Keeper_GetRecord : List String := ["assign store := prefix.NewStore(ctx.KVStore(k.storeKey), types.RecordKeyPrefix)", "call prefix.NewStore", "call ctx.KVStore", "call _.MustUnmarshal", "call store.Get", "call compkey.MustEncode", "return record"]
+def x_aol_keeper_Keeper_GetRecord : List String := ["assign store := prefix.NewStore(ctx.KVStore(k.storeKey), types.RecordKeyPrefix)", "call prefix.NewStore(ctx.KVStore(k.storeKey), types.RecordKeyPrefix)", "call ctx.KVStore(k.storeKey)", "call _.MustUnmarshal(store.Get(compkey.MustEncode(&key)), &record)", "call store.Get(compkey.MustEncode(&key))", "call compkey.MustEncode(&key)", "return record"]
 
 /-- x/aol/keeper.Keeper.GetTopic -/
-def x_aol_keeper_Keeper_GetTopic : List String := ["assign store := prefix.NewStore(ctx.KVStore(k.storeKey), types.TopicKeyPrefix)", "call prefix.NewStore", "call ctx.KVStore", "call _.MustUnmarshal", "call store.Get", "call compkey.MustEncode", "return topic"]
+def x_aol_keeper_Keeper_GetTopic : List String := ["assign store := prefix.NewStore(ctx.KVStore(k.storeKey), types.TopicKeyPrefix)", "call prefix.NewStore(ctx.KVStore(k.storeKey), types.TopicKeyPrefix)", "call ctx.KVStore(k.storeKey)", "call _.MustUnmarshal(store.Get(compkey.MustEncode(&key)), &topic)", "call store.Get(compkey.MustEncode(&key))", "call compkey.MustEncode(&key)", "return topic"]
 
 /-- x/aol/keeper.Keeper.GetWriter -/
-def x_aol_keeper_Keeper_GetWriter : List String := ["assign store := prefix.NewStore(ctx.KVStore(k.storeKey), types.WriterKeyPrefix)", "call prefix.NewStore", "call ctx.KVStore", "call _.MustUnmarshal", "call store.Get", "call compkey.MustEncode", "return writer"]
+def x_aol_keeper_Keeper_GetWriter : List String := ["assign store := prefix.NewStore(ctx.KVStore(k.storeKey), types.WriterKeyPrefix)", "call prefix.NewStore(ctx.KVStore(k.storeKey), types.WriterKeyPrefix)", "call ctx.KVStore(k.storeKey)", "call _.MustUnmarshal(store.Get(compkey.MustEncode(&key)), &writer)", "call store.Get(compkey.MustEncode(&key))", "call compkey.MustEncode(&key)", "return writer"]
 
 /-- x/aol/keeper.Keeper.HasOwner -/
-def x_aol_keeper_Keeper_HasOwner : List String := ["assign store := prefix.NewStore(ctx.KVStore(k.storeKey), types.OwnerKeyPrefix)", "call prefix.NewStore", "call ctx.KVStore", "return _", "call store.Has", "call compkey.MustEncode"]
+def x_aol_keeper_Keeper_HasOwner : List String := ["assign store := prefix.NewStore(ctx.KVStore(k.storeKey), types.OwnerKeyPrefix)", "call prefix.NewStore(ctx.KVStore(k.storeKey), types.OwnerKeyPrefix)", "call ctx.KVStore(k.storeKey)", "return _", "call store.Has(compkey.MustEncode(&key))", "call compkey.MustEncode(&key)"]
 
 /-- x/aol/keeper.Keeper.HasRecord -/
-def x_aol_keeper_Keeper_HasRecord : List String := ["assign store := prefix.NewStore(ctx.KVStore(k.storeKey), types.RecordKeyPrefix)", "call prefix.NewStore", "call ctx.KVStore", "return _", "call store.Has", "call compkey.MustEncode"]
+def x_aol_keeper_Keeper_HasRecord : List String := ["assign store := prefix.NewStore(ctx.KVStore(k.storeKey), types.RecordKeyPrefix)", "call prefix.NewStore(ctx.KVStore(k.storeKey), types.RecordKeyPrefix)", "call ctx.KVStore(k.storeKey)", "return _", "call store.Has(compkey.MustEncode(&key))", "call compkey.MustEncode(&key)"]
 
 /-- x/aol/keeper.Keeper.HasTopic -/
-def x_aol_keeper_Keeper_HasTopic : List String := ["assign store := prefix.NewStore(ctx.KVStore(k.storeKey), types.TopicKeyPrefix)", "call prefix.NewStore", "call ctx.KVStore", "return _", "call store.Has", "call compkey.MustEncode"]
+def x_aol_keeper_Keeper_HasTopic : List String := ["assign store := prefix.NewStore(ctx.KVStore(k.storeKey), types.TopicKeyPrefix)", "call prefix.NewStore(ctx.KVStore(k.storeKey), types.TopicKeyPrefix)", "call ctx.KVStore(k.storeKey)", "return _", "call store.Has(compkey.MustEncode(&key))", "call compkey.MustEncode(&key)"]
 
 /-- x/aol/keeper.Keeper.HasWriter -/
-def x_aol_keeper_Keeper_HasWriter : List String := ["assign store := prefix.NewStore(ctx.KVStore(k.storeKey), types.WriterKeyPrefix)", "call prefix.NewStore", "call ctx.KVStore", "return _", "call store.Has", "call compkey.MustEncode"]
+def x_aol_keeper_Keeper_HasWriter : List String := ["assign store := prefix.NewStore(ctx.KVStore(k.storeKey), types.WriterKeyPrefix)", "call prefix.NewStore(ctx.KVStore(k.storeKey), types.WriterKeyPrefix)", "call ctx.KVStore(k.storeKey)", "return _", "call store.Has(compkey.MustEncode(&key))", "call compkey.MustEncode(&key)"]
 
 /-- x/aol/keeper.Keeper.Logger -/
-def x_aol_keeper_Keeper_Logger : List String := ["return _", "call _.With", "call ctx.Logger", "lit \"module\"", "call fmt.Sprintf", "lit \"x/%s\""]
+def x_aol_keeper_Keeper_Logger : List String := ["return _", "call _.With(\"module\", fmt.Sprintf(\"x/%s\", types.ModuleName))", "call ctx.Logger()", "lit \"module\"", "call fmt.Sprintf(_, types.ModuleName)", "lit \"x/%s\""]
 
 /-- x/aol/keeper.Keeper.Record -/
-def x_aol_keeper_Keeper_Record : List String := ["if req == nil", "return nil,_", "call status.Error", "assign ctx := sdk.UnwrapSDKContext(c)", "call sdk.UnwrapSDKContext", "assign ownerAddr,err := sdk.AccAddressFromBech32(req.OwnerAddress)", "call sdk.AccAddressFromBech32", "if err != nil", "return nil,_", "call status.Error", "assign recordKey := _", "kv OwnerAddress=ownerAddr", "kv TopicName=req.TopicName", "kv Offset=req.Offset", "if err != nil", "assign _,err := compkey.Encode(&recordKey)", "call compkey.Encode", "return nil,_", "call status.Error", "if !k.HasRecord(ctx, recordKey)", "call k.HasRecord", "return nil,_", "call status.Error", "assign record := k.GetRecord(ctx, recordKey)", "call k.GetRecord", "return _,nil", "kv Record=&record"]
+def x_aol_keeper_Keeper_Record : List String := ["if req == nil", "return nil,_", "call status.Error(codes.InvalidArgument, _)", "assign ctx := sdk.UnwrapSDKContext(c)", "call sdk.UnwrapSDKContext(c)", "assign ownerAddr,err := sdk.AccAddressFromBech32(req.OwnerAddress)", "call sdk.AccAddressFromBech32(req.OwnerAddress)", "if err != nil", "return nil,_", "call status.Error(codes.InvalidArgument, _)", "assign recordKey := _", "kv OwnerAddress=ownerAddr", "kv TopicName=req.TopicName", "kv Offset=req.Offset", "if err != nil", "assign _,err := compkey.Encode(&recordKey)", "call compkey.Encode(&recordKey)", "return nil,_", "call status.Error(codes.InvalidArgument, _)", "if !k.HasRecord(ctx, recordKey)", "call k.HasRecord(ctx, recordKey)", "return nil,_", "call status.Error(codes.NotFound, _)", "assign record := k.GetRecord(ctx, recordKey)", "call k.GetRecord(ctx, recordKey)", "return _,nil", "kv Record=&record"]
 
 /-- x/aol/keeper.Keeper.RemoveWriter -/
-def x_aol_keeper_Keeper_RemoveWriter : List String := ["assign store := prefix.NewStore(ctx.KVStore(k.storeKey), types.WriterKeyPrefix)", "call prefix.NewStore", "call ctx.KVStore", "call store.Delete", "call compkey.MustEncode"]
+def x_aol_keeper_Keeper_RemoveWriter : List String := ["assign store := prefix.NewStore(ctx.KVStore(k.storeKey), types.WriterKeyPrefix)", "call prefix.NewStore(ctx.KVStore(k.storeKey), types.WriterKeyPrefix)", "call ctx.KVStore(k.storeKey)", "call store.Delete(compkey.MustEncode(&key))", "call compkey.MustEncode(&key)"]
 
 /-- x/aol/keeper.Keeper.SetOwner -/
-def x_aol_keeper_Keeper_SetOwner : List String := ["assign store := prefix.NewStore(ctx.KVStore(k.storeKey), types.OwnerKeyPrefix)", "call prefix.NewStore", "call ctx.KVStore", "assign b := k.cdc.MustMarshal(&owner)", "call _.MustMarshal", "call store.Set", "call compkey.MustEncode"]
+def x_aol_keeper_Keeper_SetOwner : List String := ["assign store := prefix.NewStore(ctx.KVStore(k.storeKey), types.OwnerKeyPrefix)", "call prefix.NewStore(ctx.KVStore(k.storeKey), types.OwnerKeyPrefix)", "call ctx.KVStore(k.storeKey)", "assign b := k.cdc.MustMarshal(&owner)", "call _.MustMarshal(&owner)", "call store.Set(compkey.MustEncode(&key), b)", "call compkey.MustEncode(&key)"]
 
 /-- x/aol/keeper.Keeper.SetRecord -/
-def x_aol_keeper_Keeper_SetRecord : List String := ["assign store := prefix.NewStore(ctx.KVStore(k.storeKey), types.RecordKeyPrefix)", "call prefix.NewStore", "call ctx.KVStore", "assign b := k.cdc.MustMarshal(&record)", "call _.MustMarshal", "call store.Set", "call compkey.MustEncode"]
+def x_aol_keeper_Keeper_SetRecord : List String := ["assign store := prefix.NewStore(ctx.KVStore(k.storeKey), types.RecordKeyPrefix)", "call prefix.NewStore(ctx.KVStore(k.storeKey), types.RecordKeyPrefix)", "call ctx.KVStore(k.storeKey)", "assign b := k.cdc.MustMarshal(&record)", "call _.MustMarshal(&record)", "call store.Set(compkey.MustEncode(&key), b)", "call compkey.MustEncode(&key)"]
 
 /-- x/aol/keeper.Keeper.SetTopic -/
-def x_aol_keeper_Keeper_SetTopic : List String := ["assign store := prefix.NewStore(ctx.KVStore(k.storeKey), types.TopicKeyPrefix)", "call prefix.NewStore", "call ctx.KVStore", "assign b := k.cdc.MustMarshal(&topic)", "call _.MustMarshal", "call store.Set", "call compkey.MustEncode"]
+def x_aol_keeper_Keeper_SetTopic : List String := ["assign store := prefix.NewStore(ctx.KVStore(k.storeKey), types.TopicKeyPrefix)", "call prefix.NewStore(ctx.KVStore(k.storeKey), types.TopicKeyPrefix)", "call ctx.KVStore(k.storeKey)", "assign b := k.cdc.MustMarshal(&topic)", "call _.MustMarshal(&topic)", "call store.Set(compkey.MustEncode(&key), b)", "call compkey.MustEncode(&key)"]
 
 /-- x/aol/keeper.Keeper.SetWriter -/
-def x_aol_keeper_Keeper_SetWriter : List String := ["assign store := prefix.NewStore(ctx.KVStore(k.storeKey), types.WriterKeyPrefix)", "call prefix.NewStore", "call ctx.KVStore", "assign b := k.cdc.MustMarshal(&writer)", "call _.MustMarshal", "call store.Set", "call compkey.MustEncode"]
+def x_aol_keeper_Keeper_SetWriter : List String := ["assign store := prefix.NewStore(ctx.KVStore(k.storeKey), types.WriterKeyPrefix)", "call prefix.NewStore(ctx.KVStore(k.storeKey), types.WriterKeyPrefix)", "call ctx.KVStore(k.storeKey)", "assign b := k.cdc.MustMarshal(&writer)", "call _.MustMarshal(&writer)", "call store.Set(compkey.MustEncode(&key), b)", "call compkey.MustEncode(&key)"]
 
 /-- x/aol/keeper.Keeper.Topic -/
-def x_aol_keeper_Keeper_Topic : List String := ["if req == nil", "return nil,_", "call status.Error", "assign ctx := sdk.UnwrapSDKContext(c)", "call sdk.UnwrapSDKContext", "assign ownerAddr,err := sdk.AccAddressFromBech32(req.OwnerAddress)", "call sdk.AccAddressFromBech32", "if err != nil", "return nil,_", "call status.Error", "assign topicKey := _", "kv OwnerAddress=ownerAddr", "kv TopicName=req.TopicName", "if err != nil", "assign _,err := compkey.Encode(&topicKey)", "call compkey.Encode", "return nil,_", "call status.Error", "if !k.HasTopic(ctx, topicKey)", "call k.HasTopic", "return nil,_", "call status.Error", "assign topic := k.GetTopic(ctx, topicKey)", "call k.GetTopic", "return _,nil", "kv Topic=&topic"]
+def x_aol_keeper_Keeper_Topic : List String := ["if req == nil", "return nil,_", "call status.Error(codes.InvalidArgument, _)", "assign ctx := sdk.UnwrapSDKContext(c)", "call sdk.UnwrapSDKContext(c)", "assign ownerAddr,err := sdk.AccAddressFromBech32(req.OwnerAddress)", "call sdk.AccAddressFromBech32(req.OwnerAddress)", "if err != nil", "return nil,_", "call status.Error(codes.InvalidArgument, _)", "assign topicKey := _", "kv OwnerAddress=ownerAddr", "kv TopicName=req.TopicName", "if err != nil", "assign _,err := compkey.Encode(&topicKey)", "call compkey.Encode(&topicKey)", "return nil,_", "call status.Error(codes.InvalidArgument, _)", "if !k.HasTopic(ctx, topicKey)", "call k.HasTopic(ctx, topicKey)", "return nil,_", "call status.Error(codes.NotFound, _)", "assign topic := k.GetTopic(ctx, topicKey)", "call k.GetTopic(ctx, topicKey)", "return _,nil", "kv Topic=&topic"]
 
 /-- x/aol/keeper.Keeper.Topics -/
-def x_aol_keeper_Keeper_Topics : List String := ["if req == nil", "return nil,_", "call status.Error", "assign ctx := sdk.UnwrapSDKContext(c)", "call sdk.UnwrapSDKContext", "assign ownerAddr,err := sdk.AccAddressFromBech32(req.OwnerAddress)", "call sdk.AccAddressFromBech32", "if err != nil", "return nil,_", "call status.Error", "assign compKeyPrefix,err := _", "call compkey.PartialEncode", "kv OwnerAddress=ownerAddr", "kv TopicName=\"\"", "lit \"\"", "lit 1", "if err != nil", "return nil,_", "call status.Errorf", "call err.Error", "assign store := ctx.KVStore(k.storeKey)", "call ctx.KVStore", "assign topicStore := prefix.NewStore(store, append(types.TopicKeyPrefix, compKeyPrefix...))", "call prefix.NewStore", "call append", "assign pageRes,err := _", "call query.Paginate", "if err != nil", "assign err := compkey.Decode(append(compKeyPrefix, compKeyLast...), &compKey)", "call compkey.Decode", "call append", "return err", "assign topicNames = append(topicNames, compKey.TopicName)", "call append", "return nil", "if err != nil", "return nil,_", "call status.Error", "call err.Error", "return _,nil", "kv TopicNames=topicNames", "kv Pagination=pageRes"]
+def x_aol_keeper_Keeper_Topics : List String := ["if req == nil", "return nil,_", "call status.Error(codes.InvalidArgument, _)", "assign ctx := sdk.UnwrapSDKContext(c)", "call sdk.UnwrapSDKContext(c)", "assign ownerAddr,err := sdk.AccAddressFromBech32(req.OwnerAddress)", "call sdk.AccAddressFromBech32(req.OwnerAddress)", "if err != nil", "return nil,_", "call status.Error(codes.InvalidArgument, _)", "assign compKeyPrefix,err := _", "call compkey.PartialEncode(_, 1)", "kv OwnerAddress=ownerAddr", "kv TopicName=\"\"", "lit \"\"", "lit 1", "if err != nil", "return nil,_", "call status.Errorf(codes.Internal, _, err.Error())", "call err.Error()", "assign store := ctx.KVStore(k.storeKey)", "call ctx.KVStore(k.storeKey)", "assign topicStore := prefix.NewStore(store, append(types.TopicKeyPrefix, compKeyPrefix...))", "call prefix.NewStore(store, append(types.TopicKeyPrefix, compKeyPrefix...))", "call append(types.TopicKeyPrefix, compKeyPrefix)", "assign pageRes,err := _", "call query.Paginate(topicStore, req.Pagination, _)", "if err != nil", "assign err := compkey.Decode(append(compKeyPrefix, compKeyLast...), &compKey)", "call compkey.Decode(append(compKeyPrefix, compKeyLast...), &compKey)", "call append(compKeyPrefix, compKeyLast)", "return err", "assign topicNames = append(topicNames, compKey.TopicName)", "call append(topicNames, compKey.TopicName)", "return nil", "if err != nil", "return nil,_", "call status.Error(codes.Internal, err.Error())", "call err.Error()", "return _,nil", "kv TopicNames=topicNames", "kv Pagination=pageRes"]
 
 /-- x/aol/keeper.Keeper.Writer -/
-def x_aol_keeper_Keeper_Writer : List String := ["if req == nil", "return nil,_", "call status.Error", "assign ctx := sdk.UnwrapSDKContext(c)", "call sdk.UnwrapSDKContext", "assign ownerAddr,err := sdk.AccAddressFromBech32(req.OwnerAddress)", "call sdk.AccAddressFromBech32", "if err != nil", "return nil,_", "call status.Error", "assign writerAddr,err := sdk.AccAddressFromBech32(req.WriterAddress)", "call sdk.AccAddressFromBech32", "if err != nil", "return nil,_", "call status.Error", "assign writerKey := _", "kv OwnerAddress=ownerAddr", "kv TopicName=req.TopicName", "kv WriterAddress=writerAddr", "if err != nil", "assign _,err := compkey.Encode(&writerKey)", "call compkey.Encode", "return nil,_", "call status.Error", "if !k.HasWriter(ctx, writerKey)", "call k.HasWriter", "return nil,_", "call status.Error", "assign writer := k.GetWriter(ctx, writerKey)", "call k.GetWriter", "return _,nil", "kv Writer=&writer"]
+def x_aol_keeper_Keeper_Writer : List String := ["if req == nil", "return nil,_", "call status.Error(codes.InvalidArgument, _)", "assign ctx := sdk.UnwrapSDKContext(c)", "call sdk.UnwrapSDKContext(c)", "assign ownerAddr,err := sdk.AccAddressFromBech32(req.OwnerAddress)", "call sdk.AccAddressFromBech32(req.OwnerAddress)", "if err != nil", "return nil,_", "call status.Error(codes.InvalidArgument, _)", "assign writerAddr,err := sdk.AccAddressFromBech32(req.WriterAddress)", "call sdk.AccAddressFromBech32(req.WriterAddress)", "if err != nil", "return nil,_", "call status.Error(codes.InvalidArgument, _)", "assign writerKey := _", "kv OwnerAddress=ownerAddr", "kv TopicName=req.TopicName", "kv WriterAddress=writerAddr", "if err != nil", "assign _,err := compkey.Encode(&writerKey)", "call compkey.Encode(&writerKey)", "return nil,_", "call status.Error(codes.InvalidArgument, _)", "if !k.HasWriter(ctx, writerKey)", "call k.HasWriter(ctx, writerKey)", "return nil,_", "call status.Error(codes.NotFound, _)", "assign writer := k.GetWriter(ctx, writerKey)", "call k.GetWriter(ctx, writerKey)", "return _,nil", "kv Writer=&writer"]
 
 /-- x/aol/keeper.Keeper.Writers -/
-def x_aol_keeper_Keeper_Writers : List String := ["if req == nil", "return nil,_", "call status.Error", "assign ctx := sdk.UnwrapSDKContext(c)", "call sdk.UnwrapSDKContext", "assign ownerAddr,err := sdk.AccAddressFromBech32(req.OwnerAddress)", "call sdk.AccAddressFromBech32", "if err != nil", "return nil,_", "call status.Error", "assign compKeyPrefix,err := _", "call compkey.PartialEncode", "kv OwnerAddress=ownerAddr", "kv TopicName=req.TopicName", "kv WriterAddress=nil", "lit 2", "if err != nil", "return nil,_", "call status.Error", "assign store := ctx.KVStore(k.storeKey)", "call ctx.KVStore", "assign writerStore := prefix.NewStore(store, append(types.WriterKeyPrefix, compKeyPrefix...))", "call prefix.NewStore", "call append", "assign pageRes,err := _", "call query.Paginate", "if err != nil", "assign err := compkey.Decode(append(compKeyPrefix, compKeyLast...), &compKey)", "call compkey.Decode", "call append", "return err", "assign writerAddresses = append(writerAddresses, compKey.WriterAddress.String())", "call append", "call _.String", "return nil", "if err != nil", "return nil,_", "call status.Error", "call err.Error", "return _,nil", "kv WriterAddresses=writerAddresses", "kv Pagination=pageRes"]
+def x_aol_keeper_Keeper_Writers : List String := ["if req == nil", "return nil,_", "call status.Error(codes.InvalidArgument, _)", "assign ctx := sdk.UnwrapSDKContext(c)", "call sdk.UnwrapSDKContext(c)", "assign ownerAddr,err := sdk.AccAddressFromBech32(req.OwnerAddress)", "call sdk.AccAddressFromBech32(req.OwnerAddress)", "if err != nil", "return nil,_", "call status.Error(codes.InvalidArgument, _)", "assign compKeyPrefix,err := _", "call compkey.PartialEncode(_, 2)", "kv OwnerAddress=ownerAddr", "kv TopicName=req.TopicName", "kv WriterAddress=nil", "lit 2", "if err != nil", "return nil,_", "call status.Error(codes.Internal, _)", "assign store := ctx.KVStore(k.storeKey)", "call ctx.KVStore(k.storeKey)", "assign writerStore := prefix.NewStore(store, append(types.WriterKeyPrefix, compKeyPrefix...))", "call prefix.NewStore(store, append(types.WriterKeyPrefix, compKeyPrefix...))", "call append(types.WriterKeyPrefix, compKeyPrefix)", "assign pageRes,err := _", "call query.Paginate(writerStore, req.Pagination, _)", "if err != nil", "assign err := compkey.Decode(append(compKeyPrefix, compKeyLast...), &compKey)", "call compkey.Decode(append(compKeyPrefix, compKeyLast...), &compKey)", "call append(compKeyPrefix, compKeyLast)", "return err", "assign writerAddresses = append(writerAddresses, compKey.WriterAddress.String())", "call append(writerAddresses, compKey.WriterAddress.String())", "call _.String()", "return nil", "if err != nil", "return nil,_", "call status.Error(codes.Internal, err.Error())", "call err.Error()", "return _,nil", "kv WriterAddresses=writerAddresses", "kv Pagination=pageRes"]
 
 /-- x/aol/keeper.NewKeeper -/
 def x_aol_keeper_NewKeeper : List String := ["return _", "kv cdc=cdc", "kv storeKey=storeKey", "kv memKey=memKey"]
@@ -177,28 +177,28 @@ def x_aol_keeper_NewKeeper : List String := ["return _", "kv cdc=cdc", "kv store
 def x_aol_keeper_NewMsgServerImpl : List String := ["return _", "kv Keeper=keeper"]
 
 /-- x/aol/keeper.msgServer.AddRecord -/
-def x_aol_keeper_msgServer_AddRecord : List String := ["assign ctx := sdk.UnwrapSDKContext(goCtx)", "call sdk.UnwrapSDKContext", "assign ownerAddr,err := sdk.AccAddressFromBech32(msg.OwnerAddress)", "call sdk.AccAddressFromBech32", "if err != nil", "return nil,_", "call errors.Wrapf", "assign writerAddr,err := sdk.AccAddressFromBech32(msg.WriterAddress)", "call sdk.AccAddressFromBech32", "if err != nil", "return nil,_", "call errors.Wrapf", "assign topicKey := _", "kv OwnerAddress=ownerAddr", "kv TopicName=msg.TopicName", "if !k.HasTopic(ctx, topicKey)", "call k.HasTopic", "return nil,_", "call errors.Wrapf", "assign writerKey := _", "kv OwnerAddress=ownerAddr", "kv TopicName=msg.TopicName", "kv WriterAddress=writerAddr", "if !k.HasWriter(ctx, writerKey)", "call k.HasWriter", "return nil,_", "call errors.Wrapf", "assign topic := k.GetTopic(ctx, topicKey)", "call k.GetTopic", "assign offset := topic.NextRecordOffset()", "call topic.NextRecordOffset", "call k.SetTopic", "call topic.IncreaseTotalRecords", "assign recordKey := _", "kv OwnerAddress=ownerAddr", "kv TopicName=msg.TopicName", "kv Offset=offset", "assign record := _", "kv Key=msg.Key", "kv Value=msg.Value", "kv NanoTimestamp=ctx.BlockTime().UnixNano()", "call _.UnixNano", "call ctx.BlockTime", "kv WriterAddress=msg.WriterAddress", "call k.SetRecord", "return _,nil", "kv OwnerAddress=msg.OwnerAddress", "kv TopicName=msg.TopicName", "kv Offset=offset"]
+def x_aol_keeper_msgServer_AddRecord : List String := ["assign ctx := sdk.UnwrapSDKContext(goCtx)", "call sdk.UnwrapSDKContext(goCtx)", "assign ownerAddr,err := sdk.AccAddressFromBech32(msg.OwnerAddress)", "call sdk.AccAddressFromBech32(msg.OwnerAddress)", "if err != nil", "return nil,_", "call errors.Wrapf(sdkerrors.ErrInvalidAddress, _, err)", "assign writerAddr,err := sdk.AccAddressFromBech32(msg.WriterAddress)", "call sdk.AccAddressFromBech32(msg.WriterAddress)", "if err != nil", "return nil,_", "call errors.Wrapf(sdkerrors.ErrInvalidAddress, _, err)", "assign topicKey := _", "kv OwnerAddress=ownerAddr", "kv TopicName=msg.TopicName", "if !k.HasTopic(ctx, topicKey)", "call k.HasTopic(ctx, topicKey)", "return nil,_", "call errors.Wrapf(types.ErrTopicNotFound, _, msg.OwnerAddress, msg.TopicName)", "assign writerKey := _", "kv OwnerAddress=ownerAddr", "kv TopicName=msg.TopicName", "kv WriterAddress=writerAddr", "if !k.HasWriter(ctx, writerKey)", "call k.HasWriter(ctx, writerKey)", "return nil,_", "call errors.Wrapf(types.ErrWriterNotAuthorized, _, msg.OwnerAddress, msg.TopicName, msg.WriterAddress)", "assign topic := k.GetTopic(ctx, topicKey)", "call k.GetTopic(ctx, topicKey)", "assign offset := topic.NextRecordOffset()", "call topic.NextRecordOffset()", "call k.SetTopic(ctx, topicKey, topic.IncreaseTotalRecords())", "call topic.IncreaseTotalRecords()", "assign recordKey := _", "kv OwnerAddress=ownerAddr", "kv TopicName=msg.TopicName", "kv Offset=offset", "assign record := _", "kv Key=msg.Key", "kv Value=msg.Value", "kv NanoTimestamp=ctx.BlockTime().UnixNano()", "call _.UnixNano()", "call ctx.BlockTime()", "kv WriterAddress=msg.WriterAddress", "call k.SetRecord(ctx, recordKey, record)", "return _,nil", "kv OwnerAddress=msg.OwnerAddress", "kv TopicName=msg.TopicName", "kv Offset=offset"]
 
 /-- x/aol/keeper.msgServer.AddWriter -/
-def x_aol_keeper_msgServer_AddWriter : List String := ["assign ctx := sdk.UnwrapSDKContext(goCtx)", "call sdk.UnwrapSDKContext", "assign ownerAddr,err := sdk.AccAddressFromBech32(msg.OwnerAddress)", "call sdk.AccAddressFromBech32", "if err != nil", "return nil,_", "call errors.Wrapf", "assign writerAddr,err := sdk.AccAddressFromBech32(msg.WriterAddress)", "call sdk.AccAddressFromBech32", "if err != nil", "return nil,_", "call errors.Wrapf", "assign topicKey := _", "kv OwnerAddress=ownerAddr", "kv TopicName=msg.TopicName", "if !k.HasTopic(ctx, topicKey)", "call k.HasTopic", "return nil,_", "call errors.Wrapf", "assign writerKey := _", "kv OwnerAddress=ownerAddr", "kv TopicName=msg.TopicName", "kv WriterAddress=writerAddr", "if k.HasWriter(ctx, writerKey)", "call k.HasWriter", "return nil,_", "call errors.Wrapf", "assign topic := k.GetTopic(ctx, topicKey).IncreaseTotalWriters()", "call _.IncreaseTotalWriters", "call k.GetTopic", "call k.SetTopic", "assign writer := _", "kv Moniker=msg.Moniker", "kv Description=msg.Description", "kv NanoTimestamp=ctx.BlockTime().UnixNano()", "call _.UnixNano", "call ctx.BlockTime", "call k.SetWriter", "return _,nil"]
+def x_aol_keeper_msgServer_AddWriter : List String := ["assign ctx := sdk.UnwrapSDKContext(goCtx)", "call sdk.UnwrapSDKContext(goCtx)", "assign ownerAddr,err := sdk.AccAddressFromBech32(msg.OwnerAddress)", "call sdk.AccAddressFromBech32(msg.OwnerAddress)", "if err != nil", "return nil,_", "call errors.Wrapf(sdkerrors.ErrInvalidAddress, _, err)", "assign writerAddr,err := sdk.AccAddressFromBech32(msg.WriterAddress)", "call sdk.AccAddressFromBech32(msg.WriterAddress)", "if err != nil", "return nil,_", "call errors.Wrapf(sdkerrors.ErrInvalidAddress, _, err)", "assign topicKey := _", "kv OwnerAddress=ownerAddr", "kv TopicName=msg.TopicName", "if !k.HasTopic(ctx, topicKey)", "call k.HasTopic(ctx, topicKey)", "return nil,_", "call errors.Wrapf(types.ErrTopicNotFound, _, msg.OwnerAddress, msg.TopicName)", "assign writerKey := _", "kv OwnerAddress=ownerAddr", "kv TopicName=msg.TopicName", "kv WriterAddress=writerAddr", "if k.HasWriter(ctx, writerKey)", "call k.HasWriter(ctx, writerKey)", "return nil,_", "call errors.Wrapf(types.ErrWriterExists, _, msg.OwnerAddress, msg.TopicName, msg.WriterAddress)", "assign topic := k.GetTopic(ctx, topicKey).IncreaseTotalWriters()", "call _.IncreaseTotalWriters()", "call k.GetTopic(ctx, topicKey)", "call k.SetTopic(ctx, topicKey, topic)", "assign writer := _", "kv Moniker=msg.Moniker", "kv Description=msg.Description", "kv NanoTimestamp=ctx.BlockTime().UnixNano()", "call _.UnixNano()", "call ctx.BlockTime()", "call k.SetWriter(ctx, writerKey, writer)", "return _,nil"]
 
 /-- x/aol/keeper.msgServer.CreateTopic -/
-def x_aol_keeper_msgServer_CreateTopic : List String := ["assign ctx := sdk.UnwrapSDKContext(goCtx)", "call sdk.UnwrapSDKContext", "assign ownerAddr,err := sdk.AccAddressFromBech32(msg.OwnerAddress)", "call sdk.AccAddressFromBech32", "if err != nil", "return nil,_", "call errors.Wrapf", "assign topicKey := _", "kv OwnerAddress=ownerAddr", "kv TopicName=msg.TopicName", "if k.HasTopic(ctx, topicKey)", "call k.HasTopic", "return nil,_", "call errors.Wrapf", "assign ownerKey := _", "kv OwnerAddress=ownerAddr", "assign owner := k.GetOwner(ctx, ownerKey).IncreaseTotalTopics()", "call _.IncreaseTotalTopics", "call k.GetOwner", "call k.SetOwner", "assign topic := _", "kv Description=msg.Description", "call k.SetTopic", "return _,nil"]
+def x_aol_keeper_msgServer_CreateTopic : List String := ["assign ctx := sdk.UnwrapSDKContext(goCtx)", "call sdk.UnwrapSDKContext(goCtx)", "assign ownerAddr,err := sdk.AccAddressFromBech32(msg.OwnerAddress)", "call sdk.AccAddressFromBech32(msg.OwnerAddress)", "if err != nil", "return nil,_", "call errors.Wrapf(sdkerrors.ErrInvalidAddress, _, err)", "assign topicKey := _", "kv OwnerAddress=ownerAddr", "kv TopicName=msg.TopicName", "if k.HasTopic(ctx, topicKey)", "call k.HasTopic(ctx, topicKey)", "return nil,_", "call errors.Wrapf(types.ErrTopicExists, _, msg.OwnerAddress, msg.TopicName)", "assign ownerKey := _", "kv OwnerAddress=ownerAddr", "assign owner := k.GetOwner(ctx, ownerKey).IncreaseTotalTopics()", "call _.IncreaseTotalTopics()", "call k.GetOwner(ctx, ownerKey)", "call k.SetOwner(ctx, ownerKey, owner)", "assign topic := _", "kv Description=msg.Description", "call k.SetTopic(ctx, topicKey, topic)", "return _,nil"]
 
 /-- x/aol/keeper.msgServer.DeleteWriter -/
-def x_aol_keeper_msgServer_DeleteWriter : List String := ["assign ctx := sdk.UnwrapSDKContext(goCtx)", "call sdk.UnwrapSDKContext", "assign ownerAddr,err := sdk.AccAddressFromBech32(msg.OwnerAddress)", "call sdk.AccAddressFromBech32", "if err != nil", "return nil,_", "call errors.Wrapf", "assign writerAddr,err := sdk.AccAddressFromBech32(msg.WriterAddress)", "call sdk.AccAddressFromBech32", "if err != nil", "return nil,_", "call errors.Wrapf", "assign topicKey := _", "kv OwnerAddress=ownerAddr", "kv TopicName=msg.TopicName", "assign writerKey := _", "kv OwnerAddress=ownerAddr", "kv TopicName=msg.TopicName", "kv WriterAddress=writerAddr", "if !k.HasWriter(ctx, writerKey)", "call k.HasWriter", "return nil,_", "call errors.Wrapf", "assign topic := k.GetTopic(ctx, topicKey).DecreaseTotalWriters()", "call _.DecreaseTotalWriters", "call k.GetTopic", "call k.SetTopic", "call k.RemoveWriter", "return _,nil"]
+def x_aol_keeper_msgServer_DeleteWriter : List String := ["assign ctx := sdk.UnwrapSDKContext(goCtx)", "call sdk.UnwrapSDKContext(goCtx)", "assign ownerAddr,err := sdk.AccAddressFromBech32(msg.OwnerAddress)", "call sdk.AccAddressFromBech32(msg.OwnerAddress)", "if err != nil", "return nil,_", "call errors.Wrapf(sdkerrors.ErrInvalidAddress, _, err)", "assign writerAddr,err := sdk.AccAddressFromBech32(msg.WriterAddress)", "call sdk.AccAddressFromBech32(msg.WriterAddress)", "if err != nil", "return nil,_", "call errors.Wrapf(sdkerrors.ErrInvalidAddress, _, err)", "assign topicKey := _", "kv OwnerAddress=ownerAddr", "kv TopicName=msg.TopicName", "assign writerKey := _", "kv OwnerAddress=ownerAddr", "kv TopicName=msg.TopicName", "kv WriterAddress=writerAddr", "if !k.HasWriter(ctx, writerKey)", "call k.HasWriter(ctx, writerKey)", "return nil,_", "call errors.Wrapf(types.ErrWriterNotFound, _, msg.OwnerAddress, msg.TopicName, msg.WriterAddress)", "assign topic := k.GetTopic(ctx, topicKey).DecreaseTotalWriters()", "call _.DecreaseTotalWriters()", "call k.GetTopic(ctx, topicKey)", "call k.SetTopic(ctx, topicKey, topic)", "call k.RemoveWriter(ctx, writerKey)", "return _,nil"]
 
 /-- x/aol/types.DefaultGenesis -/
 def x_aol_types_DefaultGenesis : List String := ["return _", "kv Owners", "kv Topics", "kv Writers", "kv Records"]
 
 /-- x/aol/types.GenesisState.Validate -/
-def x_aol_types_GenesisState_Validate : List String := ["range gs.Owners", "if err != nil", "assign err := compkey.DecodeFromString(keyStr, GenesisKeySeparator, &key)", "call compkey.DecodeFromString", "return err", "if err != nil", "assign err := validateCanonicalKey(keyStr, &key)", "call validateCanonicalKey", "return err", "range gs.Topics", "if err != nil", "assign err := compkey.DecodeFromString(keyStr, GenesisKeySeparator, &key)", "call compkey.DecodeFromString", "return err", "if err != nil", "assign err := validateCanonicalKey(keyStr, &key)", "call validateCanonicalKey", "return err", "if err != nil", "assign err := topic.Validate()", "call topic.Validate", "return err", "range gs.Writers", "if err != nil", "assign err := compkey.DecodeFromString(keyStr, GenesisKeySeparator, &key)", "call compkey.DecodeFromString", "return err", "if err != nil", "assign err := validateCanonicalKey(keyStr, &key)", "call validateCanonicalKey", "return err", "if err != nil", "assign err := writer.Validate()", "call writer.Validate", "return err", "range gs.Records", "if err != nil", "assign err := compkey.DecodeFromString(keyStr, GenesisKeySeparator, &key)", "call compkey.DecodeFromString", "return err", "if err != nil", "assign err := validateCanonicalKey(keyStr, &key)", "call validateCanonicalKey", "return err", "if err != nil", "assign err := record.Validate()", "call record.Validate", "return err", "return nil"]
+def x_aol_types_GenesisState_Validate : List String := ["range gs.Owners", "if err != nil", "assign err := compkey.DecodeFromString(keyStr, GenesisKeySeparator, &key)", "call compkey.DecodeFromString(keyStr, GenesisKeySeparator, &key)", "return err", "if err != nil", "assign err := validateCanonicalKey(keyStr, &key)", "call validateCanonicalKey(keyStr, &key)", "return err", "range gs.Topics", "if err != nil", "assign err := compkey.DecodeFromString(keyStr, GenesisKeySeparator, &key)", "call compkey.DecodeFromString(keyStr, GenesisKeySeparator, &key)", "return err", "if err != nil", "assign err := validateCanonicalKey(keyStr, &key)", "call validateCanonicalKey(keyStr, &key)", "return err", "if err != nil", "assign err := topic.Validate()", "call topic.Validate()", "return err", "range gs.Writers", "if err != nil", "assign err := compkey.DecodeFromString(keyStr, GenesisKeySeparator, &key)", "call compkey.DecodeFromString(keyStr, GenesisKeySeparator, &key)", "return err", "if err != nil", "assign err := validateCanonicalKey(keyStr, &key)", "call validateCanonicalKey(keyStr, &key)", "return err", "if err != nil", "assign err := writer.Validate()", "call writer.Validate()", "return err", "range gs.Records", "if err != nil", "assign err := compkey.DecodeFromString(keyStr, GenesisKeySeparator, &key)", "call compkey.DecodeFromString(keyStr, GenesisKeySeparator, &key)", "return err", "if err != nil", "assign err := validateCanonicalKey(keyStr, &key)", "call validateCanonicalKey(keyStr, &key)", "return err", "if err != nil", "assign err := record.Validate()", "call record.Validate()", "return err", "return nil"]
 
 /-- x/aol/types.MsgAddRecordRequest.GetSignBytes -/
-def x_aol_types_MsgAddRecordRequest_GetSignBytes : List String := ["assign bz := ModuleCdc.MustMarshalJSON(msg)", "call ModuleCdc.MustMarshalJSON", "return _", "call sdk.MustSortJSON"]
+def x_aol_types_MsgAddRecordRequest_GetSignBytes : List String := ["assign bz := ModuleCdc.MustMarshalJSON(msg)", "call ModuleCdc.MustMarshalJSON(msg)", "return _", "call sdk.MustSortJSON(bz)"]
 
 /-- x/aol/types.MsgAddRecordRequest.GetSigners -/
-def x_aol_types_MsgAddRecordRequest_GetSigners : List String := ["assign writerAddress,err := sdk.AccAddressFromBech32(msg.WriterAddress)", "call sdk.AccAddressFromBech32", "if err != nil", "call panic", "if msg.FeePayerAddress != \"\"", "lit \"\"", "assign feePayerAddress,err := sdk.AccAddressFromBech32(msg.FeePayerAddress)", "call sdk.AccAddressFromBech32", "if err != nil", "call panic", "return _", "return _"]
+def x_aol_types_MsgAddRecordRequest_GetSigners : List String := ["assign writerAddress,err := sdk.AccAddressFromBech32(msg.WriterAddress)", "call sdk.AccAddressFromBech32(msg.WriterAddress)", "if err != nil", "call panic(err)", "if msg.FeePayerAddress != \"\"", "lit \"\"", "assign feePayerAddress,err := sdk.AccAddressFromBech32(msg.FeePayerAddress)", "call sdk.AccAddressFromBech32(msg.FeePayerAddress)", "if err != nil", "call panic(err)", "return _", "return _"]
 
 /-- x/aol/types.MsgAddRecordRequest.Route -/
 def x_aol_types_MsgAddRecordRequest_Route : List String := ["return RouterKey"]
@@ -207,13 +207,13 @@ def x_aol_types_MsgAddRecordRequest_Route : List String := ["return RouterKey"]
 def x_aol_types_MsgAddRecordRequest_Type : List String := ["return \"AddRecord\"", "lit \"AddRecord\""]
 
 /-- x/aol/types.MsgAddRecordRequest.ValidateBasic -/
-def x_aol_types_MsgAddRecordRequest_ValidateBasic : List String := ["if err != nil", "assign err := validateTopicName(msg.TopicName)", "call validateTopicName", "return err", "if err != nil", "assign err := validateRecordKey(msg.Key)", "call validateRecordKey", "return err", "if err != nil", "assign err := validateRecordValue(msg.Value)", "call validateRecordValue", "return err", "if err != nil", "assign _,err := sdk.AccAddressFromBech32(msg.WriterAddress)", "call sdk.AccAddressFromBech32", "return _", "call errors.Wrapf", "if err != nil", "assign _,err := sdk.AccAddressFromBech32(msg.OwnerAddress)", "call sdk.AccAddressFromBech32", "return _", "call errors.Wrapf", "if msg.FeePayerAddress != \"\"", "lit \"\"", "if err != nil", "assign _,err := sdk.AccAddressFromBech32(msg.FeePayerAddress)", "call sdk.AccAddressFromBech32", "return _", "call errors.Wrapf", "return nil"]
+def x_aol_types_MsgAddRecordRequest_ValidateBasic : List String := ["if err != nil", "assign err := validateTopicName(msg.TopicName)", "call validateTopicName(msg.TopicName)", "return err", "if err != nil", "assign err := validateRecordKey(msg.Key)", "call validateRecordKey(msg.Key)", "return err", "if err != nil", "assign err := validateRecordValue(msg.Value)", "call validateRecordValue(msg.Value)", "return err", "if err != nil", "assign _,err := sdk.AccAddressFromBech32(msg.WriterAddress)", "call sdk.AccAddressFromBech32(msg.WriterAddress)", "return _", "call errors.Wrapf(sdkerrors.ErrInvalidAddress, _, err)", "if err != nil", "assign _,err := sdk.AccAddressFromBech32(msg.OwnerAddress)", "call sdk.AccAddressFromBech32(msg.OwnerAddress)", "return _", "call errors.Wrapf(sdkerrors.ErrInvalidAddress, _, err)", "if msg.FeePayerAddress != \"\"", "lit \"\"", "if err != nil", "assign _,err := sdk.AccAddressFromBech32(msg.FeePayerAddress)", "call sdk.AccAddressFromBech32(msg.FeePayerAddress)", "return _", "call errors.Wrapf(sdkerrors.ErrInvalidAddress, _, err)", "return nil"]
 
 /-- x/aol/types.MsgAddWriterRequest.GetSignBytes -/
-def x_aol_types_MsgAddWriterRequest_GetSignBytes : List String := ["assign bz := ModuleCdc.MustMarshalJSON(msg)", "call ModuleCdc.MustMarshalJSON", "return _", "call sdk.MustSortJSON"]
+def x_aol_types_MsgAddWriterRequest_GetSignBytes : List String := ["assign bz := ModuleCdc.MustMarshalJSON(msg)", "call ModuleCdc.MustMarshalJSON(msg)", "return _", "call sdk.MustSortJSON(bz)"]
 
 /-- x/aol/types.MsgAddWriterRequest.GetSigners -/
-def x_aol_types_MsgAddWriterRequest_GetSigners : List String := ["assign ownerAddress,err := sdk.AccAddressFromBech32(msg.OwnerAddress)", "call sdk.AccAddressFromBech32", "if err != nil", "call panic", "return _"]
+def x_aol_types_MsgAddWriterRequest_GetSigners : List String := ["assign ownerAddress,err := sdk.AccAddressFromBech32(msg.OwnerAddress)", "call sdk.AccAddressFromBech32(msg.OwnerAddress)", "if err != nil", "call panic(err)", "return _"]
 
 /-- x/aol/types.MsgAddWriterRequest.Route -/
 def x_aol_types_MsgAddWriterRequest_Route : List String := ["return RouterKey"]
@@ -222,13 +222,13 @@ def x_aol_types_MsgAddWriterRequest_Route : List String := ["return RouterKey"]
 def x_aol_types_MsgAddWriterRequest_Type : List String := ["return \"AddWriter\"", "lit \"AddWriter\""]
 
 /-- x/aol/types.MsgAddWriterRequest.ValidateBasic -/
-def x_aol_types_MsgAddWriterRequest_ValidateBasic : List String := ["if err != nil", "assign err := validateTopicName(msg.TopicName)", "call validateTopicName", "return err", "if err != nil", "assign err := validateMoniker(msg.Moniker)", "call validateMoniker", "return err", "if err != nil", "assign err := validateDescription(msg.Description)", "call validateDescription", "return err", "if err != nil", "assign _,err := sdk.AccAddressFromBech32(msg.WriterAddress)", "call sdk.AccAddressFromBech32", "return _", "call errors.Wrapf", "if err != nil", "assign _,err := sdk.AccAddressFromBech32(msg.OwnerAddress)", "call sdk.AccAddressFromBech32", "return _", "call errors.Wrapf", "return nil"]
+def x_aol_types_MsgAddWriterRequest_ValidateBasic : List String := ["if err != nil", "assign err := validateTopicName(msg.TopicName)", "call validateTopicName(msg.TopicName)", "return err", "if err != nil", "assign err := validateMoniker(msg.Moniker)", "call validateMoniker(msg.Moniker)", "return err", "if err != nil", "assign err := validateDescription(msg.Description)", "call validateDescription(msg.Description)", "return err", "if err != nil", "assign _,err := sdk.AccAddressFromBech32(msg.WriterAddress)", "call sdk.AccAddressFromBech32(msg.WriterAddress)", "return _", "call errors.Wrapf(sdkerrors.ErrInvalidAddress, _, err)", "if err != nil", "assign _,err := sdk.AccAddressFromBech32(msg.OwnerAddress)", "call sdk.AccAddressFromBech32(msg.OwnerAddress)", "return _", "call errors.Wrapf(sdkerrors.ErrInvalidAddress, _, err)", "return nil"]
 
 /-- x/aol/types.MsgCreateTopicRequest.GetSignBytes -/
-def x_aol_types_MsgCreateTopicRequest_GetSignBytes : List String := ["assign bz := ModuleCdc.MustMarshalJSON(msg)", "call ModuleCdc.MustMarshalJSON", "return _", "call sdk.MustSortJSON"]
+def x_aol_types_MsgCreateTopicRequest_GetSignBytes : List String := ["assign bz := ModuleCdc.MustMarshalJSON(msg)", "call ModuleCdc.MustMarshalJSON(msg)", "return _", "call sdk.MustSortJSON(bz)"]
 
 /-- x/aol/types.MsgCreateTopicRequest.GetSigners -/
-def x_aol_types_MsgCreateTopicRequest_GetSigners : List String := ["assign ownerAddress,err := sdk.AccAddressFromBech32(msg.OwnerAddress)", "call sdk.AccAddressFromBech32", "if err != nil", "call panic", "return _"]
+def x_aol_types_MsgCreateTopicRequest_GetSigners : List String := ["assign ownerAddress,err := sdk.AccAddressFromBech32(msg.OwnerAddress)", "call sdk.AccAddressFromBech32(msg.OwnerAddress)", "if err != nil", "call panic(err)", "return _"]
 
 /-- x/aol/types.MsgCreateTopicRequest.Route -/
 def x_aol_types_MsgCreateTopicRequest_Route : List String := ["return RouterKey"]
@@ -237,13 +237,13 @@ def x_aol_types_MsgCreateTopicRequest_Route : List String := ["return RouterKey"
 def x_aol_types_MsgCreateTopicRequest_Type : List String := ["return \"CreateTopic\"", "lit \"CreateTopic\""]
 
 /-- x/aol/types.MsgCreateTopicRequest.ValidateBasic -/
-def x_aol_types_MsgCreateTopicRequest_ValidateBasic : List String := ["if err != nil", "assign err := validateTopicName(msg.TopicName)", "call validateTopicName", "return err", "if err != nil", "assign err := validateDescription(msg.Description)", "call validateDescription", "return err", "if err != nil", "assign _,err := sdk.AccAddressFromBech32(msg.OwnerAddress)", "call sdk.AccAddressFromBech32", "return _", "call errors.Wrapf", "return nil"]
+def x_aol_types_MsgCreateTopicRequest_ValidateBasic : List String := ["if err != nil", "assign err := validateTopicName(msg.TopicName)", "call validateTopicName(msg.TopicName)", "return err", "if err != nil", "assign err := validateDescription(msg.Description)", "call validateDescription(msg.Description)", "return err", "if err != nil", "assign _,err := sdk.AccAddressFromBech32(msg.OwnerAddress)", "call sdk.AccAddressFromBech32(msg.OwnerAddress)", "return _", "call errors.Wrapf(sdkerrors.ErrInvalidAddress, _, err)", "return nil"]
 
 /-- x/aol/types.MsgDeleteWriterRequest.GetSignBytes -/
-def x_aol_types_MsgDeleteWriterRequest_GetSignBytes : List String := ["assign bz := ModuleCdc.MustMarshalJSON(msg)", "call ModuleCdc.MustMarshalJSON", "return _", "call sdk.MustSortJSON"]
+def x_aol_types_MsgDeleteWriterRequest_GetSignBytes : List String := ["assign bz := ModuleCdc.MustMarshalJSON(msg)", "call ModuleCdc.MustMarshalJSON(msg)", "return _", "call sdk.MustSortJSON(bz)"]
 
 /-- x/aol/types.MsgDeleteWriterRequest.GetSigners -/
-def x_aol_types_MsgDeleteWriterRequest_GetSigners : List String := ["assign ownerAddress,err := sdk.AccAddressFromBech32(msg.OwnerAddress)", "call sdk.AccAddressFromBech32", "if err != nil", "call panic", "return _"]
+def x_aol_types_MsgDeleteWriterRequest_GetSigners : List String := ["assign ownerAddress,err := sdk.AccAddressFromBech32(msg.OwnerAddress)", "call sdk.AccAddressFromBech32(msg.OwnerAddress)", "if err != nil", "call panic(err)", "return _"]
 
 /-- x/aol/types.MsgDeleteWriterRequest.Route -/
 def x_aol_types_MsgDeleteWriterRequest_Route : List String := ["return RouterKey"]
@@ -252,7 +252,7 @@ def x_aol_types_MsgDeleteWriterRequest_Route : List String := ["return RouterKey
 def x_aol_types_MsgDeleteWriterRequest_Type : List String := ["return \"DeleteWriter\"", "lit \"DeleteWriter\""]
 
 /-- x/aol/types.MsgDeleteWriterRequest.ValidateBasic -/
-def x_aol_types_MsgDeleteWriterRequest_ValidateBasic : List String := ["if err != nil", "assign err := validateTopicName(msg.TopicName)", "call validateTopicName", "return err", "if err != nil", "assign _,err := sdk.AccAddressFromBech32(msg.WriterAddress)", "call sdk.AccAddressFromBech32", "return _", "call errors.Wrapf", "if err != nil", "assign _,err := sdk.AccAddressFromBech32(msg.OwnerAddress)", "call sdk.AccAddressFromBech32", "return _", "call errors.Wrapf", "return nil"]
+def x_aol_types_MsgDeleteWriterRequest_ValidateBasic : List String := ["if err != nil", "assign err := validateTopicName(msg.TopicName)", "call validateTopicName(msg.TopicName)", "return err", "if err != nil", "assign _,err := sdk.AccAddressFromBech32(msg.WriterAddress)", "call sdk.AccAddressFromBech32(msg.WriterAddress)", "return _", "call errors.Wrapf(sdkerrors.ErrInvalidAddress, _, err)", "if err != nil", "assign _,err := sdk.AccAddressFromBech32(msg.OwnerAddress)", "call sdk.AccAddressFromBech32(msg.OwnerAddress)", "return _", "call errors.Wrapf(sdkerrors.ErrInvalidAddress, _, err)", "return nil"]
 
 /-- x/aol/types.NewMsgAddRecordRequest -/
 def x_aol_types_NewMsgAddRecordRequest : List String := ["return _", "kv TopicName=topicName", "kv Key=key", "kv Value=value", "kv WriterAddress=writerAddress", "kv OwnerAddress=ownerAddress", "kv FeePayerAddress=feePayerAddress"]
@@ -270,37 +270,37 @@ def x_aol_types_NewMsgDeleteWriter : List String := ["return _", "kv TopicName=t
 def x_aol_types_Owner_IncreaseTotalTopics : List String := ["return _", "kv TotalTopics=o.TotalTopics + 1", "op +", "lit 1"]
 
 /-- x/aol/types.OwnerCompositeKey.ByteSlices -/
-def x_aol_types_OwnerCompositeKey_ByteSlices : List String := ["return _", "call _.Bytes"]
+def x_aol_types_OwnerCompositeKey_ByteSlices : List String := ["return _", "call _.Bytes()"]
 
 /-- x/aol/types.OwnerCompositeKey.FromByteSlices -/
-def x_aol_types_OwnerCompositeKey_FromByteSlices : List String := ["if len(bzs) != 1", "call len", "lit 1", "return _", "call fmt.Errorf", "if err != nil", "assign err := sdk.VerifyAddressFormat(bzs[0])", "call sdk.VerifyAddressFormat", "lit 0", "return _", "call fmt.Errorf", "assign k.OwnerAddress = bzs[0]", "lit 0", "return nil"]
+def x_aol_types_OwnerCompositeKey_FromByteSlices : List String := ["if len(bzs) != 1", "call len(bzs)", "lit 1", "return _", "call fmt.Errorf(_)", "if err != nil", "assign err := sdk.VerifyAddressFormat(bzs[0])", "call sdk.VerifyAddressFormat(bzs[0])", "lit 0", "return _", "call fmt.Errorf(_, err)", "assign k.OwnerAddress = bzs[0]", "lit 0", "return nil"]
 
 /-- x/aol/types.OwnerCompositeKey.FromStrings -/
-def x_aol_types_OwnerCompositeKey_FromStrings : List String := ["if len(strings) != 1", "call len", "lit 1", "return _", "call fmt.Errorf", "assign addr,err := sdk.AccAddressFromBech32(strings[0])", "call sdk.AccAddressFromBech32", "lit 0", "if err != nil", "return _", "call fmt.Errorf", "assign k.OwnerAddress = addr", "return nil"]
+def x_aol_types_OwnerCompositeKey_FromStrings : List String := ["if len(strings) != 1", "call len(strings)", "lit 1", "return _", "call fmt.Errorf(_)", "assign addr,err := sdk.AccAddressFromBech32(strings[0])", "call sdk.AccAddressFromBech32(strings[0])", "lit 0", "if err != nil", "return _", "call fmt.Errorf(_, err)", "assign k.OwnerAddress = addr", "return nil"]
 
 /-- x/aol/types.OwnerCompositeKey.Strings -/
-def x_aol_types_OwnerCompositeKey_Strings : List String := ["return _", "call _.String"]
+def x_aol_types_OwnerCompositeKey_Strings : List String := ["return _", "call _.String()"]
 
 /-- x/aol/types.Record.Validate -/
-def x_aol_types_Record_Validate : List String := ["if err != nil", "assign err := validateRecordKey(r.Key)", "call validateRecordKey", "return err", "if err != nil", "assign err := validateRecordValue(r.Key)", "call validateRecordValue", "return err", "if err != nil", "assign _,err := sdk.AccAddressFromBech32(r.WriterAddress)", "call sdk.AccAddressFromBech32", "return err", "return nil"]
+def x_aol_types_Record_Validate : List String := ["if err != nil", "assign err := validateRecordKey(r.Key)", "call validateRecordKey(r.Key)", "return err", "if err != nil", "assign err := validateRecordValue(r.Key)", "call validateRecordValue(r.Key)", "return err", "if err != nil", "assign _,err := sdk.AccAddressFromBech32(r.WriterAddress)", "call sdk.AccAddressFromBech32(r.WriterAddress)", "return err", "return nil"]
 
 /-- x/aol/types.RecordCompositeKey.ByteSlices -/
-def x_aol_types_RecordCompositeKey_ByteSlices : List String := ["return _", "call _.Bytes", "call ?", "call sdk.Uint64ToBigEndian"]
+def x_aol_types_RecordCompositeKey_ByteSlices : List String := ["return _", "call _.Bytes()", "call ?(k.TopicName)", "call sdk.Uint64ToBigEndian(k.Offset)"]
 
 /-- x/aol/types.RecordCompositeKey.FromByteSlices -/
-def x_aol_types_RecordCompositeKey_FromByteSlices : List String := ["if len(bzs) != 3", "call len", "lit 3", "return _", "call fmt.Errorf", "if err != nil", "assign err := sdk.VerifyAddressFormat(bzs[0])", "call sdk.VerifyAddressFormat", "lit 0", "return _", "call fmt.Errorf", "if len(bzs[2]) != 8", "call len", "lit 2", "lit 8", "return _", "call fmt.Errorf", "call len", "lit 2", "assign k.OwnerAddress = bzs[0]", "lit 0", "assign k.TopicName = string(bzs[1])", "call string", "lit 1", "assign k.Offset = sdk.BigEndianToUint64(bzs[2])", "call sdk.BigEndianToUint64", "lit 2", "return nil"]
+def x_aol_types_RecordCompositeKey_FromByteSlices : List String := ["if len(bzs) != 3", "call len(bzs)", "lit 3", "return _", "call fmt.Errorf(_)", "if err != nil", "assign err := sdk.VerifyAddressFormat(bzs[0])", "call sdk.VerifyAddressFormat(bzs[0])", "lit 0", "return _", "call fmt.Errorf(_, err)", "if len(bzs[2]) != 8", "call len(bzs[2])", "lit 2", "lit 8", "return _", "call fmt.Errorf(_, len(bzs[2]))", "call len(bzs[2])", "lit 2", "assign k.OwnerAddress = bzs[0]", "lit 0", "assign k.TopicName = string(bzs[1])", "call string(bzs[1])", "lit 1", "assign k.Offset = sdk.BigEndianToUint64(bzs[2])", "call sdk.BigEndianToUint64(bzs[2])", "lit 2", "return nil"]
 
 /-- x/aol/types.RecordCompositeKey.FromStrings -/
-def x_aol_types_RecordCompositeKey_FromStrings : List String := ["if len(strings) != 3", "call len", "lit 3", "return _", "call fmt.Errorf", "assign ownerAddr,err := sdk.AccAddressFromBech32(strings[0])", "call sdk.AccAddressFromBech32", "lit 0", "if err != nil", "return _", "call fmt.Errorf", "assign offset,err := strconv.ParseUint(strings[2], 10, 64)", "call strconv.ParseUint", "lit 2", "lit 10", "lit 64", "if err != nil", "return _", "call fmt.Errorf", "assign k.OwnerAddress = ownerAddr", "assign k.TopicName = strings[1]", "lit 1", "assign k.Offset = offset", "return nil"]
+def x_aol_types_RecordCompositeKey_FromStrings : List String := ["if len(strings) != 3", "call len(strings)", "lit 3", "return _", "call fmt.Errorf(_)", "assign ownerAddr,err := sdk.AccAddressFromBech32(strings[0])", "call sdk.AccAddressFromBech32(strings[0])", "lit 0", "if err != nil", "return _", "call fmt.Errorf(_, err)", "assign offset,err := strconv.ParseUint(strings[2], 10, 64)", "call strconv.ParseUint(strings[2], 10, 64)", "lit 2", "lit 10", "lit 64", "if err != nil", "return _", "call fmt.Errorf(_, err)", "assign k.OwnerAddress = ownerAddr", "assign k.TopicName = strings[1]", "lit 1", "assign k.Offset = offset", "return nil"]
 
 /-- x/aol/types.RecordCompositeKey.Strings -/
-def x_aol_types_RecordCompositeKey_Strings : List String := ["return _", "call _.String", "call strconv.FormatUint", "lit 10"]
+def x_aol_types_RecordCompositeKey_Strings : List String := ["return _", "call _.String()", "call strconv.FormatUint(k.Offset, 10)", "lit 10"]
 
 /-- x/aol/types.RegisterCodec -/
-def x_aol_types_RegisterCodec : List String := ["call cdc.RegisterConcrete", "lit \"aol/CreateTopic\"", "call cdc.RegisterConcrete", "lit \"aol/AddWriter\"", "call cdc.RegisterConcrete", "lit \"aol/DeleteWriter\"", "call cdc.RegisterConcrete", "lit \"aol/AddRecord\""]
+def x_aol_types_RegisterCodec : List String := ["call cdc.RegisterConcrete(_, \"aol/CreateTopic\", nil)", "lit \"aol/CreateTopic\"", "call cdc.RegisterConcrete(_, \"aol/AddWriter\", nil)", "lit \"aol/AddWriter\"", "call cdc.RegisterConcrete(_, \"aol/DeleteWriter\", nil)", "lit \"aol/DeleteWriter\"", "call cdc.RegisterConcrete(_, \"aol/AddRecord\", nil)", "lit \"aol/AddRecord\""]
 
 /-- x/aol/types.RegisterInterfaces -/
-def x_aol_types_RegisterInterfaces : List String := ["call registry.RegisterImplementations", "call ?", "call msgservice.RegisterMsgServiceDesc"]
+def x_aol_types_RegisterInterfaces : List String := ["call registry.RegisterImplementations((*sdk.Msg)(nil), _, _, _, _)", "call ?(nil)", "call msgservice.RegisterMsgServiceDesc(registry, &_Msg_serviceDesc)"]
 
 /-- x/aol/types.Topic.DecreaseTotalWriters -/
 def x_aol_types_Topic_DecreaseTotalWriters : List String := ["return _", "kv TotalRecords=t.TotalRecords", "kv TotalWriters=t.TotalWriters - 1", "op -", "lit 1", "kv Description=t.Description"]
@@ -315,55 +315,55 @@ def x_aol_types_Topic_IncreaseTotalWriters : List String := ["return _", "kv Tot
 def x_aol_types_Topic_NextRecordOffset : List String := ["return _"]
 
 /-- x/aol/types.Topic.Validate -/
-def x_aol_types_Topic_Validate : List String := ["return _", "call validateDescription"]
+def x_aol_types_Topic_Validate : List String := ["return _", "call validateDescription(t.Description)"]
 
 /-- x/aol/types.TopicCompositeKey.ByteSlices -/
-def x_aol_types_TopicCompositeKey_ByteSlices : List String := ["return _", "call _.Bytes", "call ?"]
+def x_aol_types_TopicCompositeKey_ByteSlices : List String := ["return _", "call _.Bytes()", "call ?(k.TopicName)"]
 
 /-- x/aol/types.TopicCompositeKey.FromByteSlices -/
-def x_aol_types_TopicCompositeKey_FromByteSlices : List String := ["if len(bzs) != 2", "call len", "lit 2", "return _", "call fmt.Errorf", "if err != nil", "assign err := sdk.VerifyAddressFormat(bzs[0])", "call sdk.VerifyAddressFormat", "lit 0", "return _", "call fmt.Errorf", "assign k.OwnerAddress = bzs[0]", "lit 0", "assign k.TopicName = string(bzs[1])", "call string", "lit 1", "return nil"]
+def x_aol_types_TopicCompositeKey_FromByteSlices : List String := ["if len(bzs) != 2", "call len(bzs)", "lit 2", "return _", "call fmt.Errorf(_)", "if err != nil", "assign err := sdk.VerifyAddressFormat(bzs[0])", "call sdk.VerifyAddressFormat(bzs[0])", "lit 0", "return _", "call fmt.Errorf(_, err)", "assign k.OwnerAddress = bzs[0]", "lit 0", "assign k.TopicName = string(bzs[1])", "call string(bzs[1])", "lit 1", "return nil"]
 
 /-- x/aol/types.TopicCompositeKey.FromStrings -/
-def x_aol_types_TopicCompositeKey_FromStrings : List String := ["if len(strings) != 2", "call len", "lit 2", "return _", "call fmt.Errorf", "assign addr,err := sdk.AccAddressFromBech32(strings[0])", "call sdk.AccAddressFromBech32", "lit 0", "if err != nil", "return _", "call fmt.Errorf", "assign k.OwnerAddress = addr", "assign k.TopicName = strings[1]", "lit 1", "return nil"]
+def x_aol_types_TopicCompositeKey_FromStrings : List String := ["if len(strings) != 2", "call len(strings)", "lit 2", "return _", "call fmt.Errorf(_)", "assign addr,err := sdk.AccAddressFromBech32(strings[0])", "call sdk.AccAddressFromBech32(strings[0])", "lit 0", "if err != nil", "return _", "call fmt.Errorf(_, err)", "assign k.OwnerAddress = addr", "assign k.TopicName = strings[1]", "lit 1", "return nil"]
 
 /-- x/aol/types.TopicCompositeKey.Strings -/
-def x_aol_types_TopicCompositeKey_Strings : List String := ["return _", "call _.String"]
+def x_aol_types_TopicCompositeKey_Strings : List String := ["return _", "call _.String()"]
 
 /-- x/aol/types.Writer.Validate -/
-def x_aol_types_Writer_Validate : List String := ["if err != nil", "assign err := validateMoniker(w.Moniker)", "call validateMoniker", "return err", "if err != nil", "assign err := validateDescription(w.Description)", "call validateDescription", "return err", "return nil"]
+def x_aol_types_Writer_Validate : List String := ["if err != nil", "assign err := validateMoniker(w.Moniker)", "call validateMoniker(w.Moniker)", "return err", "if err != nil", "assign err := validateDescription(w.Description)", "call validateDescription(w.Description)", "return err", "return nil"]
 
 /-- x/aol/types.WriterCompositeKey.ByteSlices -/
-def x_aol_types_WriterCompositeKey_ByteSlices : List String := ["return _", "call _.Bytes", "call ?", "call _.Bytes"]
+def x_aol_types_WriterCompositeKey_ByteSlices : List String := ["return _", "call _.Bytes()", "call ?(k.TopicName)", "call _.Bytes()"]
 
 /-- x/aol/types.WriterCompositeKey.FromByteSlices -/
-def x_aol_types_WriterCompositeKey_FromByteSlices : List String := ["if len(bzs) != 3", "call len", "lit 3", "return _", "call fmt.Errorf", "if err != nil", "assign err := sdk.VerifyAddressFormat(bzs[0])", "call sdk.VerifyAddressFormat", "lit 0", "return _", "call fmt.Errorf", "if err != nil", "assign err := sdk.VerifyAddressFormat(bzs[2])", "call sdk.VerifyAddressFormat", "lit 2", "return _", "call fmt.Errorf", "assign k.OwnerAddress = bzs[0]", "lit 0", "assign k.TopicName = string(bzs[1])", "call string", "lit 1", "assign k.WriterAddress = bzs[2]", "lit 2", "return nil"]
+def x_aol_types_WriterCompositeKey_FromByteSlices : List String := ["if len(bzs) != 3", "call len(bzs)", "lit 3", "return _", "call fmt.Errorf(_)", "if err != nil", "assign err := sdk.VerifyAddressFormat(bzs[0])", "call sdk.VerifyAddressFormat(bzs[0])", "lit 0", "return _", "call fmt.Errorf(_, err)", "if err != nil", "assign err := sdk.VerifyAddressFormat(bzs[2])", "call sdk.VerifyAddressFormat(bzs[2])", "lit 2", "return _", "call fmt.Errorf(_, err)", "assign k.OwnerAddress = bzs[0]", "lit 0", "assign k.TopicName = string(bzs[1])", "call string(bzs[1])", "lit 1", "assign k.WriterAddress = bzs[2]", "lit 2", "return nil"]
 
 /-- x/aol/types.WriterCompositeKey.FromStrings -/
-def x_aol_types_WriterCompositeKey_FromStrings : List String := ["if len(strings) != 3", "call len", "lit 3", "return _", "call fmt.Errorf", "assign ownerAddr,err := sdk.AccAddressFromBech32(strings[0])", "call sdk.AccAddressFromBech32", "lit 0", "if err != nil", "return _", "call fmt.Errorf", "assign writerAddr,err := sdk.AccAddressFromBech32(strings[2])", "call sdk.AccAddressFromBech32", "lit 2", "if err != nil", "return _", "call fmt.Errorf", "assign k.OwnerAddress = ownerAddr", "assign k.TopicName = strings[1]", "lit 1", "assign k.WriterAddress = writerAddr", "return nil"]
+def x_aol_types_WriterCompositeKey_FromStrings : List String := ["if len(strings) != 3", "call len(strings)", "lit 3", "return _", "call fmt.Errorf(_)", "assign ownerAddr,err := sdk.AccAddressFromBech32(strings[0])", "call sdk.AccAddressFromBech32(strings[0])", "lit 0", "if err != nil", "return _", "call fmt.Errorf(_, err)", "assign writerAddr,err := sdk.AccAddressFromBech32(strings[2])", "call sdk.AccAddressFromBech32(strings[2])", "lit 2", "if err != nil", "return _", "call fmt.Errorf(_, err)", "assign k.OwnerAddress = ownerAddr", "assign k.TopicName = strings[1]", "lit 1", "assign k.WriterAddress = writerAddr", "return nil"]
 
 /-- x/aol/types.WriterCompositeKey.Strings -/
-def x_aol_types_WriterCompositeKey_Strings : List String := ["return _", "call _.String", "call _.String"]
+def x_aol_types_WriterCompositeKey_Strings : List String := ["return _", "call _.String()", "call _.String()"]
 
 /-- x/aol/types.init -/
-def x_aol_types_init : List String := ["call RegisterCodec", "call amino.Seal"]
+def x_aol_types_init : List String := ["call RegisterCodec(amino)", "call amino.Seal()"]
 
 /-- x/aol/types.validateCanonicalKey -/
-def x_aol_types_validateCanonicalKey : List String := ["if canonical != keyStr", "assign canonical := compkey.EncodeToString(key, GenesisKeySeparator)", "call compkey.EncodeToString", "return _", "call fmt.Errorf", "return nil"]
+def x_aol_types_validateCanonicalKey : List String := ["if canonical != keyStr", "assign canonical := compkey.EncodeToString(key, GenesisKeySeparator)", "call compkey.EncodeToString(key, GenesisKeySeparator)", "return _", "call fmt.Errorf(_, keyStr, canonical)", "return nil"]
 
 /-- x/aol/types.validateDescription -/
-def x_aol_types_validateDescription : List String := ["if len(description) > maxDescriptionLength", "call len", "return _", "call errors.Wrapf", "call len", "return nil"]
+def x_aol_types_validateDescription : List String := ["if len(description) > maxDescriptionLength", "call len(description)", "return _", "call errors.Wrapf(ErrMessageTooLarge, _, len(description), maxDescriptionLength)", "call len(description)", "return nil"]
 
 /-- x/aol/types.validateMoniker -/
-def x_aol_types_validateMoniker : List String := ["if len(moniker) > maxMonikerLength", "call len", "return _", "call errors.Wrapf", "call len", "if !regexp.MustCompile(\"^[A-Za-z0-9._-]*$\").MatchString(moniker)", "call _.MatchString", "call regexp.MustCompile", "lit \"^[A-Za-z0-9._-]*$\"", "return _", "call errors.Wrapf", "return nil"]
+def x_aol_types_validateMoniker : List String := ["if len(moniker) > maxMonikerLength", "call len(moniker)", "return _", "call errors.Wrapf(ErrMessageTooLarge, _, len(moniker), maxMonikerLength)", "call len(moniker)", "if !regexp.MustCompile(\"^[A-Za-z0-9._-]*$\").MatchString(moniker)", "call _.MatchString(moniker)", "call regexp.MustCompile(\"^[A-Za-z0-9._-]*$\")", "lit \"^[A-Za-z0-9._-]*$\"", "return _", "call errors.Wrapf(ErrInvalidMoniker, _, moniker)", "return nil"]
 
 /-- x/aol/types.validateRecordKey -/
-def x_aol_types_validateRecordKey : List String := ["if len(key) > maxRecordKeyLength", "call len", "return _", "call errors.Wrapf", "call len", "return nil"]
+def x_aol_types_validateRecordKey : List String := ["if len(key) > maxRecordKeyLength", "call len(key)", "return _", "call errors.Wrapf(ErrMessageTooLarge, _, len(key), maxRecordKeyLength)", "call len(key)", "return nil"]
 
 /-- x/aol/types.validateRecordValue -/
-def x_aol_types_validateRecordValue : List String := ["if len(value) > maxRecordValueLength", "call len", "return _", "call errors.Wrapf", "call len", "return nil"]
+def x_aol_types_validateRecordValue : List String := ["if len(value) > maxRecordValueLength", "call len(value)", "return _", "call errors.Wrapf(ErrMessageTooLarge, _, len(value), maxRecordValueLength)", "call len(value)", "return nil"]
 
 /-- x/aol/types.validateTopicName -/
-def x_aol_types_validateTopicName : List String := ["if len(topicName) > maxTopicLength", "call len", "return _", "call errors.Wrapf", "call len", "if !regexp.MustCompile(\"^[A-Za-z0-9._-]+$\").MatchString(topicName)", "call _.MatchString", "call regexp.MustCompile", "lit \"^[A-Za-z0-9._-]+$\"", "return _", "call errors.Wrapf", "return nil"]
+def x_aol_types_validateTopicName : List String := ["if len(topicName) > maxTopicLength", "call len(topicName)", "return _", "call errors.Wrapf(ErrMessageTooLarge, _, len(topicName), maxTopicLength)", "call len(topicName)", "if !regexp.MustCompile(\"^[A-Za-z0-9._-]+$\").MatchString(topicName)", "call _.MatchString(topicName)", "call regexp.MustCompile(\"^[A-Za-z0-9._-]+$\")", "lit \"^[A-Za-z0-9._-]+$\"", "return _", "call errors.Wrapf(ErrInvalidTopic, _, topicName)", "return nil"]
 
 /-- x/burn.AppModule.BeginBlock -/
 def x_burn_AppModule_BeginBlock : List String := []
@@ -372,16 +372,16 @@ def x_burn_AppModule_BeginBlock : List String := []
 def x_burn_AppModule_ConsensusVersion : List String := ["return 1", "lit 1"]
 
 /-- x/burn.AppModule.EndBlock -/
-def x_burn_AppModule_EndBlock : List String := ["assign err := am.keeper.BurnCoins(ctx, types.BurnAddress)", "call _.BurnCoins", "if err != nil", "call _.Error", "call ctx.Logger", "call fmt.Sprintf", "lit \"msg : %s\"", "call err.Error", "return _"]
+def x_burn_AppModule_EndBlock : List String := ["assign err := am.keeper.BurnCoins(ctx, types.BurnAddress)", "call _.BurnCoins(ctx, types.BurnAddress)", "if err != nil", "call _.Error(_, fmt.Sprintf(\"msg : %s\", err.Error()))", "call ctx.Logger()", "call fmt.Sprintf(_, err.Error())", "lit \"msg : %s\"", "call err.Error()", "return _"]
 
 /-- x/burn.AppModule.ExportGenesis -/
-def x_burn_AppModule_ExportGenesis : List String := ["assign genState := ExportGenesis(ctx, am.keeper)", "call ExportGenesis", "return _", "call cdc.MustMarshalJSON"]
+def x_burn_AppModule_ExportGenesis : List String := ["assign genState := ExportGenesis(ctx, am.keeper)", "call ExportGenesis(ctx, am.keeper)", "return _", "call cdc.MustMarshalJSON(genState)"]
 
 /-- x/burn.AppModule.InitGenesis -/
-def x_burn_AppModule_InitGenesis : List String := ["call cdc.MustUnmarshalJSON", "call InitGenesis", "return _"]
+def x_burn_AppModule_InitGenesis : List String := ["call cdc.MustUnmarshalJSON(gs, &genState)", "call InitGenesis(ctx, am.keeper, genState)", "return _"]
 
 /-- x/burn.AppModule.Name -/
-def x_burn_AppModule_Name : List String := ["return _", "call _.Name"]
+def x_burn_AppModule_Name : List String := ["return _", "call _.Name()"]
 
 /-- x/burn.AppModule.QuerierRoute -/
 def x_burn_AppModule_QuerierRoute : List String := ["return _"]
@@ -393,7 +393,7 @@ def x_burn_AppModule_RegisterInvariants : List String := []
 def x_burn_AppModule_RegisterServices : List String := []
 
 /-- x/burn.AppModuleBasic.DefaultGenesis -/
-def x_burn_AppModuleBasic_DefaultGenesis : List String := ["return _", "call cdc.MustMarshalJSON", "call types.DefaultGenesis"]
+def x_burn_AppModuleBasic_DefaultGenesis : List String := ["return _", "call cdc.MustMarshalJSON(types.DefaultGenesis())", "call types.DefaultGenesis()"]
 
 /-- x/burn.AppModuleBasic.GetQueryCmd -/
 def x_burn_AppModuleBasic_GetQueryCmd : List String := ["return nil"]
@@ -405,37 +405,37 @@ def x_burn_AppModuleBasic_GetTxCmd : List String := ["return nil"]
 def x_burn_AppModuleBasic_Name : List String := ["return _"]
 
 /-- x/burn.AppModuleBasic.RegisterCodec -/
-def x_burn_AppModuleBasic_RegisterCodec : List String := ["call types.RegisterCodec"]
+def x_burn_AppModuleBasic_RegisterCodec : List String := ["call types.RegisterCodec(cdc)"]
 
 /-- x/burn.AppModuleBasic.RegisterGRPCGatewayRoutes -/
 def x_burn_AppModuleBasic_RegisterGRPCGatewayRoutes : List String := []
 
 /-- x/burn.AppModuleBasic.RegisterInterfaces -/
-def x_burn_AppModuleBasic_RegisterInterfaces : List String := ["call types.RegisterInterfaces"]
+def x_burn_AppModuleBasic_RegisterInterfaces : List String := ["call types.RegisterInterfaces(reg)"]
 
 /-- x/burn.AppModuleBasic.RegisterLegacyAminoCodec -/
-def x_burn_AppModuleBasic_RegisterLegacyAminoCodec : List String := ["call types.RegisterCodec"]
+def x_burn_AppModuleBasic_RegisterLegacyAminoCodec : List String := ["call types.RegisterCodec(cdc)"]
 
 /-- x/burn.AppModuleBasic.ValidateGenesis -/
-def x_burn_AppModuleBasic_ValidateGenesis : List String := ["if err != nil", "assign err := cdc.UnmarshalJSON(bz, &genState)", "call cdc.UnmarshalJSON", "return _", "call fmt.Errorf", "return _", "call genState.Validate"]
+def x_burn_AppModuleBasic_ValidateGenesis : List String := ["if err != nil", "assign err := cdc.UnmarshalJSON(bz, &genState)", "call cdc.UnmarshalJSON(bz, &genState)", "return _", "call fmt.Errorf(_, types.ModuleName, err)", "return _", "call genState.Validate()"]
 
 /-- x/burn.ExportGenesis -/
-def x_burn_ExportGenesis : List String := ["return _", "call types.DefaultGenesis"]
+def x_burn_ExportGenesis : List String := ["return _", "call types.DefaultGenesis()"]
 
 /-- x/burn.InitGenesis -/
 def x_burn_InitGenesis : List String := []
 
 /-- x/burn.NewAppModule -/
-def x_burn_NewAppModule : List String := ["return _", "kv AppModuleBasic=NewAppModuleBasic(cdc)", "call NewAppModuleBasic", "kv keeper=keeper"]
+def x_burn_NewAppModule : List String := ["return _", "kv AppModuleBasic=NewAppModuleBasic(cdc)", "call NewAppModuleBasic(cdc)", "kv keeper=keeper"]
 
 /-- x/burn.NewAppModuleBasic -/
 def x_burn_NewAppModuleBasic : List String := ["return _", "kv cdc=cdc"]
 
 /-- x/burn/keeper.Keeper.BurnCoins -/
-def x_burn_keeper_Keeper_BurnCoins : List String := ["assign burnAcc,err := sdk.AccAddressFromBech32(acc)", "call sdk.AccAddressFromBech32", "if err != nil", "return err", "assign burnCoins := k.bankKeeper.SpendableCoins(ctx, burnAcc)", "call _.SpendableCoins", "if burnCoins.Empty()", "call burnCoins.Empty", "return nil", "call _.Info", "call ctx.Logger", "call fmt.Sprintf", "lit \"address: %s, coins: %s\"", "assign err = k.bankKeeper.SendCoinsFromAccountToModule(ctx, burnAcc, types.ModuleName, burnCoins)", "call _.SendCoinsFromAccountToModule", "if err != nil", "return err", "assign err = k.bankKeeper.BurnCoins(ctx, types.ModuleName, burnCoins)", "call _.BurnCoins", "if err != nil", "return err", "call _.Info", "call ctx.Logger", "call fmt.Sprintf", "lit \"address: %s, coins: %s\"", "call _.Info", "call ctx.Logger", "call fmt.Sprintf", "lit \"total: %s\"", "call _.GetSupply", "return nil"]
+def x_burn_keeper_Keeper_BurnCoins : List String := ["assign burnAcc,err := sdk.AccAddressFromBech32(acc)", "call sdk.AccAddressFromBech32(acc)", "if err != nil", "return err", "assign burnCoins := k.bankKeeper.SpendableCoins(ctx, burnAcc)", "call _.SpendableCoins(ctx, burnAcc)", "if burnCoins.Empty()", "call burnCoins.Empty()", "return nil", "call _.Info(_, fmt.Sprintf(\"address: %s, coins: %s\", acc, burnCoins))", "call ctx.Logger()", "call fmt.Sprintf(_, acc, burnCoins)", "lit \"address: %s, coins: %s\"", "assign err = k.bankKeeper.SendCoinsFromAccountToModule(ctx, burnAcc, types.ModuleName, burnCoins)", "call _.SendCoinsFromAccountToModule(ctx, burnAcc, types.ModuleName, burnCoins)", "if err != nil", "return err", "assign err = k.bankKeeper.BurnCoins(ctx, types.ModuleName, burnCoins)", "call _.BurnCoins(ctx, types.ModuleName, burnCoins)", "if err != nil", "return err", "call _.Info(_, fmt.Sprintf(\"address: %s, coins: %s\", acc, burnCoins))", "call ctx.Logger()", "call fmt.Sprintf(_, acc, burnCoins)", "lit \"address: %s, coins: %s\"", "call _.Info(_, _)", "call ctx.Logger()", "call fmt.Sprintf(_, k.bankKeeper.GetSupply(ctx, assets.MicroMedDenom))", "lit \"total: %s\"", "call _.GetSupply(ctx, assets.MicroMedDenom)", "return nil"]
 
 /-- x/burn/keeper.Keeper.Logger -/
-def x_burn_keeper_Keeper_Logger : List String := ["return _", "call _.With", "call ctx.Logger", "lit \"burn\"", "call fmt.Sprintf", "lit \"x/%s\""]
+def x_burn_keeper_Keeper_Logger : List String := ["return _", "call _.With(\"burn\", fmt.Sprintf(\"x/%s\", types.ModuleName))", "call ctx.Logger()", "lit \"burn\"", "call fmt.Sprintf(_, types.ModuleName)", "lit \"x/%s\""]
 
 /-- x/burn/keeper.NewKeeper -/
 def x_burn_keeper_NewKeeper : List String := ["return _", "kv bankKeeper=bankKeeper"]
@@ -462,13 +462,13 @@ def x_did_AppModule_ConsensusVersion : List String := ["return 1", "lit 1"]
 def x_did_AppModule_EndBlock : List String := ["return _"]
 
 /-- x/did.AppModule.ExportGenesis -/
-def x_did_AppModule_ExportGenesis : List String := ["assign genState := ExportGenesis(ctx, am.keeper)", "call ExportGenesis", "return _", "call cdc.MustMarshalJSON"]
+def x_did_AppModule_ExportGenesis : List String := ["assign genState := ExportGenesis(ctx, am.keeper)", "call ExportGenesis(ctx, am.keeper)", "return _", "call cdc.MustMarshalJSON(genState)"]
 
 /-- x/did.AppModule.InitGenesis -/
-def x_did_AppModule_InitGenesis : List String := ["call cdc.MustUnmarshalJSON", "call InitGenesis", "return _"]
+def x_did_AppModule_InitGenesis : List String := ["call cdc.MustUnmarshalJSON(gs, &genState)", "call InitGenesis(ctx, am.keeper, genState)", "return _"]
 
 /-- x/did.AppModule.Name -/
-def x_did_AppModule_Name : List String := ["return _", "call _.Name"]
+def x_did_AppModule_Name : List String := ["return _", "call _.Name()"]
 
 /-- x/did.AppModule.QuerierRoute -/
 def x_did_AppModule_QuerierRoute : List String := ["return _"]
@@ -477,115 +477,115 @@ def x_did_AppModule_QuerierRoute : List String := ["return _"]
 def x_did_AppModule_RegisterInvariants : List String := []
 
 /-- x/did.AppModule.RegisterServices -/
-def x_did_AppModule_RegisterServices : List String := ["call types.RegisterQueryServer", "call cfg.QueryServer", "call types.RegisterMsgServer", "call cfg.MsgServer", "call keeper.NewMsgServerImpl"]
+def x_did_AppModule_RegisterServices : List String := ["call types.RegisterQueryServer(cfg.QueryServer(), am.keeper)", "call cfg.QueryServer()", "call types.RegisterMsgServer(cfg.MsgServer(), keeper.NewMsgServerImpl(am.keeper))", "call cfg.MsgServer()", "call keeper.NewMsgServerImpl(am.keeper)"]
 
 /-- x/did.AppModuleBasic.DefaultGenesis -/
-def x_did_AppModuleBasic_DefaultGenesis : List String := ["return _", "call cdc.MustMarshalJSON", "call types.DefaultGenesis"]
+def x_did_AppModuleBasic_DefaultGenesis : List String := ["return _", "call cdc.MustMarshalJSON(types.DefaultGenesis())", "call types.DefaultGenesis()"]
 
 /-- x/did.AppModuleBasic.GetQueryCmd -/
-def x_did_AppModuleBasic_GetQueryCmd : List String := ["return _", "call cli.GetQueryCmd"]
+def x_did_AppModuleBasic_GetQueryCmd : List String := ["return _", "call cli.GetQueryCmd(types.StoreKey)"]
 
 /-- x/did.AppModuleBasic.GetTxCmd -/
-def x_did_AppModuleBasic_GetTxCmd : List String := ["return _", "call cli.GetTxCmd"]
+def x_did_AppModuleBasic_GetTxCmd : List String := ["return _", "call cli.GetTxCmd()"]
 
 /-- x/did.AppModuleBasic.Name -/
 def x_did_AppModuleBasic_Name : List String := ["return _"]
 
 /-- x/did.AppModuleBasic.RegisterCodec -/
-def x_did_AppModuleBasic_RegisterCodec : List String := ["call types.RegisterCodec"]
+def x_did_AppModuleBasic_RegisterCodec : List String := ["call types.RegisterCodec(cdc)"]
 
 /-- x/did.AppModuleBasic.RegisterGRPCGatewayRoutes -/
-def x_did_AppModuleBasic_RegisterGRPCGatewayRoutes : List String := ["assign err := _", "call types.RegisterQueryHandlerClient", "call context.Background", "call types.NewQueryClient", "if err != nil", "call panic", "lit \"Error RegisterGRPCGatewayRoutes\""]
+def x_did_AppModuleBasic_RegisterGRPCGatewayRoutes : List String := ["assign err := _", "call types.RegisterQueryHandlerClient(context.Background(), mux, types.NewQueryClient(clientCtx))", "call context.Background()", "call types.NewQueryClient(clientCtx)", "if err != nil", "call panic(\"Error RegisterGRPCGatewayRoutes\")", "lit \"Error RegisterGRPCGatewayRoutes\""]
 
 /-- x/did.AppModuleBasic.RegisterInterfaces -/
-def x_did_AppModuleBasic_RegisterInterfaces : List String := ["call types.RegisterInterfaces"]
+def x_did_AppModuleBasic_RegisterInterfaces : List String := ["call types.RegisterInterfaces(reg)"]
 
 /-- x/did.AppModuleBasic.RegisterLegacyAminoCodec -/
-def x_did_AppModuleBasic_RegisterLegacyAminoCodec : List String := ["call types.RegisterCodec"]
+def x_did_AppModuleBasic_RegisterLegacyAminoCodec : List String := ["call types.RegisterCodec(cdc)"]
 
 /-- x/did.AppModuleBasic.ValidateGenesis -/
-def x_did_AppModuleBasic_ValidateGenesis : List String := ["if err != nil", "assign err := cdc.UnmarshalJSON(bz, &genState)", "call cdc.UnmarshalJSON", "return _", "call fmt.Errorf", "return _", "call genState.Validate"]
+def x_did_AppModuleBasic_ValidateGenesis : List String := ["if err != nil", "assign err := cdc.UnmarshalJSON(bz, &genState)", "call cdc.UnmarshalJSON(bz, &genState)", "return _", "call fmt.Errorf(_, types.ModuleName, err)", "return _", "call genState.Validate()"]
 
 /-- x/did.ExportGenesis -/
-def x_did_ExportGenesis : List String := ["assign documentsMap := make(map[string]*types.DIDDocumentWithSeq)", "call make", "range k.ListDIDs(ctx)", "call k.ListDIDs", "assign key := _", "call _.Marshal", "kv DID=did", "assign document := k.GetDIDDocument(ctx, did)", "call k.GetDIDDocument", "assign documentsMap[key] = &document", "return _", "kv Documents=documentsMap"]
+def x_did_ExportGenesis : List String := ["assign documentsMap := make(map[string]*types.DIDDocumentWithSeq)", "call make(map[string]*types.DIDDocumentWithSeq)", "range k.ListDIDs(ctx)", "call k.ListDIDs(ctx)", "assign key := _", "call _.Marshal()", "kv DID=did", "assign document := k.GetDIDDocument(ctx, did)", "call k.GetDIDDocument(ctx, did)", "assign documentsMap[key] = &document", "return _", "kv Documents=documentsMap"]
 
 /-- x/did.InitGenesis -/
-def x_did_InitGenesis : List String := ["range data.Documents", "call k.SetDIDDocument"]
+def x_did_InitGenesis : List String := ["range data.Documents", "call k.SetDIDDocument(ctx, did, *doc)"]
 
 /-- x/did.NewAppModule -/
-def x_did_NewAppModule : List String := ["return _", "kv AppModuleBasic=NewAppModuleBasic(cdc)", "call NewAppModuleBasic", "kv keeper=keeper"]
+def x_did_NewAppModule : List String := ["return _", "kv AppModuleBasic=NewAppModuleBasic(cdc)", "call NewAppModuleBasic(cdc)", "kv keeper=keeper"]
 
 /-- x/did.NewAppModuleBasic -/
 def x_did_NewAppModuleBasic : List String := ["return _", "kv cdc=cdc"]
 
 /-- x/did/client/crypto.GenSecp256k1PrivKey -/
-def x_did_client_crypto_GenSecp256k1PrivKey : List String := ["if mnemonic == \"\"", "lit \"\"", "assign entropySeed,err := bip39.NewEntropy(mnemonicEntropySize)", "call bip39.NewEntropy", "if err != nil", "return _,err", "assign mnemonic,err = bip39.NewMnemonic(entropySeed[:])", "call bip39.NewMnemonic", "if err != nil", "return _,err", "call fmt.Fprintf", "lit \"A random mnemonic was generated: %s\\n\"", "if !bip39.IsMnemonicValid(mnemonic)", "call bip39.IsMnemonicValid", "return _,_", "call fmt.Errorf", "assign seed,err := bip39.NewSeedWithErrorChecking(mnemonic, bip39Passphrase)", "call bip39.NewSeedWithErrorChecking", "if err != nil", "return _,err", "assign hdPath := _", "call _.String", "call hd.NewFundraiserParams", "call _.GetCoinType", "call sdk.GetConfig", "assign masterPriv,chainCode := hd.ComputeMastersFromSeed(seed)", "call hd.ComputeMastersFromSeed", "return _", "call hd.DerivePrivateKeyForPath"]
+def x_did_client_crypto_GenSecp256k1PrivKey : List String := ["if mnemonic == \"\"", "lit \"\"", "assign entropySeed,err := bip39.NewEntropy(mnemonicEntropySize)", "call bip39.NewEntropy(mnemonicEntropySize)", "if err != nil", "return _,err", "assign mnemonic,err = bip39.NewMnemonic(entropySeed[:])", "call bip39.NewMnemonic(entropySeed[:])", "if err != nil", "return _,err", "call fmt.Fprintf(os.Stderr, \"A random mnemonic was generated: %s\\n\", mnemonic)", "lit \"A random mnemonic was generated: %s\\n\"", "if !bip39.IsMnemonicValid(mnemonic)", "call bip39.IsMnemonicValid(mnemonic)", "return _,_", "call fmt.Errorf(_, mnemonic)", "assign seed,err := bip39.NewSeedWithErrorChecking(mnemonic, bip39Passphrase)", "call bip39.NewSeedWithErrorChecking(mnemonic, bip39Passphrase)", "if err != nil", "return _,err", "assign hdPath := _", "call _.String()", "call hd.NewFundraiserParams(defaultAccountForHD, sdk.GetConfig().GetCoinType(), defaultIndexForHD)", "call _.GetCoinType()", "call sdk.GetConfig()", "assign masterPriv,chainCode := hd.ComputeMastersFromSeed(seed)", "call hd.ComputeMastersFromSeed(seed)", "return _", "call hd.DerivePrivateKeyForPath(masterPriv, chainCode, hdPath)"]
 
 /-- x/did/client/crypto.KeyStore.Load -/
-def x_did_client_crypto_KeyStore_Load : List String := ["assign encryptedKey,err := ks.load(path)", "call ks.load", "if err != nil", "return nil,err", "return _", "call decryptKey"]
+def x_did_client_crypto_KeyStore_Load : List String := ["assign encryptedKey,err := ks.load(path)", "call ks.load(path)", "if err != nil", "return nil,err", "return _", "call decryptKey(encryptedKey, passwd)"]
 
 /-- x/did/client/crypto.KeyStore.LoadByAddress -/
-def x_did_client_crypto_KeyStore_LoadByAddress : List String := ["call _.RLock", "assign path,err := ks.recentPath(address)", "call ks.recentPath", "call _.RUnlock", "if err != nil", "return nil,err", "return _", "call ks.Load"]
+def x_did_client_crypto_KeyStore_LoadByAddress : List String := ["call _.RLock()", "assign path,err := ks.recentPath(address)", "call ks.recentPath(address)", "call _.RUnlock()", "if err != nil", "return nil,err", "return _", "call ks.Load(path, passwd)"]
 
 /-- x/did/client/crypto.KeyStore.Save -/
-def x_did_client_crypto_KeyStore_Save : List String := ["assign encryptedKey,err := encryptKey(address, key, passwd)", "call encryptKey", "if err != nil", "return \"\",_", "lit \"\"", "call fmt.Errorf", "return _", "call ks.save"]
+def x_did_client_crypto_KeyStore_Save : List String := ["assign encryptedKey,err := encryptKey(address, key, passwd)", "call encryptKey(address, key, passwd)", "if err != nil", "return \"\",_", "lit \"\"", "call fmt.Errorf(_, err)", "return _", "call ks.save(address, encryptedKey)"]
 
 /-- x/did/client/crypto.KeyStore.load -/
-def x_did_client_crypto_KeyStore_load : List String := ["call _.RLock", "defer", "call _.RUnlock", "assign file,err := os.Open(path)", "call os.Open", "if err != nil", "return key,err", "defer", "call file.Close", "if err != nil", "assign err := json.NewDecoder(file).Decode(&key)", "call _.Decode", "call json.NewDecoder", "return key,_", "call fmt.Errorf", "return key,nil"]
+def x_did_client_crypto_KeyStore_load : List String := ["call _.RLock()", "defer", "call _.RUnlock()", "assign file,err := os.Open(path)", "call os.Open(path)", "if err != nil", "return key,err", "defer", "call file.Close()", "if err != nil", "assign err := json.NewDecoder(file).Decode(&key)", "call _.Decode(&key)", "call json.NewDecoder(file)", "return key,_", "call fmt.Errorf(_, err)", "return key,nil"]
 
 /-- x/did/client/crypto.KeyStore.newPath -/
-def x_did_client_crypto_KeyStore_newPath : List String := ["return _", "call filepath.Join", "call fmt.Sprintf", "lit \"UTC--%s--%s.json\"", "call _.Format", "call _.UTC", "call time.Now", "lit \"2006-01-02T15-04-05.000000000Z\""]
+def x_did_client_crypto_KeyStore_newPath : List String := ["return _", "call filepath.Join(ks.baseDir, _)", "call fmt.Sprintf(_, time.Now().UTC().Format(\"2006-01-02T15-04-05.000000000Z\"), address)", "lit \"UTC--%s--%s.json\"", "call _.Format(\"2006-01-02T15-04-05.000000000Z\")", "call _.UTC()", "call time.Now()", "lit \"2006-01-02T15-04-05.000000000Z\""]
 
 /-- x/did/client/crypto.KeyStore.recentPath -/
-def x_did_client_crypto_KeyStore_recentPath : List String := ["assign matches,err := filepath.Glob(fmt.Sprintf(\"%s/UTC--*--%s.json\", ks.baseDir, address))", "call filepath.Glob", "call fmt.Sprintf", "lit \"%s/UTC--*--%s.json\"", "if err != nil", "return \"\",err", "lit \"\"", "if len(matches) == 0", "call len", "lit 0", "return \"\",_", "lit \"\"", "call fmt.Errorf", "assign recentPath := \"\"", "lit \"\"", "range matches", "if recentPath < match", "assign recentPath = match", "return recentPath,nil"]
+def x_did_client_crypto_KeyStore_recentPath : List String := ["assign matches,err := filepath.Glob(fmt.Sprintf(\"%s/UTC--*--%s.json\", ks.baseDir, address))", "call filepath.Glob(fmt.Sprintf(\"%s/UTC--*--%s.json\", ks.baseDir, address))", "call fmt.Sprintf(_, ks.baseDir, address)", "lit \"%s/UTC--*--%s.json\"", "if err != nil", "return \"\",err", "lit \"\"", "if len(matches) == 0", "call len(matches)", "lit 0", "return \"\",_", "lit \"\"", "call fmt.Errorf(_, address)", "assign recentPath := \"\"", "lit \"\"", "range matches", "if recentPath < match", "assign recentPath = match", "return recentPath,nil"]
 
 /-- x/did/client/crypto.KeyStore.save -/
-def x_did_client_crypto_KeyStore_save : List String := ["call _.Lock", "defer", "call _.Unlock", "assign path := ks.newPath(address)", "call ks.newPath", "if fileExists(path)", "call fileExists", "return \"\",_", "lit \"\"", "call fmt.Errorf", "assign file,err := os.Create(path)", "call os.Create", "if err != nil", "return \"\",err", "lit \"\"", "defer", "call file.Close", "if err != nil", "assign err := json.NewEncoder(file).Encode(key)", "call _.Encode", "call json.NewEncoder", "return \"\",_", "lit \"\"", "call fmt.Errorf", "return path,nil"]
+def x_did_client_crypto_KeyStore_save : List String := ["call _.Lock()", "defer", "call _.Unlock()", "assign path := ks.newPath(address)", "call ks.newPath(address)", "if fileExists(path)", "call fileExists(path)", "return \"\",_", "lit \"\"", "call fmt.Errorf(_, path)", "assign file,err := os.Create(path)", "call os.Create(path)", "if err != nil", "return \"\",err", "lit \"\"", "defer", "call file.Close()", "if err != nil", "assign err := json.NewEncoder(file).Encode(key)", "call _.Encode(key)", "call json.NewEncoder(file)", "return \"\",_", "lit \"\"", "call fmt.Errorf(_, err)", "return path,nil"]
 
 /-- x/did/client/crypto.NewKeyStore -/
-def x_did_client_crypto_NewKeyStore : List String := ["if err != nil", "assign err := os.MkdirAll(baseDir, os.ModePerm)", "call os.MkdirAll", "return nil,err", "return _,nil", "kv baseDir=baseDir"]
+def x_did_client_crypto_NewKeyStore : List String := ["if err != nil", "assign err := os.MkdirAll(baseDir, os.ModePerm)", "call os.MkdirAll(baseDir, os.ModePerm)", "return nil,err", "return _,nil", "kv baseDir=baseDir"]
 
 /-- x/did/client/crypto.aesCTRXOR -/
-def x_did_client_crypto_aesCTRXOR : List String := ["assign block,err := aes.NewCipher(key)", "call aes.NewCipher", "if err != nil", "return nil,_", "call fmt.Errorf", "assign buf := make([]byte, len(data))", "call make", "call len", "call _.XORKeyStream", "call cipher.NewCTR", "return buf,nil"]
+def x_did_client_crypto_aesCTRXOR : List String := ["assign block,err := aes.NewCipher(key)", "call aes.NewCipher(key)", "if err != nil", "return nil,_", "call fmt.Errorf(_, err)", "assign buf := make([]byte, len(data))", "call make([]byte, len(data))", "call len(data)", "call _.XORKeyStream(buf, data)", "call cipher.NewCTR(block, iv)", "return buf,nil"]
 
 /-- x/did/client/crypto.decryptKey -/
-def x_did_client_crypto_decryptKey : List String := ["if key.Version != version", "return nil,_", "call fmt.Errorf", "if key.Crypto.Cipher != cipherAlgorithm", "return nil,_", "call fmt.Errorf", "if key.Crypto.KDF != kdf", "return nil,_", "call fmt.Errorf", "if key.Crypto.KDFParams.PRF != pbkdf2PRFStr", "return nil,_", "call fmt.Errorf", "assign mac,err := hex.DecodeString(key.Crypto.MAC)", "call hex.DecodeString", "if err != nil", "return nil,_", "call fmt.Errorf", "assign iv,err := hex.DecodeString(key.Crypto.CipherParams.IV)", "call hex.DecodeString", "if err != nil", "return nil,_", "call fmt.Errorf", "assign cipherText,err := hex.DecodeString(key.Crypto.CipherText)", "call hex.DecodeString", "if err != nil", "return nil,_", "call fmt.Errorf", "assign salt,err := hex.DecodeString(key.Crypto.KDFParams.Salt)", "call hex.DecodeString", "if err != nil", "return nil,_", "call fmt.Errorf", "assign dkLen := key.Crypto.KDFParams.DKLen", "if dkLen < macKeyOffset+macKeySize", "op +", "return nil,_", "call fmt.Errorf", "if len(iv) != aes.BlockSize", "call len", "return nil,_", "call fmt.Errorf", "call len", "assign derivedKey := pbkdf2.Key([]byte(passwd), salt, key.Crypto.KDFParams.C, dkLen, pbkdf2PRF)", "call pbkdf2.Key", "call ?", "assign expectedMac,err := newSHA3Keccak256(derivedKey[macKeyOffset:macKeyOffset+macKeySize], cipherText)", "call newSHA3Keccak256", "op +", "if err != nil", "return nil,_", "call fmt.Errorf", "if !bytes.Equal(expectedMac, mac)", "call bytes.Equal", "return nil,_", "call fmt.Errorf", "return _", "call aesCTRXOR"]
+def x_did_client_crypto_decryptKey : List String := ["if key.Version != version", "return nil,_", "call fmt.Errorf(_, key.Version)", "if key.Crypto.Cipher != cipherAlgorithm", "return nil,_", "call fmt.Errorf(_, key.Crypto.Cipher)", "if key.Crypto.KDF != kdf", "return nil,_", "call fmt.Errorf(_, key.Crypto.KDF)", "if key.Crypto.KDFParams.PRF != pbkdf2PRFStr", "return nil,_", "call fmt.Errorf(_, key.Crypto.KDFParams.PRF)", "assign mac,err := hex.DecodeString(key.Crypto.MAC)", "call hex.DecodeString(key.Crypto.MAC)", "if err != nil", "return nil,_", "call fmt.Errorf(_, err)", "assign iv,err := hex.DecodeString(key.Crypto.CipherParams.IV)", "call hex.DecodeString(key.Crypto.CipherParams.IV)", "if err != nil", "return nil,_", "call fmt.Errorf(_, err)", "assign cipherText,err := hex.DecodeString(key.Crypto.CipherText)", "call hex.DecodeString(key.Crypto.CipherText)", "if err != nil", "return nil,_", "call fmt.Errorf(_, err)", "assign salt,err := hex.DecodeString(key.Crypto.KDFParams.Salt)", "call hex.DecodeString(key.Crypto.KDFParams.Salt)", "if err != nil", "return nil,_", "call fmt.Errorf(_, err)", "assign dkLen := key.Crypto.KDFParams.DKLen", "if dkLen < macKeyOffset+macKeySize", "op +", "return nil,_", "call fmt.Errorf(_, dkLen)", "if len(iv) != aes.BlockSize", "call len(iv)", "return nil,_", "call fmt.Errorf(_, len(iv))", "call len(iv)", "assign derivedKey := pbkdf2.Key([]byte(passwd), salt, key.Crypto.KDFParams.C, dkLen, pbkdf2PRF)", "call pbkdf2.Key([]byte(passwd), salt, key.Crypto.KDFParams.C, dkLen, pbkdf2PRF)", "call ?(passwd)", "assign expectedMac,err := newSHA3Keccak256(derivedKey[macKeyOffset:macKeyOffset+macKeySize], cipherText)", "call newSHA3Keccak256(derivedKey[macKeyOffset : macKeyOffset+macKeySize], cipherText)", "op +", "if err != nil", "return nil,_", "call fmt.Errorf(_, err)", "if !bytes.Equal(expectedMac, mac)", "call bytes.Equal(expectedMac, mac)", "return nil,_", "call fmt.Errorf(_)", "return _", "call aesCTRXOR(derivedKey[:cipherKeySize], iv, cipherText)"]
 
 /-- x/did/client/crypto.encryptKey -/
-def x_did_client_crypto_encryptKey : List String := ["assign salt := make([]byte, saltBytes)", "call make", "if err != nil", "assign _,err := io.ReadFull(rand.Reader, salt)", "call io.ReadFull", "return _,_", "call fmt.Errorf", "assign derivedKey := pbkdf2.Key([]byte(passwd), salt, pbkdf2C, pbkdf2DKLen, pbkdf2PRF)", "call pbkdf2.Key", "call ?", "assign iv := make([]byte, aes.BlockSize)", "call make", "if err != nil", "assign _,err := io.ReadFull(rand.Reader, iv)", "call io.ReadFull", "return _,_", "call fmt.Errorf", "assign cipherText,err := aesCTRXOR(derivedKey[:cipherKeySize], iv, key[:])", "call aesCTRXOR", "if err != nil", "return _,err", "assign mac,err := newSHA3Keccak256(derivedKey[macKeyOffset:macKeyOffset+macKeySize], cipherText)", "call newSHA3Keccak256", "op +", "if err != nil", "return _,err", "return _,nil", "kv Version=version", "kv ID=uuid.NewRandom().String()", "call _.String", "call uuid.NewRandom", "kv Address=address", "kv Crypto", "kv Cipher=cipherAlgorithm", "kv CipherText=hex.EncodeToString(cipherText)", "call hex.EncodeToString", "kv CipherParams", "kv IV=hex.EncodeToString(iv)", "call hex.EncodeToString", "kv KDF=kdf", "kv KDFParams", "kv C=pbkdf2C", "kv DKLen=pbkdf2DKLen", "kv PRF=pbkdf2PRFStr", "kv Salt=hex.EncodeToString(salt)", "call hex.EncodeToString", "kv MAC=hex.EncodeToString(mac)", "call hex.EncodeToString"]
+def x_did_client_crypto_encryptKey : List String := ["assign salt := make([]byte, saltBytes)", "call make([]byte, saltBytes)", "if err != nil", "assign _,err := io.ReadFull(rand.Reader, salt)", "call io.ReadFull(rand.Reader, salt)", "return _,_", "call fmt.Errorf(_, err)", "assign derivedKey := pbkdf2.Key([]byte(passwd), salt, pbkdf2C, pbkdf2DKLen, pbkdf2PRF)", "call pbkdf2.Key([]byte(passwd), salt, pbkdf2C, pbkdf2DKLen, pbkdf2PRF)", "call ?(passwd)", "assign iv := make([]byte, aes.BlockSize)", "call make([]byte, aes.BlockSize)", "if err != nil", "assign _,err := io.ReadFull(rand.Reader, iv)", "call io.ReadFull(rand.Reader, iv)", "return _,_", "call fmt.Errorf(_, err)", "assign cipherText,err := aesCTRXOR(derivedKey[:cipherKeySize], iv, key[:])", "call aesCTRXOR(derivedKey[:cipherKeySize], iv, key[:])", "if err != nil", "return _,err", "assign mac,err := newSHA3Keccak256(derivedKey[macKeyOffset:macKeyOffset+macKeySize], cipherText)", "call newSHA3Keccak256(derivedKey[macKeyOffset : macKeyOffset+macKeySize], cipherText)", "op +", "if err != nil", "return _,err", "return _,nil", "kv Version=version", "kv ID=uuid.NewRandom().String()", "call _.String()", "call uuid.NewRandom()", "kv Address=address", "kv Crypto", "kv Cipher=cipherAlgorithm", "kv CipherText=hex.EncodeToString(cipherText)", "call hex.EncodeToString(cipherText)", "kv CipherParams", "kv IV=hex.EncodeToString(iv)", "call hex.EncodeToString(iv)", "kv KDF=kdf", "kv KDFParams", "kv C=pbkdf2C", "kv DKLen=pbkdf2DKLen", "kv PRF=pbkdf2PRFStr", "kv Salt=hex.EncodeToString(salt)", "call hex.EncodeToString(salt)", "kv MAC=hex.EncodeToString(mac)", "call hex.EncodeToString(mac)"]
 
 /-- x/did/client/crypto.fileExists -/
-def x_did_client_crypto_fileExists : List String := ["if os.IsNotExist(err)", "assign _,err := os.Stat(path)", "call os.Stat", "call os.IsNotExist", "return false", "return true"]
+def x_did_client_crypto_fileExists : List String := ["if os.IsNotExist(err)", "assign _,err := os.Stat(path)", "call os.Stat(path)", "call os.IsNotExist(err)", "return false", "return true"]
 
 /-- x/did/client/crypto.newSHA3Keccak256 -/
-def x_did_client_crypto_newSHA3Keccak256 : List String := ["assign hash := sha3.NewLegacyKeccak256()", "call sha3.NewLegacyKeccak256", "range data", "if err != nil", "assign _,err := hash.Write(b)", "call hash.Write", "return nil,err", "return _,nil", "call hash.Sum"]
+def x_did_client_crypto_newSHA3Keccak256 : List String := ["assign hash := sha3.NewLegacyKeccak256()", "call sha3.NewLegacyKeccak256()", "range data", "if err != nil", "assign _,err := hash.Write(b)", "call hash.Write(b)", "return nil,err", "return _,nil", "call hash.Sum(nil)"]
 
 /-- x/did/internal/secp256k1util.DerivePubKey -/
-def x_did_internal_secp256k1util_DerivePubKey : List String := ["return _", "call privKey.PubKey"]
+def x_did_internal_secp256k1util_DerivePubKey : List String := ["return _", "call privKey.PubKey()"]
 
 /-- x/did/internal/secp256k1util.PrivKeyFromBytes -/
-def x_did_internal_secp256k1util_PrivKeyFromBytes : List String := ["assign key := make([]byte, secp256k1.PrivKeySize)", "call make", "if len(bz) != len(key)", "call len", "call len", "return key,_", "call fmt.Errorf", "call len", "call len", "call copy", "return key,nil"]
+def x_did_internal_secp256k1util_PrivKeyFromBytes : List String := ["assign key := make([]byte, secp256k1.PrivKeySize)", "call make([]byte, secp256k1.PrivKeySize)", "if len(bz) != len(key)", "call len(bz)", "call len(key)", "return key,_", "call fmt.Errorf(_, len(bz), len(key))", "call len(bz)", "call len(key)", "call copy(key[:], bz)", "return key,nil"]
 
 /-- x/did/internal/secp256k1util.PubKeyBytes -/
 def x_did_internal_secp256k1util_PubKeyBytes : List String := ["return _"]
 
 /-- x/did/internal/secp256k1util.PubKeyFromBase58 -/
-def x_did_internal_secp256k1util_PubKeyFromBase58 : List String := ["assign key := make([]byte, secp256k1.PubKeySize)", "call make", "assign decoded := base58.Decode(b58)", "call base58.Decode", "if len(decoded) != len(key)", "call len", "call len", "return key,_", "call fmt.Errorf", "call len", "call len", "call copy", "return key,nil"]
+def x_did_internal_secp256k1util_PubKeyFromBase58 : List String := ["assign key := make([]byte, secp256k1.PubKeySize)", "call make([]byte, secp256k1.PubKeySize)", "assign decoded := base58.Decode(b58)", "call base58.Decode(b58)", "if len(decoded) != len(key)", "call len(decoded)", "call len(key)", "return key,_", "call fmt.Errorf(_, len(decoded), len(key))", "call len(decoded)", "call len(key)", "call copy(key[:], decoded)", "return key,nil"]
 
 /-- x/did/keeper.Keeper.DID -/
-def x_did_keeper_Keeper_DID : List String := ["if req == nil", "return nil,_", "call status.Error", "assign ctx := sdk.UnwrapSDKContext(c)", "call sdk.UnwrapSDKContext", "assign didBz,err := base64.StdEncoding.DecodeString(req.DidBase64)", "call _.DecodeString", "if err != nil", "return nil,_", "call status.Error", "assign did := string(didBz)", "call string", "assign docWithSeq := k.GetDIDDocument(ctx, did)", "call k.GetDIDDocument", "if docWithSeq.Empty()", "call docWithSeq.Empty", "return nil,_", "call status.Error", "if docWithSeq.Deactivated()", "call docWithSeq.Deactivated", "return nil,_", "call status.Error", "return _,nil", "kv DidDocumentWithSeq=&docWithSeq"]
+def x_did_keeper_Keeper_DID : List String := ["if req == nil", "return nil,_", "call status.Error(codes.InvalidArgument, _)", "assign ctx := sdk.UnwrapSDKContext(c)", "call sdk.UnwrapSDKContext(c)", "assign didBz,err := base64.StdEncoding.DecodeString(req.DidBase64)", "call _.DecodeString(req.DidBase64)", "if err != nil", "return nil,_", "call status.Error(codes.InvalidArgument, _)", "assign did := string(didBz)", "call string(didBz)", "assign docWithSeq := k.GetDIDDocument(ctx, did)", "call k.GetDIDDocument(ctx, did)", "if docWithSeq.Empty()", "call docWithSeq.Empty()", "return nil,_", "call status.Error(codes.NotFound, _)", "if docWithSeq.Deactivated()", "call docWithSeq.Deactivated()", "return nil,_", "call status.Error(codes.NotFound, _)", "return _,nil", "kv DidDocumentWithSeq=&docWithSeq"]
 
 /-- x/did/keeper.Keeper.GetDIDDocument -/
-def x_did_keeper_Keeper_GetDIDDocument : List String := ["assign store := prefix.NewStore(ctx.KVStore(k.storeKey), types.DIDKeyPrefix)", "call prefix.NewStore", "call ctx.KVStore", "assign key := []byte(did)", "call ?", "assign bz := store.Get(key)", "call store.Get", "if bz == nil", "return _", "call _.MustUnmarshalLengthPrefixed", "return doc"]
+def x_did_keeper_Keeper_GetDIDDocument : List String := ["assign store := prefix.NewStore(ctx.KVStore(k.storeKey), types.DIDKeyPrefix)", "call prefix.NewStore(ctx.KVStore(k.storeKey), types.DIDKeyPrefix)", "call ctx.KVStore(k.storeKey)", "assign key := []byte(did)", "call ?(did)", "assign bz := store.Get(key)", "call store.Get(key)", "if bz == nil", "return _", "call _.MustUnmarshalLengthPrefixed(bz, &doc)", "return doc"]
 
 /-- x/did/keeper.Keeper.ListDIDs -/
-def x_did_keeper_Keeper_ListDIDs : List String := ["assign store := prefix.NewStore(ctx.KVStore(k.storeKey), types.DIDKeyPrefix)", "call prefix.NewStore", "call ctx.KVStore", "assign dids := make([]string, 0)", "call make", "lit 0", "assign iter := _", "call sdk.KVStorePrefixIterator", "defer", "call iter.Close", "for iter.Valid()", "call iter.Valid", "call iter.Next", "assign did := string(iter.Key())", "call string", "call iter.Key", "assign dids = append(dids, did)", "call append", "return dids"]
+def x_did_keeper_Keeper_ListDIDs : List String := ["assign store := prefix.NewStore(ctx.KVStore(k.storeKey), types.DIDKeyPrefix)", "call prefix.NewStore(ctx.KVStore(k.storeKey), types.DIDKeyPrefix)", "call ctx.KVStore(k.storeKey)", "assign dids := make([]string, 0)", "call make([]string, 0)", "lit 0", "assign iter := _", "call sdk.KVStorePrefixIterator(store, _)", "defer", "call iter.Close()", "for iter.Valid()", "call iter.Valid()", "call iter.Next()", "assign did := string(iter.Key())", "call string(iter.Key())", "call iter.Key()", "assign dids = append(dids, did)", "call append(dids, did)", "return dids"]
 
 /-- x/did/keeper.Keeper.Logger -/
-def x_did_keeper_Keeper_Logger : List String := ["return _", "call _.With", "call ctx.Logger", "lit \"module\"", "call fmt.Sprintf", "lit \"x/%s\""]
+def x_did_keeper_Keeper_Logger : List String := ["return _", "call _.With(\"module\", fmt.Sprintf(\"x/%s\", types.ModuleName))", "call ctx.Logger()", "lit \"module\"", "call fmt.Sprintf(_, types.ModuleName)", "lit \"x/%s\""]
 
 /-- x/did/keeper.Keeper.SetDIDDocument -/
-def x_did_keeper_Keeper_SetDIDDocument : List String := ["assign store := prefix.NewStore(ctx.KVStore(k.storeKey), types.DIDKeyPrefix)", "call prefix.NewStore", "call ctx.KVStore", "assign key := []byte(did)", "call ?", "assign bz := k.cdc.MustMarshalLengthPrefixed(&doc)", "call _.MustMarshalLengthPrefixed", "call store.Set"]
+def x_did_keeper_Keeper_SetDIDDocument : List String := ["assign store := prefix.NewStore(ctx.KVStore(k.storeKey), types.DIDKeyPrefix)", "call prefix.NewStore(ctx.KVStore(k.storeKey), types.DIDKeyPrefix)", "call ctx.KVStore(k.storeKey)", "assign key := []byte(did)", "call ?(did)", "assign bz := k.cdc.MustMarshalLengthPrefixed(&doc)", "call _.MustMarshalLengthPrefixed(&doc)", "call store.Set(key, bz)"]
 
 /-- x/did/keeper.NewKeeper -/
 def x_did_keeper_NewKeeper : List String := ["return _", "kv cdc=cdc", "kv storeKey=storeKey", "kv memKey=memKey"]
@@ -594,46 +594,46 @@ def x_did_keeper_NewKeeper : List String := ["return _", "kv cdc=cdc", "kv store
 def x_did_keeper_NewMsgServerImpl : List String := ["return _", "kv Keeper=keeper"]
 
 /-- x/did/keeper.VerifyDIDOwnership -/
-def x_did_keeper_VerifyDIDOwnership : List String := ["assign verificationMethod,ok := doc.VerificationMethodFrom(doc.Authentications, verificationMethodID)", "call doc.VerificationMethodFrom", "if !ok", "return 0,_", "lit 0", "call errors.Wrapf", "if verificationMethod.Type != types.ES256K_2019 && verificationMethod.Type != types.ES256K_2018", "return 0,_", "lit 0", "call errors.Wrapf", "assign pubKeySecp256k1,err := secp256k1util.PubKeyFromBase58(verificationMethod.PublicKeyBase58)", "call secp256k1util.PubKeyFromBase58", "if err != nil", "return 0,_", "lit 0", "call errors.Wrapf", "assign newSeq,ok := types.Verify(sig, signData, seq, pubKeySecp256k1)", "call types.Verify", "if !ok", "return 0,_", "lit 0", "return newSeq,nil"]
+def x_did_keeper_VerifyDIDOwnership : List String := ["assign verificationMethod,ok := doc.VerificationMethodFrom(doc.Authentications, verificationMethodID)", "call doc.VerificationMethodFrom(doc.Authentications, verificationMethodID)", "if !ok", "return 0,_", "lit 0", "call errors.Wrapf(types.ErrVerificationMethodIDNotFound, _, verificationMethodID)", "if verificationMethod.Type != types.ES256K_2019 && verificationMethod.Type != types.ES256K_2018", "return 0,_", "lit 0", "call errors.Wrapf(types.ErrVerificationMethodKeyTypeNotImplemented, _, verificationMethod.Type)", "assign pubKeySecp256k1,err := secp256k1util.PubKeyFromBase58(verificationMethod.PublicKeyBase58)", "call secp256k1util.PubKeyFromBase58(verificationMethod.PublicKeyBase58)", "if err != nil", "return 0,_", "lit 0", "call errors.Wrapf(types.ErrInvalidSecp256k1PublicKey, _, verificationMethod.PublicKeyBase58)", "assign newSeq,ok := types.Verify(sig, signData, seq, pubKeySecp256k1)", "call types.Verify(sig, signData, seq, pubKeySecp256k1)", "if !ok", "return 0,_", "lit 0", "return newSeq,nil"]
 
 /-- x/did/keeper.msgServer.CreateDID -/
-def x_did_keeper_msgServer_CreateDID : List String := ["assign keeper := m.Keeper", "assign ctx := sdk.UnwrapSDKContext(goCtx)", "call sdk.UnwrapSDKContext", "assign cur := keeper.GetDIDDocument(ctx, msg.Did)", "call keeper.GetDIDDocument", "if !cur.Empty()", "call cur.Empty", "if cur.Deactivated()", "call cur.Deactivated", "return nil,_", "call errors.Wrapf", "return nil,_", "call errors.Wrapf", "assign seq := types.InitialSequence", "assign _,err := _", "call VerifyDIDOwnership", "if err != nil", "return nil,err", "assign docWithSeq := types.NewDIDDocumentWithSeq(msg.Document, uint64(seq))", "call types.NewDIDDocumentWithSeq", "call uint64", "call keeper.SetDIDDocument", "return _,nil"]
+def x_did_keeper_msgServer_CreateDID : List String := ["assign keeper := m.Keeper", "assign ctx := sdk.UnwrapSDKContext(goCtx)", "call sdk.UnwrapSDKContext(goCtx)", "assign cur := keeper.GetDIDDocument(ctx, msg.Did)", "call keeper.GetDIDDocument(ctx, msg.Did)", "if !cur.Empty()", "call cur.Empty()", "if cur.Deactivated()", "call cur.Deactivated()", "return nil,_", "call errors.Wrapf(types.ErrDIDDeactivated, _, msg.Did)", "return nil,_", "call errors.Wrapf(types.ErrDIDExists, _, msg.Did)", "assign seq := types.InitialSequence", "assign _,err := _", "call VerifyDIDOwnership(msg.Document, seq, msg.Document, msg.VerificationMethodId, msg.Signature)", "if err != nil", "return nil,err", "assign docWithSeq := types.NewDIDDocumentWithSeq(msg.Document, uint64(seq))", "call types.NewDIDDocumentWithSeq(msg.Document, uint64(seq))", "call uint64(seq)", "call keeper.SetDIDDocument(ctx, msg.Did, docWithSeq)", "return _,nil"]
 
 /-- x/did/keeper.msgServer.DeactivateDID -/
-def x_did_keeper_msgServer_DeactivateDID : List String := ["assign keeper := m.Keeper", "assign ctx := sdk.UnwrapSDKContext(goCtx)", "call sdk.UnwrapSDKContext", "assign docWithSeq := keeper.GetDIDDocument(ctx, msg.Did)", "call keeper.GetDIDDocument", "if docWithSeq.Empty()", "call docWithSeq.Empty", "return nil,_", "call errors.Wrapf", "if docWithSeq.Deactivated()", "call docWithSeq.Deactivated", "return nil,_", "call errors.Wrapf", "assign doc := _", "kv Id=msg.Did", "assign newSeq,err := _", "call VerifyDIDOwnership", "if err != nil", "return nil,err", "call keeper.SetDIDDocument", "call docWithSeq.Deactivate", "return _,nil"]
+def x_did_keeper_msgServer_DeactivateDID : List String := ["assign keeper := m.Keeper", "assign ctx := sdk.UnwrapSDKContext(goCtx)", "call sdk.UnwrapSDKContext(goCtx)", "assign docWithSeq := keeper.GetDIDDocument(ctx, msg.Did)", "call keeper.GetDIDDocument(ctx, msg.Did)", "if docWithSeq.Empty()", "call docWithSeq.Empty()", "return nil,_", "call errors.Wrapf(types.ErrDIDNotFound, _, msg.Did)", "if docWithSeq.Deactivated()", "call docWithSeq.Deactivated()", "return nil,_", "call errors.Wrapf(types.ErrDIDDeactivated, _, msg.Did)", "assign doc := _", "kv Id=msg.Did", "assign newSeq,err := _", "call VerifyDIDOwnership(&doc, docWithSeq.Sequence, docWithSeq.Document, msg.VerificationMethodId, msg.Signature)", "if err != nil", "return nil,err", "call keeper.SetDIDDocument(ctx, msg.Did, docWithSeq.Deactivate(newSeq))", "call docWithSeq.Deactivate(newSeq)", "return _,nil"]
 
 /-- x/did/keeper.msgServer.UpdateDID -/
-def x_did_keeper_msgServer_UpdateDID : List String := ["assign keeper := m.Keeper", "assign ctx := sdk.UnwrapSDKContext(goCtx)", "call sdk.UnwrapSDKContext", "assign docWithSeq := keeper.GetDIDDocument(ctx, msg.Did)", "call keeper.GetDIDDocument", "if docWithSeq.Empty()", "call docWithSeq.Empty", "return nil,_", "call errors.Wrapf", "if docWithSeq.Deactivated()", "call docWithSeq.Deactivated", "return nil,_", "call errors.Wrapf", "assign newSeq,err := _", "call VerifyDIDOwnership", "if err != nil", "return nil,err", "assign newDocWithSeq := types.NewDIDDocumentWithSeq(msg.Document, newSeq)", "call types.NewDIDDocumentWithSeq", "call keeper.SetDIDDocument", "return _,nil"]
+def x_did_keeper_msgServer_UpdateDID : List String := ["assign keeper := m.Keeper", "assign ctx := sdk.UnwrapSDKContext(goCtx)", "call sdk.UnwrapSDKContext(goCtx)", "assign docWithSeq := keeper.GetDIDDocument(ctx, msg.Did)", "call keeper.GetDIDDocument(ctx, msg.Did)", "if docWithSeq.Empty()", "call docWithSeq.Empty()", "return nil,_", "call errors.Wrapf(types.ErrDIDNotFound, _, msg.Did)", "if docWithSeq.Deactivated()", "call docWithSeq.Deactivated()", "return nil,_", "call errors.Wrapf(types.ErrDIDDeactivated, _, msg.Did)", "assign newSeq,err := _", "call VerifyDIDOwnership(msg.Document, docWithSeq.Sequence, docWithSeq.Document, msg.VerificationMethodId, msg.Signature)", "if err != nil", "return nil,err", "assign newDocWithSeq := types.NewDIDDocumentWithSeq(msg.Document, newSeq)", "call types.NewDIDDocumentWithSeq(msg.Document, newSeq)", "call keeper.SetDIDDocument(ctx, msg.Did, newDocWithSeq)", "return _,nil"]
 
 /-- x/did/types.DIDDocument.Empty -/
-def x_did_types_DIDDocument_Empty : List String := ["return _", "call EmptyDID"]
+def x_did_types_DIDDocument_Empty : List String := ["return _", "call EmptyDID(doc.Id)"]
 
 /-- x/did/types.DIDDocument.GetSignBytes -/
-def x_did_types_DIDDocument_GetSignBytes : List String := ["return _", "call sdk.MustSortJSON", "call ModuleCdc.MustMarshalJSON"]
+def x_did_types_DIDDocument_GetSignBytes : List String := ["return _", "call sdk.MustSortJSON(ModuleCdc.MustMarshalJSON(&doc))", "call ModuleCdc.MustMarshalJSON(&doc)"]
 
 /-- x/did/types.DIDDocument.Valid -/
-def x_did_types_DIDDocument_Valid : List String := ["if doc.Empty()", "call doc.Empty", "return true", "if !ValidateDID(doc.Id) || doc.VerificationMethods == nil || doc.Authentications == nil", "call ValidateDID", "return false", "if doc.Controller != nil && !EmptyDIDs(*doc.Controller) && !ValidateDIDs(*doc.Controller)", "call EmptyDIDs", "call ValidateDIDs", "return false", "if doc.Contexts != nil && !ValidateContexts(*doc.Contexts)", "call ValidateContexts", "return false", "range doc.VerificationMethods", "if !verificationMethod.Valid(doc.Id)", "call verificationMethod.Valid", "return false", "if !doc.validVerificationRelationships(doc.Authentications)", "call doc.validVerificationRelationships", "return false", "if !doc.validVerificationRelationships(doc.AssertionMethods)", "call doc.validVerificationRelationships", "return false", "if !doc.validVerificationRelationships(doc.KeyAgreements)", "call doc.validVerificationRelationships", "return false", "if !doc.validVerificationRelationships(doc.CapabilityInvocations)", "call doc.validVerificationRelationships", "return false", "if !doc.validVerificationRelationships(doc.CapabilityDelegations)", "call doc.validVerificationRelationships", "return false", "range doc.Services", "if !service.Valid()", "call service.Valid", "return false", "return true"]
+def x_did_types_DIDDocument_Valid : List String := ["if doc.Empty()", "call doc.Empty()", "return true", "if !ValidateDID(doc.Id) || doc.VerificationMethods == nil || doc.Authentications == nil", "call ValidateDID(doc.Id)", "return false", "if doc.Controller != nil && !EmptyDIDs(*doc.Controller) && !ValidateDIDs(*doc.Controller)", "call EmptyDIDs(*doc.Controller)", "call ValidateDIDs(*doc.Controller)", "return false", "if doc.Contexts != nil && !ValidateContexts(*doc.Contexts)", "call ValidateContexts(*doc.Contexts)", "return false", "range doc.VerificationMethods", "if !verificationMethod.Valid(doc.Id)", "call verificationMethod.Valid(doc.Id)", "return false", "if !doc.validVerificationRelationships(doc.Authentications)", "call doc.validVerificationRelationships(doc.Authentications)", "return false", "if !doc.validVerificationRelationships(doc.AssertionMethods)", "call doc.validVerificationRelationships(doc.AssertionMethods)", "return false", "if !doc.validVerificationRelationships(doc.KeyAgreements)", "call doc.validVerificationRelationships(doc.KeyAgreements)", "return false", "if !doc.validVerificationRelationships(doc.CapabilityInvocations)", "call doc.validVerificationRelationships(doc.CapabilityInvocations)", "return false", "if !doc.validVerificationRelationships(doc.CapabilityDelegations)", "call doc.validVerificationRelationships(doc.CapabilityDelegations)", "return false", "range doc.Services", "if !service.Valid()", "call service.Valid()", "return false", "return true"]
 
 /-- x/did/types.DIDDocument.VerificationMethodByID -/
 def x_did_types_DIDDocument_VerificationMethodByID : List String := ["range doc.VerificationMethods", "if verificationMethod.Id == id", "return _,true", "return _,false"]
 
 /-- x/did/types.DIDDocument.VerificationMethodFrom -/
-def x_did_types_DIDDocument_VerificationMethodFrom : List String := ["range relationships", "if relationship.hasDedicatedMethod()", "call relationship.hasDedicatedMethod", "assign veriMethod := relationship.GetVerificationMethod()", "call relationship.GetVerificationMethod", "if veriMethod.Id == id", "return _,true", "assign veriMethodID := relationship.GetVerificationMethodId()", "call relationship.GetVerificationMethodId", "if veriMethodID == id", "return _", "call doc.VerificationMethodByID", "return _,false"]
+def x_did_types_DIDDocument_VerificationMethodFrom : List String := ["range relationships", "if relationship.hasDedicatedMethod()", "call relationship.hasDedicatedMethod()", "assign veriMethod := relationship.GetVerificationMethod()", "call relationship.GetVerificationMethod()", "if veriMethod.Id == id", "return _,true", "assign veriMethodID := relationship.GetVerificationMethodId()", "call relationship.GetVerificationMethodId()", "if veriMethodID == id", "return _", "call doc.VerificationMethodByID(veriMethodID)", "return _,false"]
 
 /-- x/did/types.DIDDocument.validVerificationRelationships -/
-def x_did_types_DIDDocument_validVerificationRelationships : List String := ["range relationships", "if !relationship.Valid(doc.Id)", "call relationship.Valid", "return false", "if !relationship.hasDedicatedMethod()", "call relationship.hasDedicatedMethod", "if !ok", "assign _,ok := doc.VerificationMethodByID(relationship.GetVerificationMethodId())", "call doc.VerificationMethodByID", "call relationship.GetVerificationMethodId", "return false", "return true"]
+def x_did_types_DIDDocument_validVerificationRelationships : List String := ["range relationships", "if !relationship.Valid(doc.Id)", "call relationship.Valid(doc.Id)", "return false", "if !relationship.hasDedicatedMethod()", "call relationship.hasDedicatedMethod()", "if !ok", "assign _,ok := doc.VerificationMethodByID(relationship.GetVerificationMethodId())", "call doc.VerificationMethodByID(relationship.GetVerificationMethodId())", "call relationship.GetVerificationMethodId()", "return false", "return true"]
 
 /-- x/did/types.DIDDocumentWithSeq.Deactivate -/
-def x_did_types_DIDDocumentWithSeq_Deactivate : List String := ["return _", "call NewDIDDocumentWithSeq"]
+def x_did_types_DIDDocumentWithSeq_Deactivate : List String := ["return _", "call NewDIDDocumentWithSeq(_, newSeq)"]
 
 /-- x/did/types.DIDDocumentWithSeq.Deactivated -/
-def x_did_types_DIDDocumentWithSeq_Deactivated : List String := ["return _", "call _.Empty"]
+def x_did_types_DIDDocumentWithSeq_Deactivated : List String := ["return _", "call _.Empty()"]
 
 /-- x/did/types.DIDDocumentWithSeq.Empty -/
-def x_did_types_DIDDocumentWithSeq_Empty : List String := ["return _", "call _.Empty"]
+def x_did_types_DIDDocumentWithSeq_Empty : List String := ["return _", "call _.Empty()"]
 
 /-- x/did/types.DIDDocumentWithSeq.Valid -/
-def x_did_types_DIDDocumentWithSeq_Valid : List String := ["return _", "call _.Valid"]
+def x_did_types_DIDDocumentWithSeq_Valid : List String := ["return _", "call _.Valid()"]
 
 /-- x/did/types.DefaultGenesis -/
 def x_did_types_DefaultGenesis : List String := ["return _"]
@@ -642,43 +642,43 @@ def x_did_types_DefaultGenesis : List String := ["return _"]
 def x_did_types_EmptyDID : List String := ["return _", "lit \"\""]
 
 /-- x/did/types.EmptyDIDs -/
-def x_did_types_EmptyDIDs : List String := ["if len(strings) == 0", "call len", "lit 0", "return true", "range strings", "if !EmptyDID(did)", "call EmptyDID", "return false", "return true"]
+def x_did_types_EmptyDIDs : List String := ["if len(strings) == 0", "call len(strings)", "lit 0", "return true", "range strings", "if !EmptyDID(did)", "call EmptyDID(did)", "return false", "return true"]
 
 /-- x/did/types.GenesisDIDDocumentKey.Marshal -/
 def x_did_types_GenesisDIDDocumentKey_Marshal : List String := ["return _"]
 
 /-- x/did/types.GenesisDIDDocumentKey.Unmarshal -/
-def x_did_types_GenesisDIDDocumentKey_Unmarshal : List String := ["assign did := key", "if !ValidateDID(did)", "call ValidateDID", "return _", "call errors.Wrapf", "assign k.DID = did", "return nil"]
+def x_did_types_GenesisDIDDocumentKey_Unmarshal : List String := ["assign did := key", "if !ValidateDID(did)", "call ValidateDID(did)", "return _", "call errors.Wrapf(ErrInvalidDID, _, key)", "assign k.DID = did", "return nil"]
 
 /-- x/did/types.GenesisState.Validate -/
-def x_did_types_GenesisState_Validate : List String := ["range data.Documents", "if err != nil", "assign err := key.Unmarshal(bz)", "call key.Unmarshal", "return err", "if !doc.Valid()", "call doc.Valid", "return _", "call errors.Wrapf", "return nil"]
+def x_did_types_GenesisState_Validate : List String := ["range data.Documents", "if err != nil", "assign err := key.Unmarshal(bz)", "call key.Unmarshal(bz)", "return err", "if !doc.Valid()", "call doc.Valid()", "return _", "call errors.Wrapf(ErrInvalidDIDDocumentWithSeq, _, doc)", "if !doc.Document.Empty() && doc.Document.Id != key.DID", "call _.Empty()", "return _", "call errors.Wrapf(ErrInvalidDIDDocumentWithSeq, _, doc.Document.Id, key.DID)", "return nil"]
 
 /-- x/did/types.JSONStringOrStrings.Marshal -/
-def x_did_types_JSONStringOrStrings_Marshal : List String := ["return _", "call proto.Marshal", "call strings.protoType"]
+def x_did_types_JSONStringOrStrings_Marshal : List String := ["return _", "call proto.Marshal(strings.protoType())", "call strings.protoType()"]
 
 /-- x/did/types.JSONStringOrStrings.MarshalJSON -/
-def x_did_types_JSONStringOrStrings_MarshalJSON : List String := ["if len(strings) == 1", "call len", "lit 1", "return _", "call json.Marshal", "lit 0", "return _", "call json.Marshal", "call ?"]
+def x_did_types_JSONStringOrStrings_MarshalJSON : List String := ["if len(strings) == 1", "call len(strings)", "lit 1", "return _", "call json.Marshal(strings[0])", "lit 0", "return _", "call json.Marshal([]string(strings))", "call ?(strings)"]
 
 /-- x/did/types.JSONStringOrStrings.MarshalTo -/
-def x_did_types_JSONStringOrStrings_MarshalTo : List String := ["return _", "call _.MarshalTo", "call strings.protoType"]
+def x_did_types_JSONStringOrStrings_MarshalTo : List String := ["return _", "call _.MarshalTo(data)", "call strings.protoType()"]
 
 /-- x/did/types.JSONStringOrStrings.Size -/
-def x_did_types_JSONStringOrStrings_Size : List String := ["return _", "call _.Size", "call strings.protoType"]
+def x_did_types_JSONStringOrStrings_Size : List String := ["return _", "call _.Size()", "call strings.protoType()"]
 
 /-- x/did/types.JSONStringOrStrings.Unmarshal -/
-def x_did_types_JSONStringOrStrings_Unmarshal : List String := ["assign protoType := _", "if err != nil", "assign err := proto.Unmarshal(data, protoType)", "call proto.Unmarshal", "return err", "assign *strings = protoType.Values", "return nil"]
+def x_did_types_JSONStringOrStrings_Unmarshal : List String := ["assign protoType := _", "if err != nil", "assign err := proto.Unmarshal(data, protoType)", "call proto.Unmarshal(data, protoType)", "return err", "assign *strings = protoType.Values", "return nil"]
 
 /-- x/did/types.JSONStringOrStrings.UnmarshalJSON -/
-def x_did_types_JSONStringOrStrings_UnmarshalJSON : List String := ["assign err := json.Unmarshal(data, &single)", "call json.Unmarshal", "if err == nil", "assign *strings = _", "return nil", "if err != nil", "assign err := json.Unmarshal(data, &multiple)", "call json.Unmarshal", "return err", "assign *strings = multiple", "return nil"]
+def x_did_types_JSONStringOrStrings_UnmarshalJSON : List String := ["assign err := json.Unmarshal(data, &single)", "call json.Unmarshal(data, &single)", "if err == nil", "assign *strings = _", "return nil", "if err != nil", "assign err := json.Unmarshal(data, &multiple)", "call json.Unmarshal(data, &multiple)", "return err", "assign *strings = multiple", "return nil"]
 
 /-- x/did/types.JSONStringOrStrings.protoType -/
-def x_did_types_JSONStringOrStrings_protoType : List String := ["assign values := make([]string, 0, len(strings))", "call make", "lit 0", "call len", "range strings", "assign values = append(values, s)", "call append", "return _"]
+def x_did_types_JSONStringOrStrings_protoType : List String := ["assign values := make([]string, 0, len(strings))", "call make([]string, 0, len(strings))", "lit 0", "call len(strings)", "range strings", "assign values = append(values, s)", "call append(values, s)", "return _"]
 
 /-- x/did/types.MsgCreateDIDRequest.GetSignBytes -/
-def x_did_types_MsgCreateDIDRequest_GetSignBytes : List String := ["return _", "call sdk.MustSortJSON", "call ModuleCdc.MustMarshalJSON"]
+def x_did_types_MsgCreateDIDRequest_GetSignBytes : List String := ["return _", "call sdk.MustSortJSON(ModuleCdc.MustMarshalJSON(msg))", "call ModuleCdc.MustMarshalJSON(msg)"]
 
 /-- x/did/types.MsgCreateDIDRequest.GetSigners -/
-def x_did_types_MsgCreateDIDRequest_GetSigners : List String := ["assign creator,err := sdk.AccAddressFromBech32(msg.FromAddress)", "call sdk.AccAddressFromBech32", "if err != nil", "call panic", "return _"]
+def x_did_types_MsgCreateDIDRequest_GetSigners : List String := ["assign creator,err := sdk.AccAddressFromBech32(msg.FromAddress)", "call sdk.AccAddressFromBech32(msg.FromAddress)", "if err != nil", "call panic(err)", "return _"]
 
 /-- x/did/types.MsgCreateDIDRequest.Route -/
 def x_did_types_MsgCreateDIDRequest_Route : List String := ["return RouterKey"]
@@ -687,13 +687,13 @@ def x_did_types_MsgCreateDIDRequest_Route : List String := ["return RouterKey"]
 def x_did_types_MsgCreateDIDRequest_Type : List String := ["return \"create_did\"", "lit \"create_did\""]
 
 /-- x/did/types.MsgCreateDIDRequest.ValidateBasic -/
-def x_did_types_MsgCreateDIDRequest_ValidateBasic : List String := ["if !ValidateDID(msg.Did)", "call ValidateDID", "return _", "call errors.Wrapf", "if msg.Document == nil || !msg.Document.Valid()", "call _.Valid", "return _", "call errors.Wrapf", "if msg.Document.Id != msg.Did", "return _", "call errors.Wrapf", "if msg.Signature == nil || len(msg.Signature) == 0", "call len", "lit 0", "return _", "call errors.Wrapf", "assign addr,err := sdk.AccAddressFromBech32(msg.FromAddress)", "call sdk.AccAddressFromBech32", "if err != nil", "return err", "if addr.Empty()", "call addr.Empty", "return _", "call errors.Wrapf", "call addr.String", "return nil"]
+def x_did_types_MsgCreateDIDRequest_ValidateBasic : List String := ["if !ValidateDID(msg.Did)", "call ValidateDID(msg.Did)", "return _", "call errors.Wrapf(ErrInvalidDID, _, msg.Did)", "if msg.Document == nil || !msg.Document.Valid()", "call _.Valid()", "return _", "call errors.Wrapf(ErrInvalidDIDDocument, _, msg.Document)", "if msg.Document.Id != msg.Did", "return _", "call errors.Wrapf(ErrInvalidDIDDocument, _, msg.Document.Id, msg.Did)", "if msg.Signature == nil || len(msg.Signature) == 0", "call len(msg.Signature)", "lit 0", "return _", "call errors.Wrapf(ErrInvalidSignature, _, msg.Signature)", "assign addr,err := sdk.AccAddressFromBech32(msg.FromAddress)", "call sdk.AccAddressFromBech32(msg.FromAddress)", "if err != nil", "return err", "if addr.Empty()", "call addr.Empty()", "return _", "call errors.Wrapf(sdkerrors.ErrInvalidAddress, _, addr.String())", "call addr.String()", "return nil"]
 
 /-- x/did/types.MsgDeactivateDIDRequest.GetSignBytes -/
-def x_did_types_MsgDeactivateDIDRequest_GetSignBytes : List String := ["return _", "call sdk.MustSortJSON", "call ModuleCdc.MustMarshalJSON"]
+def x_did_types_MsgDeactivateDIDRequest_GetSignBytes : List String := ["return _", "call sdk.MustSortJSON(ModuleCdc.MustMarshalJSON(msg))", "call ModuleCdc.MustMarshalJSON(msg)"]
 
 /-- x/did/types.MsgDeactivateDIDRequest.GetSigners -/
-def x_did_types_MsgDeactivateDIDRequest_GetSigners : List String := ["assign creator,err := sdk.AccAddressFromBech32(msg.FromAddress)", "call sdk.AccAddressFromBech32", "if err != nil", "call panic", "return _"]
+def x_did_types_MsgDeactivateDIDRequest_GetSigners : List String := ["assign creator,err := sdk.AccAddressFromBech32(msg.FromAddress)", "call sdk.AccAddressFromBech32(msg.FromAddress)", "if err != nil", "call panic(err)", "return _"]
 
 /-- x/did/types.MsgDeactivateDIDRequest.Route -/
 def x_did_types_MsgDeactivateDIDRequest_Route : List String := ["return RouterKey"]
@@ -702,13 +702,13 @@ def x_did_types_MsgDeactivateDIDRequest_Route : List String := ["return RouterKe
 def x_did_types_MsgDeactivateDIDRequest_Type : List String := ["return \"deactivate_did\"", "lit \"deactivate_did\""]
 
 /-- x/did/types.MsgDeactivateDIDRequest.ValidateBasic -/
-def x_did_types_MsgDeactivateDIDRequest_ValidateBasic : List String := ["if !ValidateDID(msg.Did)", "call ValidateDID", "return _", "call errors.Wrapf", "if msg.Signature == nil || len(msg.Signature) == 0", "call len", "lit 0", "return _", "call errors.Wrapf", "assign addr,err := sdk.AccAddressFromBech32(msg.FromAddress)", "call sdk.AccAddressFromBech32", "if err != nil", "return err", "if addr.Empty()", "call addr.Empty", "return _", "call errors.Wrapf", "call addr.String", "return nil"]
+def x_did_types_MsgDeactivateDIDRequest_ValidateBasic : List String := ["if !ValidateDID(msg.Did)", "call ValidateDID(msg.Did)", "return _", "call errors.Wrapf(ErrInvalidDID, _, msg.Did)", "if msg.Signature == nil || len(msg.Signature) == 0", "call len(msg.Signature)", "lit 0", "return _", "call errors.Wrapf(ErrInvalidSignature, _, msg.Signature)", "assign addr,err := sdk.AccAddressFromBech32(msg.FromAddress)", "call sdk.AccAddressFromBech32(msg.FromAddress)", "if err != nil", "return err", "if addr.Empty()", "call addr.Empty()", "return _", "call errors.Wrapf(sdkerrors.ErrInvalidAddress, _, addr.String())", "call addr.String()", "return nil"]
 
 /-- x/did/types.MsgUpdateDIDRequest.GetSignBytes -/
-def x_did_types_MsgUpdateDIDRequest_GetSignBytes : List String := ["return _", "call sdk.MustSortJSON", "call ModuleCdc.MustMarshalJSON"]
+def x_did_types_MsgUpdateDIDRequest_GetSignBytes : List String := ["return _", "call sdk.MustSortJSON(ModuleCdc.MustMarshalJSON(msg))", "call ModuleCdc.MustMarshalJSON(msg)"]
 
 /-- x/did/types.MsgUpdateDIDRequest.GetSigners -/
-def x_did_types_MsgUpdateDIDRequest_GetSigners : List String := ["assign creator,err := sdk.AccAddressFromBech32(msg.FromAddress)", "call sdk.AccAddressFromBech32", "if err != nil", "call panic", "return _"]
+def x_did_types_MsgUpdateDIDRequest_GetSigners : List String := ["assign creator,err := sdk.AccAddressFromBech32(msg.FromAddress)", "call sdk.AccAddressFromBech32(msg.FromAddress)", "if err != nil", "call panic(err)", "return _"]
 
 /-- x/did/types.MsgUpdateDIDRequest.Route -/
 def x_did_types_MsgUpdateDIDRequest_Route : List String := ["return RouterKey"]
@@ -717,13 +717,13 @@ def x_did_types_MsgUpdateDIDRequest_Route : List String := ["return RouterKey"]
 def x_did_types_MsgUpdateDIDRequest_Type : List String := ["return \"update_did\"", "lit \"update_did\""]
 
 /-- x/did/types.MsgUpdateDIDRequest.ValidateBasic -/
-def x_did_types_MsgUpdateDIDRequest_ValidateBasic : List String := ["if !ValidateDID(msg.Did)", "call ValidateDID", "return _", "call errors.Wrapf", "if msg.Document == nil || !msg.Document.Valid()", "call _.Valid", "return _", "call errors.Wrapf", "if msg.Document.Id != msg.Did", "return _", "call errors.Wrapf", "if msg.Signature == nil || len(msg.Signature) == 0", "call len", "lit 0", "return _", "call errors.Wrapf", "assign addr,err := sdk.AccAddressFromBech32(msg.FromAddress)", "call sdk.AccAddressFromBech32", "if err != nil", "return err", "if addr.Empty()", "call addr.Empty", "return _", "call errors.Wrapf", "call addr.String", "return nil"]
+def x_did_types_MsgUpdateDIDRequest_ValidateBasic : List String := ["if !ValidateDID(msg.Did)", "call ValidateDID(msg.Did)", "return _", "call errors.Wrapf(ErrInvalidDID, _, msg.Did)", "if msg.Document == nil || !msg.Document.Valid()", "call _.Valid()", "return _", "call errors.Wrapf(ErrInvalidDIDDocument, _, msg.Document)", "if msg.Document.Id != msg.Did", "return _", "call errors.Wrapf(ErrInvalidDIDDocument, _, msg.Document.Id, msg.Did)", "if msg.Signature == nil || len(msg.Signature) == 0", "call len(msg.Signature)", "lit 0", "return _", "call errors.Wrapf(ErrInvalidSignature, _, msg.Signature)", "assign addr,err := sdk.AccAddressFromBech32(msg.FromAddress)", "call sdk.AccAddressFromBech32(msg.FromAddress)", "if err != nil", "return err", "if addr.Empty()", "call addr.Empty()", "return _", "call errors.Wrapf(sdkerrors.ErrInvalidAddress, _, addr.String())", "call addr.String()", "return nil"]
 
 /-- x/did/types.NewDID -/
-def x_did_types_NewDID : List String := ["assign hash := sha256.New()", "call sha256.New", "assign _,err := hash.Write(pubKey)", "call hash.Write", "if err != nil", "call panic", "lit \"failed to calculate SHA256 for DID\"", "assign idStr := base58.Encode(hash.Sum(nil))", "call base58.Encode", "call hash.Sum", "return _", "call fmt.Sprintf", "lit \"did:%s:%s\""]
+def x_did_types_NewDID : List String := ["assign hash := sha256.New()", "call sha256.New()", "assign _,err := hash.Write(pubKey)", "call hash.Write(pubKey)", "if err != nil", "call panic(\"failed to calculate SHA256 for DID\")", "lit \"failed to calculate SHA256 for DID\"", "assign idStr := base58.Encode(hash.Sum(nil))", "call base58.Encode(hash.Sum(nil))", "call hash.Sum(nil)", "return _", "call fmt.Sprintf(_, DIDMethod, idStr)", "lit \"did:%s:%s\""]
 
 /-- x/did/types.NewDIDDocument -/
-def x_did_types_NewDIDDocument : List String := ["assign doc := _", "kv Contexts", "kv Id=id", "range opts", "call opt", "return doc"]
+def x_did_types_NewDIDDocument : List String := ["assign doc := _", "kv Contexts", "kv Id=id", "range opts", "call opt(&doc)", "return doc"]
 
 /-- x/did/types.NewDIDDocumentWithSeq -/
 def x_did_types_NewDIDDocumentWithSeq : List String := ["return _", "kv Document=doc", "kv Sequence=seq"]
@@ -741,10 +741,10 @@ def x_did_types_NewMsgUpdateDID : List String := ["return _", "kv Did=did", "kv 
 def x_did_types_NewService : List String := ["return _", "kv Id=id", "kv Type=type_", "kv ServiceEndpoint=serviceEndpoint"]
 
 /-- x/did/types.NewVerificationMethod -/
-def x_did_types_NewVerificationMethod : List String := ["return _", "kv Id=id", "kv Type=keyType", "kv Controller=controller", "kv PublicKeyBase58=base58.Encode(pubKey)", "call base58.Encode"]
+def x_did_types_NewVerificationMethod : List String := ["return _", "kv Id=id", "kv Type=keyType", "kv Controller=controller", "kv PublicKeyBase58=base58.Encode(pubKey)", "call base58.Encode(pubKey)"]
 
 /-- x/did/types.NewVerificationMethodID -/
-def x_did_types_NewVerificationMethodID : List String := ["return _", "call fmt.Sprintf", "lit \"%v#%s\""]
+def x_did_types_NewVerificationMethodID : List String := ["return _", "call fmt.Sprintf(_, did, name)", "lit \"%v#%s\""]
 
 /-- x/did/types.NewVerificationRelationship -/
 def x_did_types_NewVerificationRelationship : List String := ["return _", "kv Content", "kv VerificationMethodId=verificationMethodID"]
@@ -753,58 +753,58 @@ def x_did_types_NewVerificationRelationship : List String := ["return _", "kv Co
 def x_did_types_NewVerificationRelationshipDedicated : List String := ["return _", "kv Content", "kv VerificationMethod=&verificationMethod"]
 
 /-- x/did/types.ParseDID -/
-def x_did_types_ParseDID : List String := ["assign did := str", "if !ValidateDID(did)", "call ValidateDID", "return \"\",_", "lit \"\"", "call errors.Wrapf", "return did,nil"]
+def x_did_types_ParseDID : List String := ["assign did := str", "if !ValidateDID(did)", "call ValidateDID(did)", "return \"\",_", "lit \"\"", "call errors.Wrapf(ErrInvalidDID, _, str)", "return did,nil"]
 
 /-- x/did/types.ParseVerificationMethodID -/
-def x_did_types_ParseVerificationMethodID : List String := ["assign methodID := id", "if !ValidateVerificationMethodID(id, did)", "call ValidateVerificationMethodID", "return \"\",_", "lit \"\"", "call errors.Wrapf", "return methodID,nil"]
+def x_did_types_ParseVerificationMethodID : List String := ["assign methodID := id", "if !ValidateVerificationMethodID(id, did)", "call ValidateVerificationMethodID(id, did)", "return \"\",_", "lit \"\"", "call errors.Wrapf(ErrInvalidVerificationMethodID, _, id, did)", "return methodID,nil"]
 
 /-- x/did/types.RegisterCodec -/
-def x_did_types_RegisterCodec : List String := ["call cdc.RegisterConcrete", "lit \"did/CreateDID\"", "call cdc.RegisterConcrete", "lit \"did/UpdateDID\"", "call cdc.RegisterConcrete", "lit \"did/DeactivateDID\""]
+def x_did_types_RegisterCodec : List String := ["call cdc.RegisterConcrete(_, \"did/CreateDID\", nil)", "lit \"did/CreateDID\"", "call cdc.RegisterConcrete(_, \"did/UpdateDID\", nil)", "lit \"did/UpdateDID\"", "call cdc.RegisterConcrete(_, \"did/DeactivateDID\", nil)", "lit \"did/DeactivateDID\""]
 
 /-- x/did/types.RegisterInterfaces -/
-def x_did_types_RegisterInterfaces : List String := ["call registry.RegisterImplementations", "call ?", "call msgservice.RegisterMsgServiceDesc"]
+def x_did_types_RegisterInterfaces : List String := ["call registry.RegisterImplementations((*sdk.Msg)(nil), _, _, _)", "call ?(nil)", "call msgservice.RegisterMsgServiceDesc(registry, &_Msg_serviceDesc)"]
 
 /-- x/did/types.Service.Valid -/
 def x_did_types_Service_Valid : List String := ["return _", "lit \"\"", "lit \"\"", "lit \"\""]
 
 /-- x/did/types.Sign -/
-def x_did_types_Sign : List String := ["return _", "call privKey.Sign", "call mustGetSignBytesWithSeq"]
+def x_did_types_Sign : List String := ["return _", "call privKey.Sign(mustGetSignBytesWithSeq(signableData, seq))", "call mustGetSignBytesWithSeq(signableData, seq)"]
 
 /-- x/did/types.ValidateContext -/
 def x_did_types_ValidateContext : List String := ["return _", "lit \"\""]
 
 /-- x/did/types.ValidateContexts -/
-def x_did_types_ValidateContexts : List String := ["if len(contexts) == 0 || contexts[0] != ContextDIDV1", "call len", "lit 0", "lit 0", "return false", "assign set := _", "call make", "call len", "range contexts", "assign _,dup := set[context]", "if dup || !ValidateContext(context)", "call ValidateContext", "return false", "assign set[context] = _", "return true"]
+def x_did_types_ValidateContexts : List String := ["if len(contexts) == 0 || contexts[0] != ContextDIDV1", "call len(contexts)", "lit 0", "lit 0", "return false", "assign set := _", "call make(_, len(contexts))", "call len(contexts)", "range contexts", "assign _,dup := set[context]", "if dup || !ValidateContext(context)", "call ValidateContext(context)", "return false", "assign set[context] = _", "return true"]
 
 /-- x/did/types.ValidateDID -/
-def x_did_types_ValidateDID : List String := ["assign pattern := fmt.Sprintf(\"^%s$\", didRegex())", "call fmt.Sprintf", "lit \"^%s$\"", "call didRegex", "assign matched,_ := regexp.MatchString(pattern, did)", "call regexp.MatchString", "return matched"]
+def x_did_types_ValidateDID : List String := ["assign pattern := fmt.Sprintf(\"^%s$\", didRegex())", "call fmt.Sprintf(_, didRegex())", "lit \"^%s$\"", "call didRegex()", "assign matched,_ := regexp.MatchString(pattern, did)", "call regexp.MatchString(pattern, did)", "return matched"]
 
 /-- x/did/types.ValidateDIDs -/
-def x_did_types_ValidateDIDs : List String := ["if EmptyDIDs(strings)", "call EmptyDIDs", "return false", "range strings", "if !ValidateDID(did)", "call ValidateDID", "return false", "return true"]
+def x_did_types_ValidateDIDs : List String := ["if EmptyDIDs(strings)", "call EmptyDIDs(strings)", "return false", "range strings", "if !ValidateDID(did)", "call ValidateDID(did)", "return false", "return true"]
 
 /-- x/did/types.ValidateKeyType -/
-def x_did_types_ValidateKeyType : List String := ["switch keyType", "case JSONWEBKEY_2020,ES256K_2019,ES256K_2018,ED25519_2018,BLS1281G1_2020,BLS1281G2_2020,GPG_2020,RSA_2018,X25519_2019,SS256K_2019,ES256K_R_2020", "return true", "if keyType == \"\"", "lit \"\"", "return false", "call log.Printf", "return true"]
+def x_did_types_ValidateKeyType : List String := ["switch keyType", "case JSONWEBKEY_2020,ES256K_2019,ES256K_2018,ED25519_2018,BLS1281G1_2020,BLS1281G2_2020,GPG_2020,RSA_2018,X25519_2019,SS256K_2019,ES256K_R_2020", "return true", "if keyType == \"\"", "lit \"\"", "return false", "call log.Printf(_, keyType)", "return true"]
 
 /-- x/did/types.ValidateVerificationMethodID -/
-def x_did_types_ValidateVerificationMethodID : List String := ["assign prefix := fmt.Sprintf(\"%v#\", did)", "call fmt.Sprintf", "lit \"%v#\"", "if !strings.HasPrefix(verificationMethodID, prefix)", "call strings.HasPrefix", "return false", "if len(verificationMethodID)-len(prefix) > MaxVerificationMethodIDLen", "op -", "call len", "call len", "return false", "assign suffix := verificationMethodID[len(prefix):]", "call len", "assign matched,_ := regexp.MatchString(`^\\S+$`, suffix)", "call regexp.MatchString", "lit `^\\S+$`", "return matched"]
+def x_did_types_ValidateVerificationMethodID : List String := ["assign prefix := fmt.Sprintf(\"%v#\", did)", "call fmt.Sprintf(_, did)", "lit \"%v#\"", "if !strings.HasPrefix(verificationMethodID, prefix)", "call strings.HasPrefix(verificationMethodID, prefix)", "return false", "if len(verificationMethodID)-len(prefix) > MaxVerificationMethodIDLen", "op -", "call len(verificationMethodID)", "call len(prefix)", "return false", "assign suffix := verificationMethodID[len(prefix):]", "call len(prefix)", "assign matched,_ := regexp.MatchString(`^\\S+$`, suffix)", "call regexp.MatchString(`^\\S+$`, suffix)", "lit `^\\S+$`", "return matched"]
 
 /-- x/did/types.VerificationMethod.Valid -/
-def x_did_types_VerificationMethod_Valid : List String := ["if !ValidateVerificationMethodID(pk.Id, did) || !ValidateKeyType(pk.Type)", "call ValidateVerificationMethodID", "call ValidateKeyType", "return false", "assign pattern := fmt.Sprintf(\"^[%s]+$\", Base58Charset)", "call fmt.Sprintf", "lit \"^[%s]+$\"", "assign matched,_ := regexp.MatchString(pattern, pk.PublicKeyBase58)", "call regexp.MatchString", "return matched"]
+def x_did_types_VerificationMethod_Valid : List String := ["if !ValidateVerificationMethodID(pk.Id, did) || !ValidateKeyType(pk.Type)", "call ValidateVerificationMethodID(pk.Id, did)", "call ValidateKeyType(pk.Type)", "return false", "assign pattern := fmt.Sprintf(\"^[%s]+$\", Base58Charset)", "call fmt.Sprintf(_, Base58Charset)", "lit \"^[%s]+$\"", "assign matched,_ := regexp.MatchString(pattern, pk.PublicKeyBase58)", "call regexp.MatchString(pattern, pk.PublicKeyBase58)", "return matched"]
 
 /-- x/did/types.VerificationRelationship.MarshalJSON -/
-def x_did_types_VerificationRelationship_MarshalJSON : List String := ["if v.hasDedicatedMethod()", "call v.hasDedicatedMethod", "return _", "call json.Marshal", "call v.GetVerificationMethod", "return _", "call json.Marshal", "call v.GetVerificationMethodId"]
+def x_did_types_VerificationRelationship_MarshalJSON : List String := ["if v.hasDedicatedMethod()", "call v.hasDedicatedMethod()", "return _", "call json.Marshal(v.GetVerificationMethod())", "call v.GetVerificationMethod()", "return _", "call json.Marshal(v.GetVerificationMethodId())", "call v.GetVerificationMethodId()"]
 
 /-- x/did/types.VerificationRelationship.UnmarshalJSON -/
-def x_did_types_VerificationRelationship_UnmarshalJSON : List String := ["assign err := json.Unmarshal(bz, &verificationMethodID)", "call json.Unmarshal", "if err == nil", "assign *v = NewVerificationRelationship(verificationMethodID)", "call NewVerificationRelationship", "return nil", "if err != nil", "assign err := jsonpb.Unmarshal(bytes.NewReader(bz), &verificationMethod)", "call jsonpb.Unmarshal", "call bytes.NewReader", "return err", "assign *v = NewVerificationRelationshipDedicated(verificationMethod)", "call NewVerificationRelationshipDedicated", "return nil"]
+def x_did_types_VerificationRelationship_UnmarshalJSON : List String := ["assign err := json.Unmarshal(bz, &verificationMethodID)", "call json.Unmarshal(bz, &verificationMethodID)", "if err == nil", "assign *v = NewVerificationRelationship(verificationMethodID)", "call NewVerificationRelationship(verificationMethodID)", "return nil", "if err != nil", "assign err := jsonpb.Unmarshal(bytes.NewReader(bz), &verificationMethod)", "call jsonpb.Unmarshal(bytes.NewReader(bz), &verificationMethod)", "call bytes.NewReader(bz)", "return err", "assign *v = NewVerificationRelationshipDedicated(verificationMethod)", "call NewVerificationRelationshipDedicated(verificationMethod)", "return nil"]
 
 /-- x/did/types.VerificationRelationship.Valid -/
-def x_did_types_VerificationRelationship_Valid : List String := ["if v.hasDedicatedMethod()", "call v.hasDedicatedMethod", "return _", "call _.Valid", "call v.GetVerificationMethod", "return _", "call ValidateVerificationMethodID", "call v.GetVerificationMethodId"]
+def x_did_types_VerificationRelationship_Valid : List String := ["if v.hasDedicatedMethod()", "call v.hasDedicatedMethod()", "return _", "call _.Valid(did)", "call v.GetVerificationMethod()", "return _", "call ValidateVerificationMethodID(v.GetVerificationMethodId(), did)", "call v.GetVerificationMethodId()"]
 
 /-- x/did/types.VerificationRelationship.hasDedicatedMethod -/
-def x_did_types_VerificationRelationship_hasDedicatedMethod : List String := ["return _", "call v.GetVerificationMethod"]
+def x_did_types_VerificationRelationship_hasDedicatedMethod : List String := ["return _", "call v.GetVerificationMethod()"]
 
 /-- x/did/types.Verify -/
-def x_did_types_Verify : List String := ["assign signBytes := mustGetSignBytesWithSeq(signableData, seq)", "call mustGetSignBytesWithSeq", "if !pubKey.VerifySignature(signBytes, signature)", "call pubKey.VerifySignature", "return 0,false", "lit 0", "return _,true", "call nextSequence"]
+def x_did_types_Verify : List String := ["assign signBytes := mustGetSignBytesWithSeq(signableData, seq)", "call mustGetSignBytesWithSeq(signableData, seq)", "if !pubKey.VerifySignature(signBytes, signature)", "call pubKey.VerifySignature(signBytes, signature)", "return 0,false", "lit 0", "return _,true", "call nextSequence(seq)"]
 
 /-- x/did/types.WithAssertionMethods -/
 def x_did_types_WithAssertionMethods : List String := ["return _", "assign opts.AssertionMethods = assertionMethods"]
@@ -831,10 +831,10 @@ def x_did_types_WithServices : List String := ["return _", "assign opts.Services
 def x_did_types_WithVerificationMethods : List String := ["return _", "assign opts.VerificationMethods = verificationMethods"]
 
 /-- x/did/types.didRegex -/
-def x_did_types_didRegex : List String := ["return _", "call fmt.Sprintf", "lit \"did:%s:[%s]{32,44}\""]
+def x_did_types_didRegex : List String := ["return _", "call fmt.Sprintf(_, DIDMethod, Base58Charset)", "lit \"did:%s:[%s]{32,44}\""]
 
 /-- x/did/types.mustGetSignBytesWithSeq -/
-def x_did_types_mustGetSignBytesWithSeq : List String := ["assign dAtA,err := signableData.Marshal()", "call signableData.Marshal", "if err != nil", "call panic", "call fmt.Sprintf", "lit \"marshal failed: %s, signableData: %s\"", "call err.Error", "assign dataWithSeq := _", "kv Data=dAtA", "kv Sequence=seq", "assign dAtA,err = dataWithSeq.Marshal()", "call dataWithSeq.Marshal", "if err != nil", "call panic", "call fmt.Sprintf", "lit \"marshal failed: %s, dataWithSeq: %v\"", "call err.Error", "return dAtA"]
+def x_did_types_mustGetSignBytesWithSeq : List String := ["assign dAtA,err := signableData.Marshal()", "call signableData.Marshal()", "if err != nil", "call panic(_)", "call fmt.Sprintf(_, err.Error(), signableData)", "lit \"marshal failed: %s, signableData: %s\"", "call err.Error()", "assign dataWithSeq := _", "kv Data=dAtA", "kv Sequence=seq", "assign dAtA,err = dataWithSeq.Marshal()", "call dataWithSeq.Marshal()", "if err != nil", "call panic(_)", "call fmt.Sprintf(_, err.Error(), dataWithSeq)", "lit \"marshal failed: %s, dataWithSeq: %v\"", "call err.Error()", "return dAtA"]
 
 /-- x/did/types.nextSequence -/
 def x_did_types_nextSequence : List String := ["return _", "op +", "lit 1"]
@@ -849,10 +849,10 @@ def x_pnft_AppModule_ConsensusVersion : List String := ["return 1", "lit 1"]
 def x_pnft_AppModule_EndBlock : List String := ["return _"]
 
 /-- x/pnft.AppModule.ExportGenesis -/
-def x_pnft_AppModule_ExportGenesis : List String := ["assign genState := ExportGenesis(ctx, am.keeper)", "call ExportGenesis", "return _", "call cdc.MustMarshalJSON"]
+def x_pnft_AppModule_ExportGenesis : List String := ["assign genState := ExportGenesis(ctx, am.keeper)", "call ExportGenesis(ctx, am.keeper)", "return _", "call cdc.MustMarshalJSON(genState)"]
 
 /-- x/pnft.AppModule.InitGenesis -/
-def x_pnft_AppModule_InitGenesis : List String := ["call cdc.MustUnmarshalJSON", "call InitGenesis", "return _"]
+def x_pnft_AppModule_InitGenesis : List String := ["call cdc.MustUnmarshalJSON(data, &genState)", "call InitGenesis(ctx, am.keeper, genState)", "return _"]
 
 /-- x/pnft.AppModule.QuerierRoute -/
 def x_pnft_AppModule_QuerierRoute : List String := ["return _"]
@@ -861,214 +861,214 @@ def x_pnft_AppModule_QuerierRoute : List String := ["return _"]
 def x_pnft_AppModule_RegisterInvariants : List String := []
 
 /-- x/pnft.AppModule.RegisterServices -/
-def x_pnft_AppModule_RegisterServices : List String := ["call types.RegisterQueryServer", "call cfg.QueryServer", "call types.RegisterMsgServer", "call cfg.MsgServer", "call keeper.NewMsgServerImpl"]
+def x_pnft_AppModule_RegisterServices : List String := ["call types.RegisterQueryServer(cfg.QueryServer(), am.keeper)", "call cfg.QueryServer()", "call types.RegisterMsgServer(cfg.MsgServer(), keeper.NewMsgServerImpl(am.keeper))", "call cfg.MsgServer()", "call keeper.NewMsgServerImpl(am.keeper)"]
 
 /-- x/pnft.AppModuleBasic.DefaultGenesis -/
-def x_pnft_AppModuleBasic_DefaultGenesis : List String := ["return _", "call cdc.MustMarshalJSON", "call types.DefaultGenesis"]
+def x_pnft_AppModuleBasic_DefaultGenesis : List String := ["return _", "call cdc.MustMarshalJSON(types.DefaultGenesis())", "call types.DefaultGenesis()"]
 
 /-- x/pnft.AppModuleBasic.GetQueryCmd -/
-def x_pnft_AppModuleBasic_GetQueryCmd : List String := ["return _", "call cli.NewGetQueryCmd"]
+def x_pnft_AppModuleBasic_GetQueryCmd : List String := ["return _", "call cli.NewGetQueryCmd()"]
 
 /-- x/pnft.AppModuleBasic.GetTxCmd -/
-def x_pnft_AppModuleBasic_GetTxCmd : List String := ["return _", "call cli.NewTxCmd"]
+def x_pnft_AppModuleBasic_GetTxCmd : List String := ["return _", "call cli.NewTxCmd()"]
 
 /-- x/pnft.AppModuleBasic.Name -/
 def x_pnft_AppModuleBasic_Name : List String := ["return _"]
 
 /-- x/pnft.AppModuleBasic.RegisterGRPCGatewayRoutes -/
-def x_pnft_AppModuleBasic_RegisterGRPCGatewayRoutes : List String := ["if err != nil", "assign err := _", "call types.RegisterQueryHandlerClient", "call context.Background", "call types.NewQueryClient", "call panic"]
+def x_pnft_AppModuleBasic_RegisterGRPCGatewayRoutes : List String := ["if err != nil", "assign err := _", "call types.RegisterQueryHandlerClient(context.Background(), mux, types.NewQueryClient(clientContext))", "call context.Background()", "call types.NewQueryClient(clientContext)", "call panic(err)"]
 
 /-- x/pnft.AppModuleBasic.RegisterInterfaces -/
-def x_pnft_AppModuleBasic_RegisterInterfaces : List String := ["call types.RegisterInterfaces"]
+def x_pnft_AppModuleBasic_RegisterInterfaces : List String := ["call types.RegisterInterfaces(registry)"]
 
 /-- x/pnft.AppModuleBasic.RegisterLegacyAminoCodec -/
-def x_pnft_AppModuleBasic_RegisterLegacyAminoCodec : List String := ["call types.RegisterCodec"]
+def x_pnft_AppModuleBasic_RegisterLegacyAminoCodec : List String := ["call types.RegisterCodec(cdc)"]
 
 /-- x/pnft.AppModuleBasic.ValidateGenesis -/
-def x_pnft_AppModuleBasic_ValidateGenesis : List String := ["if err != nil", "assign err := cdc.UnmarshalJSON(bz, &genState)", "call cdc.UnmarshalJSON", "return _", "call fmt.Errorf", "return _", "call genState.ValidateBasic"]
+def x_pnft_AppModuleBasic_ValidateGenesis : List String := ["if err != nil", "assign err := cdc.UnmarshalJSON(bz, &genState)", "call cdc.UnmarshalJSON(bz, &genState)", "return _", "call fmt.Errorf(_, types.ModuleName, err)", "return _", "call genState.ValidateBasic()"]
 
 /-- x/pnft.ExportGenesis -/
-def x_pnft_ExportGenesis : List String := ["assign genesis := types.DefaultGenesis()", "call types.DefaultGenesis", "assign denoms,err := k.GetAllDenoms(ctx)", "call k.GetAllDenoms", "if err != nil", "call panic", "range denoms", "assign pnftsByDenom,err := k.GetPNFTsByDenomId(ctx, denom.Id)", "call k.GetPNFTsByDenomId", "if err != nil", "call panic", "assign pnfts = append(pnfts, pnftsByDenom...)", "call append", "assign genesis.Denoms = denoms", "assign genesis.Pnfts = pnfts", "return genesis"]
+def x_pnft_ExportGenesis : List String := ["assign genesis := types.DefaultGenesis()", "call types.DefaultGenesis()", "assign denoms,err := k.GetAllDenoms(ctx)", "call k.GetAllDenoms(ctx)", "if err != nil", "call panic(err)", "range denoms", "assign pnftsByDenom,err := k.GetPNFTsByDenomId(ctx, denom.Id)", "call k.GetPNFTsByDenomId(ctx, denom.Id)", "if err != nil", "call panic(err)", "assign pnfts = append(pnfts, pnftsByDenom...)", "call append(pnfts, pnftsByDenom)", "assign genesis.Denoms = denoms", "assign genesis.Pnfts = pnfts", "return genesis"]
 
 /-- x/pnft.InitGenesis -/
-def x_pnft_InitGenesis : List String := ["range genState.Denoms", "if err != nil", "assign err := k.SaveDenom(ctx, denom)", "call k.SaveDenom", "call panic", "range genState.Pnfts", "if err != nil", "assign err := k.ImportPNFT(ctx, pnft)", "call k.ImportPNFT", "call panic"]
+def x_pnft_InitGenesis : List String := ["range genState.Denoms", "if err != nil", "assign err := k.SaveDenom(ctx, denom)", "call k.SaveDenom(ctx, denom)", "call panic(err)", "range genState.Pnfts", "if err != nil", "assign err := k.ImportPNFT(ctx, pnft)", "call k.ImportPNFT(ctx, pnft)", "call panic(err)"]
 
 /-- x/pnft.NewAppModule -/
-def x_pnft_NewAppModule : List String := ["return _", "kv AppModuleBasic=NewAppModuleBasic(cdc)", "call NewAppModuleBasic", "kv keeper=keeper"]
+def x_pnft_NewAppModule : List String := ["return _", "kv AppModuleBasic=NewAppModuleBasic(cdc)", "call NewAppModuleBasic(cdc)", "kv keeper=keeper"]
 
 /-- x/pnft.NewAppModuleBasic -/
 def x_pnft_NewAppModuleBasic : List String := ["return _", "kv cdc=cdc"]
 
 /-- x/pnft/keeper.Keeper.BurnPNFT -/
-def x_pnft_keeper_Keeper_BurnPNFT : List String := ["assign pnft,err := k.GetPNFT(ctx, denomId, id)", "call k.GetPNFT", "if err != nil", "return err", "if burner != pnft.Owner", "return _", "call fmt.Errorf", "if err != nil", "assign err := k.nftKeeper.Burn(ctx, denomId, id)", "call _.Burn", "return err", "return _", "call _.EmitTypedEvent", "call ctx.EventManager", "kv DenomId=pnft.DenomId", "kv Id=pnft.Id", "kv Burner=burner"]
+def x_pnft_keeper_Keeper_BurnPNFT : List String := ["assign pnft,err := k.GetPNFT(ctx, denomId, id)", "call k.GetPNFT(ctx, denomId, id)", "if err != nil", "return err", "if burner != pnft.Owner", "return _", "call fmt.Errorf(_, burner)", "if err != nil", "assign err := k.nftKeeper.Burn(ctx, denomId, id)", "call _.Burn(ctx, denomId, id)", "return err", "return _", "call _.EmitTypedEvent(_)", "call ctx.EventManager()", "kv DenomId=pnft.DenomId", "kv Id=pnft.Id", "kv Burner=burner"]
 
 /-- x/pnft/keeper.Keeper.DeleteDenom -/
-def x_pnft_keeper_Keeper_DeleteDenom : List String := ["assign denom,err := k.GetDenom(ctx, id)", "call k.GetDenom", "if err != nil", "return err", "if remover != denom.Owner", "return _", "call fmt.Errorf", "if supply > 0", "assign supply := k.nftKeeper.GetTotalSupply(ctx, id)", "call _.GetTotalSupply", "lit 0", "return _", "call fmt.Errorf", "assign store := ctx.KVStore(k.storeKey)", "call ctx.KVStore", "call store.Delete", "call classStoreKey", "return _", "call _.EmitTypedEvent", "call ctx.EventManager", "kv Id=denom.Id", "kv Remover=remover"]
+def x_pnft_keeper_Keeper_DeleteDenom : List String := ["assign denom,err := k.GetDenom(ctx, id)", "call k.GetDenom(ctx, id)", "if err != nil", "return err", "if remover != denom.Owner", "return _", "call fmt.Errorf(_, remover)", "if supply > 0", "assign supply := k.nftKeeper.GetTotalSupply(ctx, id)", "call _.GetTotalSupply(ctx, id)", "lit 0", "return _", "call fmt.Errorf(_, id, supply)", "assign store := ctx.KVStore(k.storeKey)", "call ctx.KVStore(k.storeKey)", "call store.Delete(classStoreKey(id))", "call classStoreKey(id)", "return _", "call _.EmitTypedEvent(_)", "call ctx.EventManager()", "kv Id=denom.Id", "kv Remover=remover"]
 
 /-- x/pnft/keeper.Keeper.Denom -/
-def x_pnft_keeper_Keeper_Denom : List String := ["if request == nil", "return nil,_", "call status.Error", "assign ctx := sdk.UnwrapSDKContext(goCtx)", "call sdk.UnwrapSDKContext", "assign denom,err := k.GetDenom(ctx, request.Id)", "call k.GetDenom", "if err != nil", "return nil,err", "return _,nil", "kv Denom=denom"]
+def x_pnft_keeper_Keeper_Denom : List String := ["if request == nil", "return nil,_", "call status.Error(codes.InvalidArgument, _)", "assign ctx := sdk.UnwrapSDKContext(goCtx)", "call sdk.UnwrapSDKContext(goCtx)", "assign denom,err := k.GetDenom(ctx, request.Id)", "call k.GetDenom(ctx, request.Id)", "if err != nil", "return nil,err", "return _,nil", "kv Denom=denom"]
 
 /-- x/pnft/keeper.Keeper.Denoms -/
-def x_pnft_keeper_Keeper_Denoms : List String := ["if request == nil", "return nil,_", "call status.Error", "assign classRes,err := _", "call _.Classes", "kv Pagination=request.Pagination", "if err != nil", "return nil,err", "assign denoms,err := k.ParseDenoms(classRes.GetClasses())", "call k.ParseDenoms", "call classRes.GetClasses", "if err != nil", "return nil,err", "return _,nil", "kv Denoms=denoms", "kv Pagination=classRes.Pagination"]
+def x_pnft_keeper_Keeper_Denoms : List String := ["if request == nil", "return nil,_", "call status.Error(codes.InvalidArgument, _)", "assign classRes,err := _", "call _.Classes(goCtx, _)", "kv Pagination=request.Pagination", "if err != nil", "return nil,err", "assign denoms,err := k.ParseDenoms(classRes.GetClasses())", "call k.ParseDenoms(classRes.GetClasses())", "call classRes.GetClasses()", "if err != nil", "return nil,err", "return _,nil", "kv Denoms=denoms", "kv Pagination=classRes.Pagination"]
 
 /-- x/pnft/keeper.Keeper.DenomsByOwner -/
-def x_pnft_keeper_Keeper_DenomsByOwner : List String := ["if request == nil", "return nil,_", "call status.Error", "assign allDenoms,err := k.GetAllDenoms(sdk.UnwrapSDKContext(goCtx))", "call k.GetAllDenoms", "call sdk.UnwrapSDKContext", "if err != nil", "return nil,err", "range allDenoms", "if denom.Owner == request.Owner", "assign denoms = append(denoms, denom)", "call append", "return _,nil", "kv Denoms=denoms"]
+def x_pnft_keeper_Keeper_DenomsByOwner : List String := ["if request == nil", "return nil,_", "call status.Error(codes.InvalidArgument, _)", "assign allDenoms,err := k.GetAllDenoms(sdk.UnwrapSDKContext(goCtx))", "call k.GetAllDenoms(sdk.UnwrapSDKContext(goCtx))", "call sdk.UnwrapSDKContext(goCtx)", "if err != nil", "return nil,err", "range allDenoms", "if denom.Owner == request.Owner", "assign denoms = append(denoms, denom)", "call append(denoms, denom)", "return _,nil", "kv Denoms=denoms"]
 
 /-- x/pnft/keeper.Keeper.GetAllDenoms -/
-def x_pnft_keeper_Keeper_GetAllDenoms : List String := ["assign classes := k.nftKeeper.GetClasses(ctx)", "call _.GetClasses", "range classes", "assign denom,err := types.NewDenomFromClass(k.cdc, class)", "call types.NewDenomFromClass", "if err != nil", "return nil,err", "assign denoms = append(denoms, denom)", "call append", "return denoms,nil"]
+def x_pnft_keeper_Keeper_GetAllDenoms : List String := ["assign classes := k.nftKeeper.GetClasses(ctx)", "call _.GetClasses(ctx)", "range classes", "assign denom,err := types.NewDenomFromClass(k.cdc, class)", "call types.NewDenomFromClass(k.cdc, class)", "if err != nil", "return nil,err", "assign denoms = append(denoms, denom)", "call append(denoms, denom)", "return denoms,nil"]
 
 /-- x/pnft/keeper.Keeper.GetDenom -/
-def x_pnft_keeper_Keeper_GetDenom : List String := ["assign class,found := k.nftKeeper.GetClass(ctx, id)", "call _.GetClass", "if !found", "return nil,_", "call fmt.Errorf", "return _", "call types.NewDenomFromClass"]
+def x_pnft_keeper_Keeper_GetDenom : List String := ["assign class,found := k.nftKeeper.GetClass(ctx, id)", "call _.GetClass(ctx, id)", "if !found", "return nil,_", "call fmt.Errorf(_)", "return _", "call types.NewDenomFromClass(k.cdc, &class)"]
 
 /-- x/pnft/keeper.Keeper.GetPNFT -/
-def x_pnft_keeper_Keeper_GetPNFT : List String := ["assign nft,exist := k.nftKeeper.GetNFT(ctx, denomId, id)", "call _.GetNFT", "if !exist", "return nil,_", "call fmt.Errorf", "assign ownerAddr := k.nftKeeper.GetOwner(ctx, denomId, id)", "call _.GetOwner", "if err != nil", "assign err := k.cdc.Unmarshal(nft.Data.GetValue(), &meta)", "call _.Unmarshal", "call _.GetValue", "return nil,err", "return _,nil", "kv DenomId=nft.ClassId", "kv Id=nft.Id", "kv Name=meta.Name", "kv Description=meta.Description", "kv Uri=nft.Uri", "kv UriHash=nft.UriHash", "kv Data=meta.Data", "kv Creator=meta.Creator", "kv Owner=ownerAddr.String()", "call ownerAddr.String", "kv CreatedAt=meta.CreatedAt"]
+def x_pnft_keeper_Keeper_GetPNFT : List String := ["assign nft,exist := k.nftKeeper.GetNFT(ctx, denomId, id)", "call _.GetNFT(ctx, denomId, id)", "if !exist", "return nil,_", "call fmt.Errorf(_, denomId, id)", "assign ownerAddr := k.nftKeeper.GetOwner(ctx, denomId, id)", "call _.GetOwner(ctx, denomId, id)", "if err != nil", "assign err := k.cdc.Unmarshal(nft.Data.GetValue(), &meta)", "call _.Unmarshal(nft.Data.GetValue(), &meta)", "call _.GetValue()", "return nil,err", "return _,nil", "kv DenomId=nft.ClassId", "kv Id=nft.Id", "kv Name=meta.Name", "kv Description=meta.Description", "kv Uri=nft.Uri", "kv UriHash=nft.UriHash", "kv Data=meta.Data", "kv Creator=meta.Creator", "kv Owner=ownerAddr.String()", "call ownerAddr.String()", "kv CreatedAt=meta.CreatedAt"]
 
 /-- x/pnft/keeper.Keeper.GetPNFTsByDenomId -/
-def x_pnft_keeper_Keeper_GetPNFTsByDenomId : List String := ["range k.nftKeeper.GetNFTsOfClass(ctx, denomId)", "call _.GetNFTsOfClass", "if err != nil", "assign err := k.cdc.Unmarshal(n.Data.GetValue(), &meta)", "call _.Unmarshal", "call _.GetValue", "return nil,err", "assign ownerAddr := k.nftKeeper.GetOwner(ctx, denomId, n.Id)", "call _.GetOwner", "assign pnfts = _", "call append", "kv DenomId=n.ClassId", "kv Id=n.Id", "kv Name=meta.Name", "kv Description=meta.Description", "kv Uri=n.Uri", "kv UriHash=n.UriHash", "kv Data=meta.Data", "kv Creator=meta.Creator", "kv Owner=ownerAddr.String()", "call ownerAddr.String", "kv CreatedAt=meta.CreatedAt", "return pnfts,nil"]
+def x_pnft_keeper_Keeper_GetPNFTsByDenomId : List String := ["range k.nftKeeper.GetNFTsOfClass(ctx, denomId)", "call _.GetNFTsOfClass(ctx, denomId)", "if err != nil", "assign err := k.cdc.Unmarshal(n.Data.GetValue(), &meta)", "call _.Unmarshal(n.Data.GetValue(), &meta)", "call _.GetValue()", "return nil,err", "assign ownerAddr := k.nftKeeper.GetOwner(ctx, denomId, n.Id)", "call _.GetOwner(ctx, denomId, n.Id)", "assign pnfts = _", "call append(pnfts, _)", "kv DenomId=n.ClassId", "kv Id=n.Id", "kv Name=meta.Name", "kv Description=meta.Description", "kv Uri=n.Uri", "kv UriHash=n.UriHash", "kv Data=meta.Data", "kv Creator=meta.Creator", "kv Owner=ownerAddr.String()", "call ownerAddr.String()", "kv CreatedAt=meta.CreatedAt", "return pnfts,nil"]
 
 /-- x/pnft/keeper.Keeper.GetPNFTsByDenomIdAndOwner -/
-def x_pnft_keeper_Keeper_GetPNFTsByDenomIdAndOwner : List String := ["assign ownerAddr,err := sdk.AccAddressFromBech32(owner)", "call sdk.AccAddressFromBech32", "if err != nil", "return nil,err", "range k.nftKeeper.GetNFTsOfClassByOwner(ctx, denomId, ownerAddr)", "call _.GetNFTsOfClassByOwner", "if err != nil", "assign err := k.cdc.Unmarshal(n.Data.GetValue(), &meta)", "call _.Unmarshal", "call _.GetValue", "return nil,err", "assign ownerAddr := k.nftKeeper.GetOwner(ctx, denomId, n.Id)", "call _.GetOwner", "assign pnfts = _", "call append", "kv DenomId=n.ClassId", "kv Id=n.Id", "kv Name=meta.Name", "kv Description=meta.Description", "kv Uri=n.Uri", "kv UriHash=n.UriHash", "kv Data=meta.Data", "kv Creator=meta.Creator", "kv Owner=ownerAddr.String()", "call ownerAddr.String", "kv CreatedAt=meta.CreatedAt", "return pnfts,nil"]
+def x_pnft_keeper_Keeper_GetPNFTsByDenomIdAndOwner : List String := ["assign ownerAddr,err := sdk.AccAddressFromBech32(owner)", "call sdk.AccAddressFromBech32(owner)", "if err != nil", "return nil,err", "range k.nftKeeper.GetNFTsOfClassByOwner(ctx, denomId, ownerAddr)", "call _.GetNFTsOfClassByOwner(ctx, denomId, ownerAddr)", "if err != nil", "assign err := k.cdc.Unmarshal(n.Data.GetValue(), &meta)", "call _.Unmarshal(n.Data.GetValue(), &meta)", "call _.GetValue()", "return nil,err", "assign ownerAddr := k.nftKeeper.GetOwner(ctx, denomId, n.Id)", "call _.GetOwner(ctx, denomId, n.Id)", "assign pnfts = _", "call append(pnfts, _)", "kv DenomId=n.ClassId", "kv Id=n.Id", "kv Name=meta.Name", "kv Description=meta.Description", "kv Uri=n.Uri", "kv UriHash=n.UriHash", "kv Data=meta.Data", "kv Creator=meta.Creator", "kv Owner=ownerAddr.String()", "call ownerAddr.String()", "kv CreatedAt=meta.CreatedAt", "return pnfts,nil"]
 
 /-- x/pnft/keeper.Keeper.ImportPNFT -/
-def x_pnft_keeper_Keeper_ImportPNFT : List String := ["assign meta,err := _", "call codectypes.NewAnyWithValue", "kv Name=pnft.Name", "kv Description=pnft.Description", "kv Creator=pnft.Creator", "kv CreatedAt=pnft.CreatedAt", "kv Data=pnft.Data", "if err != nil", "return err", "assign owner,err := sdk.AccAddressFromBech32(pnft.Owner)", "call sdk.AccAddressFromBech32", "if err != nil", "return err", "return _", "call _.Mint", "kv ClassId=pnft.DenomId", "kv Id=pnft.Id", "kv Uri=pnft.Uri", "kv UriHash=pnft.UriHash", "kv Data=meta"]
+def x_pnft_keeper_Keeper_ImportPNFT : List String := ["assign meta,err := _", "call codectypes.NewAnyWithValue(_)", "kv Name=pnft.Name", "kv Description=pnft.Description", "kv Creator=pnft.Creator", "kv CreatedAt=pnft.CreatedAt", "kv Data=pnft.Data", "if err != nil", "return err", "assign owner,err := sdk.AccAddressFromBech32(pnft.Owner)", "call sdk.AccAddressFromBech32(pnft.Owner)", "if err != nil", "return err", "return _", "call _.Mint(ctx, _, owner)", "kv ClassId=pnft.DenomId", "kv Id=pnft.Id", "kv Uri=pnft.Uri", "kv UriHash=pnft.UriHash", "kv Data=meta"]
 
 /-- x/pnft/keeper.Keeper.Logger -/
-def x_pnft_keeper_Keeper_Logger : List String := ["return _", "call _.With", "call ctx.Logger", "lit \"module\"", "call fmt.Sprintf", "lit \"OmniFlix/%s\""]
+def x_pnft_keeper_Keeper_Logger : List String := ["return _", "call _.With(\"module\", fmt.Sprintf(\"OmniFlix/%s\", types.ModuleName))", "call ctx.Logger()", "lit \"module\"", "call fmt.Sprintf(_, types.ModuleName)", "lit \"OmniFlix/%s\""]
 
 /-- x/pnft/keeper.Keeper.MintPNFT -/
-def x_pnft_keeper_Keeper_MintPNFT : List String := ["assign denom,err := k.GetDenom(ctx, pnft.DenomId)", "call k.GetDenom", "if err != nil", "return err", "if denom.Owner != pnft.Creator", "return _", "call fmt.Errorf", "assign meta,err := _", "call codectypes.NewAnyWithValue", "kv Name=pnft.Name", "kv Description=pnft.Description", "kv Creator=pnft.Creator", "kv CreatedAt=pnft.CreatedAt", "kv Data=pnft.Data", "if err != nil", "return err", "assign sdkNFT := _", "kv ClassId=denom.Id", "kv Id=pnft.Id", "kv Uri=pnft.Uri", "kv UriHash=pnft.UriHash", "kv Data=meta", "assign receiver,err := sdk.AccAddressFromBech32(pnft.Creator)", "call sdk.AccAddressFromBech32", "if err != nil", "return err", "if err != nil", "assign err := k.nftKeeper.Mint(ctx, sdkNFT, receiver)", "call _.Mint", "return err", "return _", "call _.EmitTypedEvent", "call ctx.EventManager", "kv DenomId=pnft.DenomId", "kv Id=pnft.Id", "kv Creator=pnft.Creator"]
+def x_pnft_keeper_Keeper_MintPNFT : List String := ["assign denom,err := k.GetDenom(ctx, pnft.DenomId)", "call k.GetDenom(ctx, pnft.DenomId)", "if err != nil", "return err", "if denom.Owner != pnft.Creator", "return _", "call fmt.Errorf(_, pnft.Creator)", "assign meta,err := _", "call codectypes.NewAnyWithValue(_)", "kv Name=pnft.Name", "kv Description=pnft.Description", "kv Creator=pnft.Creator", "kv CreatedAt=pnft.CreatedAt", "kv Data=pnft.Data", "if err != nil", "return err", "assign sdkNFT := _", "kv ClassId=denom.Id", "kv Id=pnft.Id", "kv Uri=pnft.Uri", "kv UriHash=pnft.UriHash", "kv Data=meta", "assign receiver,err := sdk.AccAddressFromBech32(pnft.Creator)", "call sdk.AccAddressFromBech32(pnft.Creator)", "if err != nil", "return err", "if err != nil", "assign err := k.nftKeeper.Mint(ctx, sdkNFT, receiver)", "call _.Mint(ctx, sdkNFT, receiver)", "return err", "return _", "call _.EmitTypedEvent(_)", "call ctx.EventManager()", "kv DenomId=pnft.DenomId", "kv Id=pnft.Id", "kv Creator=pnft.Creator"]
 
 /-- x/pnft/keeper.Keeper.PNFT -/
-def x_pnft_keeper_Keeper_PNFT : List String := ["if request == nil", "return nil,_", "call status.Error", "assign ctx := sdk.UnwrapSDKContext(goCtx)", "call sdk.UnwrapSDKContext", "assign pnft,err := k.GetPNFT(ctx, request.DenomId, request.Id)", "call k.GetPNFT", "if err != nil", "return nil,err", "return _,nil", "kv Pnft=pnft"]
+def x_pnft_keeper_Keeper_PNFT : List String := ["if request == nil", "return nil,_", "call status.Error(codes.InvalidArgument, _)", "assign ctx := sdk.UnwrapSDKContext(goCtx)", "call sdk.UnwrapSDKContext(goCtx)", "assign pnft,err := k.GetPNFT(ctx, request.DenomId, request.Id)", "call k.GetPNFT(ctx, request.DenomId, request.Id)", "if err != nil", "return nil,err", "return _,nil", "kv Pnft=pnft"]
 
 /-- x/pnft/keeper.Keeper.PNFTs -/
-def x_pnft_keeper_Keeper_PNFTs : List String := ["if request == nil", "return nil,_", "call status.Error", "assign ctx := sdk.UnwrapSDKContext(goCtx)", "call sdk.UnwrapSDKContext", "assign pnfts,err := k.GetPNFTsByDenomId(ctx, request.DenomId)", "call k.GetPNFTsByDenomId", "if err != nil", "return nil,err", "return _,nil", "kv Pnfts=pnfts"]
+def x_pnft_keeper_Keeper_PNFTs : List String := ["if request == nil", "return nil,_", "call status.Error(codes.InvalidArgument, _)", "assign ctx := sdk.UnwrapSDKContext(goCtx)", "call sdk.UnwrapSDKContext(goCtx)", "assign pnfts,err := k.GetPNFTsByDenomId(ctx, request.DenomId)", "call k.GetPNFTsByDenomId(ctx, request.DenomId)", "if err != nil", "return nil,err", "return _,nil", "kv Pnfts=pnfts"]
 
 /-- x/pnft/keeper.Keeper.PNFTsByDenomOwner -/
-def x_pnft_keeper_Keeper_PNFTsByDenomOwner : List String := ["if request == nil", "return nil,_", "call status.Error", "assign ctx := sdk.UnwrapSDKContext(goCtx)", "call sdk.UnwrapSDKContext", "assign pnfts,err := k.GetPNFTsByDenomIdAndOwner(ctx, request.DenomId, request.Owner)", "call k.GetPNFTsByDenomIdAndOwner", "if err != nil", "return nil,err", "return _,nil", "kv Pnfts=pnfts"]
+def x_pnft_keeper_Keeper_PNFTsByDenomOwner : List String := ["if request == nil", "return nil,_", "call status.Error(codes.InvalidArgument, _)", "assign ctx := sdk.UnwrapSDKContext(goCtx)", "call sdk.UnwrapSDKContext(goCtx)", "assign pnfts,err := k.GetPNFTsByDenomIdAndOwner(ctx, request.DenomId, request.Owner)", "call k.GetPNFTsByDenomIdAndOwner(ctx, request.DenomId, request.Owner)", "if err != nil", "return nil,err", "return _,nil", "kv Pnfts=pnfts"]
 
 /-- x/pnft/keeper.Keeper.ParseDenoms -/
-def x_pnft_keeper_Keeper_ParseDenoms : List String := ["range classes", "assign denom,err := types.NewDenomFromClass(k.cdc, class)", "call types.NewDenomFromClass", "if err != nil", "return nil,err", "assign denoms = append(denoms, denom)", "call append", "return denoms,nil"]
+def x_pnft_keeper_Keeper_ParseDenoms : List String := ["range classes", "assign denom,err := types.NewDenomFromClass(k.cdc, class)", "call types.NewDenomFromClass(k.cdc, class)", "if err != nil", "return nil,err", "assign denoms = append(denoms, denom)", "call append(denoms, denom)", "return denoms,nil"]
 
 /-- x/pnft/keeper.Keeper.SaveDenom -/
-def x_pnft_keeper_Keeper_SaveDenom : List String := ["assign class,err := types.NewClassFromDenom(k.cdc, denom)", "call types.NewClassFromDenom", "if err != nil", "return err", "if err != nil", "assign err := k.nftKeeper.SaveClass(ctx, *class)", "call _.SaveClass", "return err", "return _", "call _.EmitTypedEvent", "call ctx.EventManager", "kv Id=denom.Id", "kv Creator=denom.Owner"]
+def x_pnft_keeper_Keeper_SaveDenom : List String := ["assign class,err := types.NewClassFromDenom(k.cdc, denom)", "call types.NewClassFromDenom(k.cdc, denom)", "if err != nil", "return err", "if err != nil", "assign err := k.nftKeeper.SaveClass(ctx, *class)", "call _.SaveClass(ctx, *class)", "return err", "return _", "call _.EmitTypedEvent(_)", "call ctx.EventManager()", "kv Id=denom.Id", "kv Creator=denom.Owner"]
 
 /-- x/pnft/keeper.Keeper.TransferDenomOwner -/
-def x_pnft_keeper_Keeper_TransferDenomOwner : List String := ["assign denom,err := k.GetDenom(ctx, id)", "call k.GetDenom", "if err != nil", "return err", "if sender != denom.Owner", "return _", "call fmt.Errorf", "assign denom.Owner = receiver", "assign class,err := types.NewClassFromDenom(k.cdc, denom)", "call types.NewClassFromDenom", "if err != nil", "return err", "if err != nil", "assign err := k.nftKeeper.UpdateClass(ctx, *class)", "call _.UpdateClass", "return err", "return _", "call _.EmitTypedEvent", "call ctx.EventManager", "kv Id=denom.Id", "kv Sender=sender", "kv Receiver=receiver"]
+def x_pnft_keeper_Keeper_TransferDenomOwner : List String := ["assign denom,err := k.GetDenom(ctx, id)", "call k.GetDenom(ctx, id)", "if err != nil", "return err", "if sender != denom.Owner", "return _", "call fmt.Errorf(_, sender, receiver)", "assign denom.Owner = receiver", "assign class,err := types.NewClassFromDenom(k.cdc, denom)", "call types.NewClassFromDenom(k.cdc, denom)", "if err != nil", "return err", "if err != nil", "assign err := k.nftKeeper.UpdateClass(ctx, *class)", "call _.UpdateClass(ctx, *class)", "return err", "return _", "call _.EmitTypedEvent(_)", "call ctx.EventManager()", "kv Id=denom.Id", "kv Sender=sender", "kv Receiver=receiver"]
 
 /-- x/pnft/keeper.Keeper.TransferPNFT -/
-def x_pnft_keeper_Keeper_TransferPNFT : List String := ["assign pnft,err := k.GetPNFT(ctx, denomId, id)", "call k.GetPNFT", "if err != nil", "return err", "if sender != pnft.Owner", "return _", "call fmt.Errorf", "assign receiverAddr,err := sdk.AccAddressFromBech32(receiver)", "call sdk.AccAddressFromBech32", "if err != nil", "return err", "if err != nil", "assign err := k.nftKeeper.Transfer(ctx, denomId, id, receiverAddr)", "call _.Transfer", "return err", "return _", "call _.EmitTypedEvent", "call ctx.EventManager", "kv DenomId=pnft.DenomId", "kv Id=pnft.Id", "kv Sender=sender", "kv Receiver=receiver"]
+def x_pnft_keeper_Keeper_TransferPNFT : List String := ["assign pnft,err := k.GetPNFT(ctx, denomId, id)", "call k.GetPNFT(ctx, denomId, id)", "if err != nil", "return err", "if sender != pnft.Owner", "return _", "call fmt.Errorf(_, sender)", "assign receiverAddr,err := sdk.AccAddressFromBech32(receiver)", "call sdk.AccAddressFromBech32(receiver)", "if err != nil", "return err", "if err != nil", "assign err := k.nftKeeper.Transfer(ctx, denomId, id, receiverAddr)", "call _.Transfer(ctx, denomId, id, receiverAddr)", "return err", "return _", "call _.EmitTypedEvent(_)", "call ctx.EventManager()", "kv DenomId=pnft.DenomId", "kv Id=pnft.Id", "kv Sender=sender", "kv Receiver=receiver"]
 
 /-- x/pnft/keeper.Keeper.UpdateDenom -/
-def x_pnft_keeper_Keeper_UpdateDenom : List String := ["assign denom,err := k.GetDenom(ctx, msg.GetId())", "call k.GetDenom", "call msg.GetId", "if err != nil", "return err", "assign updater := msg.Owner", "if updater != denom.Owner", "return _", "call fmt.Errorf", "if msg.Name != \"\"", "lit \"\"", "assign denom.Name = msg.Name", "if msg.Symbol != \"\"", "lit \"\"", "assign denom.Symbol = msg.Symbol", "if msg.Description != \"\"", "lit \"\"", "assign denom.Description = msg.Description", "if msg.Uri != \"\"", "lit \"\"", "assign denom.Uri = msg.Uri", "if msg.UriHash != \"\"", "lit \"\"", "assign denom.UriHash = msg.UriHash", "if msg.Data != \"\"", "lit \"\"", "assign denom.Data = msg.Data", "assign class,err := types.NewClassFromDenom(k.cdc, denom)", "call types.NewClassFromDenom", "if err != nil", "return err", "if err != nil", "assign err := k.nftKeeper.UpdateClass(ctx, *class)", "call _.UpdateClass", "return err", "return _", "call _.EmitTypedEvent", "call ctx.EventManager", "kv Id=denom.Id", "kv Updater=updater"]
+def x_pnft_keeper_Keeper_UpdateDenom : List String := ["assign denom,err := k.GetDenom(ctx, msg.GetId())", "call k.GetDenom(ctx, msg.GetId())", "call msg.GetId()", "if err != nil", "return err", "assign updater := msg.Owner", "if updater != denom.Owner", "return _", "call fmt.Errorf(_, updater)", "if msg.Name != \"\"", "lit \"\"", "assign denom.Name = msg.Name", "if msg.Symbol != \"\"", "lit \"\"", "assign denom.Symbol = msg.Symbol", "if msg.Description != \"\"", "lit \"\"", "assign denom.Description = msg.Description", "if msg.Uri != \"\"", "lit \"\"", "assign denom.Uri = msg.Uri", "if msg.UriHash != \"\"", "lit \"\"", "assign denom.UriHash = msg.UriHash", "if msg.Data != \"\"", "lit \"\"", "assign denom.Data = msg.Data", "assign class,err := types.NewClassFromDenom(k.cdc, denom)", "call types.NewClassFromDenom(k.cdc, denom)", "if err != nil", "return err", "if err != nil", "assign err := k.nftKeeper.UpdateClass(ctx, *class)", "call _.UpdateClass(ctx, *class)", "return err", "return _", "call _.EmitTypedEvent(_)", "call ctx.EventManager()", "kv Id=denom.Id", "kv Updater=updater"]
 
 /-- x/pnft/keeper.NewKeeper -/
-def x_pnft_keeper_NewKeeper : List String := ["return _", "kv cdc=cdc", "kv storeKey=storeKey", "kv nftKeeper=nftkeeper.NewKeeper(storeKey, cdc, ak, bk)", "call nftkeeper.NewKeeper"]
+def x_pnft_keeper_NewKeeper : List String := ["return _", "kv cdc=cdc", "kv storeKey=storeKey", "kv nftKeeper=nftkeeper.NewKeeper(storeKey, cdc, ak, bk)", "call nftkeeper.NewKeeper(storeKey, cdc, ak, bk)"]
 
 /-- x/pnft/keeper.NewMsgServerImpl -/
 def x_pnft_keeper_NewMsgServerImpl : List String := ["return _", "kv Keeper=keeper"]
 
 /-- x/pnft/keeper.classStoreKey -/
-def x_pnft_keeper_classStoreKey : List String := ["assign key := make([]byte, len(nftkeeper.ClassKey)+len(classID))", "call make", "op +", "call len", "call len", "call copy", "call copy", "call len", "return key"]
+def x_pnft_keeper_classStoreKey : List String := ["assign key := make([]byte, len(nftkeeper.ClassKey)+len(classID))", "call make([]byte, len(nftkeeper.ClassKey) + len(classID))", "op +", "call len(nftkeeper.ClassKey)", "call len(classID)", "call copy(key, nftkeeper.ClassKey)", "call copy(key[len(nftkeeper.ClassKey):], classID)", "call len(nftkeeper.ClassKey)", "return key"]
 
 /-- x/pnft/keeper.msgServer.BurnPNFT -/
-def x_pnft_keeper_msgServer_BurnPNFT : List String := ["assign ctx := sdk.UnwrapSDKContext(goCtx)", "call sdk.UnwrapSDKContext", "if err != nil", "assign err := request.ValidateBasic()", "call request.ValidateBasic", "return nil,_", "call errors.Wrap", "call err.Error", "if err != nil", "assign err := m.Keeper.BurnPNFT( ctx, request.DenomId, request.Id, request.Burner, )", "call _.BurnPNFT", "return nil,_", "call errors.Wrap", "call err.Error", "return _,nil"]
+def x_pnft_keeper_msgServer_BurnPNFT : List String := ["assign ctx := sdk.UnwrapSDKContext(goCtx)", "call sdk.UnwrapSDKContext(goCtx)", "if err != nil", "assign err := request.ValidateBasic()", "call request.ValidateBasic()", "return nil,_", "call errors.Wrap(types.ErrBurnPNFT, err.Error())", "call err.Error()", "if err != nil", "assign err := m.Keeper.BurnPNFT( ctx, request.DenomId, request.Id, request.Burner, )", "call _.BurnPNFT(ctx, request.DenomId, request.Id, request.Burner)", "return nil,_", "call errors.Wrap(types.ErrBurnPNFT, err.Error())", "call err.Error()", "return _,nil"]
 
 /-- x/pnft/keeper.msgServer.CreateDenom -/
-def x_pnft_keeper_msgServer_CreateDenom : List String := ["assign ctx := sdk.UnwrapSDKContext(goCtx)", "call sdk.UnwrapSDKContext", "if err != nil", "assign err := request.ValidateBasic()", "call request.ValidateBasic", "return nil,_", "call errors.Wrap", "call err.Error", "assign err := _", "call _.SaveDenom", "kv Id=request.Id", "kv Name=request.Name", "kv Symbol=request.Symbol", "kv Description=request.Description", "kv Uri=request.Uri", "kv UriHash=request.UriHash", "kv Owner=request.Creator", "kv Data=request.Data", "if err != nil", "return nil,_", "call errors.Wrapf", "call err.Error", "return _,nil"]
+def x_pnft_keeper_msgServer_CreateDenom : List String := ["assign ctx := sdk.UnwrapSDKContext(goCtx)", "call sdk.UnwrapSDKContext(goCtx)", "if err != nil", "assign err := request.ValidateBasic()", "call request.ValidateBasic()", "return nil,_", "call errors.Wrap(types.ErrCreateDenom, err.Error())", "call err.Error()", "assign err := _", "call _.SaveDenom(ctx, _)", "kv Id=request.Id", "kv Name=request.Name", "kv Symbol=request.Symbol", "kv Description=request.Description", "kv Uri=request.Uri", "kv UriHash=request.UriHash", "kv Owner=request.Creator", "kv Data=request.Data", "if err != nil", "return nil,_", "call errors.Wrapf(types.ErrCreateDenom, err.Error())", "call err.Error()", "return _,nil"]
 
 /-- x/pnft/keeper.msgServer.DeleteDenom -/
-def x_pnft_keeper_msgServer_DeleteDenom : List String := ["assign ctx := sdk.UnwrapSDKContext(goCtx)", "call sdk.UnwrapSDKContext", "if err != nil", "assign err := request.ValidateBasic()", "call request.ValidateBasic", "return nil,_", "call errors.Wrap", "call err.Error", "if err != nil", "assign err := m.Keeper.DeleteDenom(ctx, request.Id, request.Remover)", "call _.DeleteDenom", "return nil,_", "call errors.Wrapf", "call err.Error", "return _,nil"]
+def x_pnft_keeper_msgServer_DeleteDenom : List String := ["assign ctx := sdk.UnwrapSDKContext(goCtx)", "call sdk.UnwrapSDKContext(goCtx)", "if err != nil", "assign err := request.ValidateBasic()", "call request.ValidateBasic()", "return nil,_", "call errors.Wrap(types.ErrDeleteDenom, err.Error())", "call err.Error()", "if err != nil", "assign err := m.Keeper.DeleteDenom(ctx, request.Id, request.Remover)", "call _.DeleteDenom(ctx, request.Id, request.Remover)", "return nil,_", "call errors.Wrapf(types.ErrDeleteDenom, err.Error())", "call err.Error()", "return _,nil"]
 
 /-- x/pnft/keeper.msgServer.MintPNFT -/
-def x_pnft_keeper_msgServer_MintPNFT : List String := ["assign ctx := sdk.UnwrapSDKContext(goCtx)", "call sdk.UnwrapSDKContext", "if err != nil", "assign err := request.ValidateBasic()", "call request.ValidateBasic", "return nil,_", "call errors.Wrap", "call err.Error", "assign msg := _", "kv DenomId=request.DenomId", "kv Id=request.Id", "kv Name=request.Name", "kv Description=request.Description", "kv Uri=request.Uri", "kv UriHash=request.UriHash", "kv Data=request.Data", "kv Creator=request.Creator", "kv CreatedAt=ctx.BlockTime()", "call ctx.BlockTime", "if err != nil", "assign err := m.Keeper.MintPNFT(ctx, msg)", "call _.MintPNFT", "return nil,_", "call errors.Wrap", "call err.Error", "return _,nil"]
+def x_pnft_keeper_msgServer_MintPNFT : List String := ["assign ctx := sdk.UnwrapSDKContext(goCtx)", "call sdk.UnwrapSDKContext(goCtx)", "if err != nil", "assign err := request.ValidateBasic()", "call request.ValidateBasic()", "return nil,_", "call errors.Wrap(types.ErrMintPNFT, err.Error())", "call err.Error()", "assign msg := _", "kv DenomId=request.DenomId", "kv Id=request.Id", "kv Name=request.Name", "kv Description=request.Description", "kv Uri=request.Uri", "kv UriHash=request.UriHash", "kv Data=request.Data", "kv Creator=request.Creator", "kv CreatedAt=ctx.BlockTime()", "call ctx.BlockTime()", "if err != nil", "assign err := m.Keeper.MintPNFT(ctx, msg)", "call _.MintPNFT(ctx, msg)", "return nil,_", "call errors.Wrap(types.ErrMintPNFT, err.Error())", "call err.Error()", "return _,nil"]
 
 /-- x/pnft/keeper.msgServer.TransferDenom -/
-def x_pnft_keeper_msgServer_TransferDenom : List String := ["assign ctx := sdk.UnwrapSDKContext(goCtx)", "call sdk.UnwrapSDKContext", "if err != nil", "assign err := request.ValidateBasic()", "call request.ValidateBasic", "return nil,_", "call errors.Wrap", "call err.Error", "if err != nil", "assign err := m.Keeper.TransferDenomOwner(ctx, request.Id, request.Sender, request.Receiver)", "call _.TransferDenomOwner", "return nil,_", "call errors.Wrap", "call err.Error", "return _,nil"]
+def x_pnft_keeper_msgServer_TransferDenom : List String := ["assign ctx := sdk.UnwrapSDKContext(goCtx)", "call sdk.UnwrapSDKContext(goCtx)", "if err != nil", "assign err := request.ValidateBasic()", "call request.ValidateBasic()", "return nil,_", "call errors.Wrap(types.ErrTransferDenom, err.Error())", "call err.Error()", "if err != nil", "assign err := m.Keeper.TransferDenomOwner(ctx, request.Id, request.Sender, request.Receiver)", "call _.TransferDenomOwner(ctx, request.Id, request.Sender, request.Receiver)", "return nil,_", "call errors.Wrap(types.ErrTransferDenom, err.Error())", "call err.Error()", "return _,nil"]
 
 /-- x/pnft/keeper.msgServer.TransferPNFT -/
-def x_pnft_keeper_msgServer_TransferPNFT : List String := ["assign ctx := sdk.UnwrapSDKContext(goCtx)", "call sdk.UnwrapSDKContext", "if err != nil", "assign err := request.ValidateBasic()", "call request.ValidateBasic", "return nil,_", "call errors.Wrap", "call err.Error", "if err != nil", "assign err := _", "call _.TransferPNFT", "return nil,_", "call errors.Wrap", "call err.Error", "return _,nil"]
+def x_pnft_keeper_msgServer_TransferPNFT : List String := ["assign ctx := sdk.UnwrapSDKContext(goCtx)", "call sdk.UnwrapSDKContext(goCtx)", "if err != nil", "assign err := request.ValidateBasic()", "call request.ValidateBasic()", "return nil,_", "call errors.Wrap(types.ErrTransferPNFT, err.Error())", "call err.Error()", "if err != nil", "assign err := _", "call _.TransferPNFT(ctx, request.DenomId, request.Id, request.Sender, request.Receiver)", "return nil,_", "call errors.Wrap(types.ErrTransferPNFT, err.Error())", "call err.Error()", "return _,nil"]
 
 /-- x/pnft/keeper.msgServer.UpdateDenom -/
-def x_pnft_keeper_msgServer_UpdateDenom : List String := ["assign ctx := sdk.UnwrapSDKContext(goCtx)", "call sdk.UnwrapSDKContext", "if err != nil", "assign err := request.ValidateBasic()", "call request.ValidateBasic", "return nil,_", "call errors.Wrap", "call err.Error", "if err != nil", "assign err := _", "call _.UpdateDenom", "kv Id=request.Id", "kv Name=request.Name", "kv Symbol=request.Symbol", "kv Description=request.Description", "kv Uri=request.Uri", "kv UriHash=request.UriHash", "kv Owner=request.Updater", "kv Data=request.Data", "return nil,_", "call errors.Wrapf", "call err.Error", "return _,nil"]
+def x_pnft_keeper_msgServer_UpdateDenom : List String := ["assign ctx := sdk.UnwrapSDKContext(goCtx)", "call sdk.UnwrapSDKContext(goCtx)", "if err != nil", "assign err := request.ValidateBasic()", "call request.ValidateBasic()", "return nil,_", "call errors.Wrap(types.ErrUpdateDenom, err.Error())", "call err.Error()", "if err != nil", "assign err := _", "call _.UpdateDenom(ctx, _)", "kv Id=request.Id", "kv Name=request.Name", "kv Symbol=request.Symbol", "kv Description=request.Description", "kv Uri=request.Uri", "kv UriHash=request.UriHash", "kv Owner=request.Updater", "kv Data=request.Data", "return nil,_", "call errors.Wrapf(types.ErrUpdateDenom, err.Error())", "call err.Error()", "return _,nil"]
 
 /-- x/pnft/types.DefaultGenesis -/
 def x_pnft_types_DefaultGenesis : List String := ["return _", "kv Denoms", "kv Pnfts"]
 
 /-- x/pnft/types.Denom.ValidateBasic -/
-def x_pnft_types_Denom_ValidateBasic : List String := ["if d.Id == \"\"", "lit \"\"", "return _", "call errors.New", "if d.Name == \"\"", "lit \"\"", "return _", "call errors.New", "if d.Symbol == \"\"", "lit \"\"", "return _", "call errors.New", "if d.Owner == \"\"", "lit \"\"", "return _", "call errors.New", "return nil"]
+def x_pnft_types_Denom_ValidateBasic : List String := ["if d.Id == \"\"", "lit \"\"", "return _", "call errors.New(_)", "if d.Name == \"\"", "lit \"\"", "return _", "call errors.New(_)", "if d.Symbol == \"\"", "lit \"\"", "return _", "call errors.New(_)", "if d.Owner == \"\"", "lit \"\"", "return _", "call errors.New(_)", "return nil"]
 
 /-- x/pnft/types.GenesisState.ValidateBasic -/
-def x_pnft_types_GenesisState_ValidateBasic : List String := ["range data.Denoms", "if err != nil", "assign err := denom.ValidateBasic()", "call denom.ValidateBasic", "return err", "range data.Pnfts", "if err != nil", "assign err := pnft.ValidateBasic()", "call pnft.ValidateBasic", "return err", "return nil"]
+def x_pnft_types_GenesisState_ValidateBasic : List String := ["range data.Denoms", "if err != nil", "assign err := denom.ValidateBasic()", "call denom.ValidateBasic()", "return err", "range data.Pnfts", "if err != nil", "assign err := pnft.ValidateBasic()", "call pnft.ValidateBasic()", "return err", "return nil"]
 
 /-- x/pnft/types.MsgBurnPNFTRequest.GetSignBytes -/
-def x_pnft_types_MsgBurnPNFTRequest_GetSignBytes : List String := ["assign bz := ModuleCdc.MustMarshalJSON(msg)", "call ModuleCdc.MustMarshalJSON", "return _", "call sdk.MustSortJSON"]
+def x_pnft_types_MsgBurnPNFTRequest_GetSignBytes : List String := ["assign bz := ModuleCdc.MustMarshalJSON(msg)", "call ModuleCdc.MustMarshalJSON(msg)", "return _", "call sdk.MustSortJSON(bz)"]
 
 /-- x/pnft/types.MsgBurnPNFTRequest.GetSigners -/
-def x_pnft_types_MsgBurnPNFTRequest_GetSigners : List String := ["assign from,err := sdk.AccAddressFromBech32(msg.Burner)", "call sdk.AccAddressFromBech32", "if err != nil", "call panic", "return _"]
+def x_pnft_types_MsgBurnPNFTRequest_GetSigners : List String := ["assign from,err := sdk.AccAddressFromBech32(msg.Burner)", "call sdk.AccAddressFromBech32(msg.Burner)", "if err != nil", "call panic(err)", "return _"]
 
 /-- x/pnft/types.MsgBurnPNFTRequest.ValidateBasic -/
-def x_pnft_types_MsgBurnPNFTRequest_ValidateBasic : List String := ["if msg.DenomId == \"\"", "lit \"\"", "return _", "call fmt.Errorf", "if msg.Id == \"\"", "lit \"\"", "return _", "call fmt.Errorf", "if msg.Burner == \"\"", "lit \"\"", "return _", "call fmt.Errorf", "if err != nil", "assign _,err := sdk.AccAddressFromBech32(msg.Burner)", "call sdk.AccAddressFromBech32", "return err", "return nil"]
+def x_pnft_types_MsgBurnPNFTRequest_ValidateBasic : List String := ["if msg.DenomId == \"\"", "lit \"\"", "return _", "call fmt.Errorf(_)", "if msg.Id == \"\"", "lit \"\"", "return _", "call fmt.Errorf(_)", "if msg.Burner == \"\"", "lit \"\"", "return _", "call fmt.Errorf(_)", "if err != nil", "assign _,err := sdk.AccAddressFromBech32(msg.Burner)", "call sdk.AccAddressFromBech32(msg.Burner)", "return err", "return nil"]
 
 /-- x/pnft/types.MsgCreateDenomRequest.GetSignBytes -/
-def x_pnft_types_MsgCreateDenomRequest_GetSignBytes : List String := ["assign bz := ModuleCdc.MustMarshalJSON(msg)", "call ModuleCdc.MustMarshalJSON", "return _", "call sdk.MustSortJSON"]
+def x_pnft_types_MsgCreateDenomRequest_GetSignBytes : List String := ["assign bz := ModuleCdc.MustMarshalJSON(msg)", "call ModuleCdc.MustMarshalJSON(msg)", "return _", "call sdk.MustSortJSON(bz)"]
 
 /-- x/pnft/types.MsgCreateDenomRequest.GetSigners -/
-def x_pnft_types_MsgCreateDenomRequest_GetSigners : List String := ["assign from,err := sdk.AccAddressFromBech32(msg.Creator)", "call sdk.AccAddressFromBech32", "if err != nil", "call panic", "return _"]
+def x_pnft_types_MsgCreateDenomRequest_GetSigners : List String := ["assign from,err := sdk.AccAddressFromBech32(msg.Creator)", "call sdk.AccAddressFromBech32(msg.Creator)", "if err != nil", "call panic(err)", "return _"]
 
 /-- x/pnft/types.MsgCreateDenomRequest.ValidateBasic -/
-def x_pnft_types_MsgCreateDenomRequest_ValidateBasic : List String := ["if msg.Id == \"\"", "lit \"\"", "return _", "call errors.New", "if strings.IndexByte(msg.Id, 0) >= 0", "call strings.IndexByte", "lit 0", "lit 0", "return _", "call errors.New", "if msg.Name == \"\"", "lit \"\"", "return _", "call errors.New", "if msg.Symbol == \"\"", "lit \"\"", "return _", "call errors.New", "if msg.Creator == \"\"", "lit \"\"", "return _", "call errors.New", "if err != nil", "assign _,err := sdk.AccAddressFromBech32(msg.Creator)", "call sdk.AccAddressFromBech32", "return err", "return nil"]
+def x_pnft_types_MsgCreateDenomRequest_ValidateBasic : List String := ["if msg.Id == \"\"", "lit \"\"", "return _", "call errors.New(_)", "if strings.IndexByte(msg.Id, 0) >= 0", "call strings.IndexByte(msg.Id, 0)", "lit 0", "lit 0", "return _", "call errors.New(_)", "if msg.Name == \"\"", "lit \"\"", "return _", "call errors.New(_)", "if msg.Symbol == \"\"", "lit \"\"", "return _", "call errors.New(_)", "if msg.Creator == \"\"", "lit \"\"", "return _", "call errors.New(_)", "if err != nil", "assign _,err := sdk.AccAddressFromBech32(msg.Creator)", "call sdk.AccAddressFromBech32(msg.Creator)", "return err", "return nil"]
 
 /-- x/pnft/types.MsgDeleteDenomRequest.GetSignBytes -/
-def x_pnft_types_MsgDeleteDenomRequest_GetSignBytes : List String := ["assign bz := ModuleCdc.MustMarshalJSON(msg)", "call ModuleCdc.MustMarshalJSON", "return _", "call sdk.MustSortJSON"]
+def x_pnft_types_MsgDeleteDenomRequest_GetSignBytes : List String := ["assign bz := ModuleCdc.MustMarshalJSON(msg)", "call ModuleCdc.MustMarshalJSON(msg)", "return _", "call sdk.MustSortJSON(bz)"]
 
 /-- x/pnft/types.MsgDeleteDenomRequest.GetSigners -/
-def x_pnft_types_MsgDeleteDenomRequest_GetSigners : List String := ["assign from,err := sdk.AccAddressFromBech32(msg.Remover)", "call sdk.AccAddressFromBech32", "if err != nil", "call panic", "return _"]
+def x_pnft_types_MsgDeleteDenomRequest_GetSigners : List String := ["assign from,err := sdk.AccAddressFromBech32(msg.Remover)", "call sdk.AccAddressFromBech32(msg.Remover)", "if err != nil", "call panic(err)", "return _"]
 
 /-- x/pnft/types.MsgDeleteDenomRequest.ValidateBasic -/
-def x_pnft_types_MsgDeleteDenomRequest_ValidateBasic : List String := ["if msg.Id == \"\"", "lit \"\"", "return _", "call errors.New", "if msg.Remover == \"\"", "lit \"\"", "return _", "call errors.New", "if err != nil", "assign _,err := sdk.AccAddressFromBech32(msg.Remover)", "call sdk.AccAddressFromBech32", "return err", "return nil"]
+def x_pnft_types_MsgDeleteDenomRequest_ValidateBasic : List String := ["if msg.Id == \"\"", "lit \"\"", "return _", "call errors.New(_)", "if msg.Remover == \"\"", "lit \"\"", "return _", "call errors.New(_)", "if err != nil", "assign _,err := sdk.AccAddressFromBech32(msg.Remover)", "call sdk.AccAddressFromBech32(msg.Remover)", "return err", "return nil"]
 
 /-- x/pnft/types.MsgMintPNFTRequest.GetSignBytes -/
-def x_pnft_types_MsgMintPNFTRequest_GetSignBytes : List String := ["assign bz := ModuleCdc.MustMarshalJSON(msg)", "call ModuleCdc.MustMarshalJSON", "return _", "call sdk.MustSortJSON"]
+def x_pnft_types_MsgMintPNFTRequest_GetSignBytes : List String := ["assign bz := ModuleCdc.MustMarshalJSON(msg)", "call ModuleCdc.MustMarshalJSON(msg)", "return _", "call sdk.MustSortJSON(bz)"]
 
 /-- x/pnft/types.MsgMintPNFTRequest.GetSigners -/
-def x_pnft_types_MsgMintPNFTRequest_GetSigners : List String := ["assign from,err := sdk.AccAddressFromBech32(msg.Creator)", "call sdk.AccAddressFromBech32", "if err != nil", "call panic", "return _"]
+def x_pnft_types_MsgMintPNFTRequest_GetSigners : List String := ["assign from,err := sdk.AccAddressFromBech32(msg.Creator)", "call sdk.AccAddressFromBech32(msg.Creator)", "if err != nil", "call panic(err)", "return _"]
 
 /-- x/pnft/types.MsgMintPNFTRequest.ValidateBasic -/
-def x_pnft_types_MsgMintPNFTRequest_ValidateBasic : List String := ["if msg.DenomId == \"\"", "lit \"\"", "return _", "call fmt.Errorf", "if msg.Id == \"\"", "lit \"\"", "return _", "call fmt.Errorf", "if msg.Name == \"\"", "lit \"\"", "return _", "call fmt.Errorf", "if strings.IndexByte(msg.DenomId, 0) >= 0 || strings.IndexByte(msg.Id, 0) >= 0", "call strings.IndexByte", "lit 0", "lit 0", "call strings.IndexByte", "lit 0", "lit 0", "return _", "call fmt.Errorf", "if msg.Creator == \"\"", "lit \"\"", "return _", "call fmt.Errorf", "if err != nil", "assign _,err := sdk.AccAddressFromBech32(msg.Creator)", "call sdk.AccAddressFromBech32", "return err", "return nil"]
+def x_pnft_types_MsgMintPNFTRequest_ValidateBasic : List String := ["if msg.DenomId == \"\"", "lit \"\"", "return _", "call fmt.Errorf(_)", "if msg.Id == \"\"", "lit \"\"", "return _", "call fmt.Errorf(_)", "if msg.Name == \"\"", "lit \"\"", "return _", "call fmt.Errorf(_)", "if strings.IndexByte(msg.DenomId, 0) >= 0 || strings.IndexByte(msg.Id, 0) >= 0", "call strings.IndexByte(msg.DenomId, 0)", "lit 0", "lit 0", "call strings.IndexByte(msg.Id, 0)", "lit 0", "lit 0", "return _", "call fmt.Errorf(_)", "if msg.Creator == \"\"", "lit \"\"", "return _", "call fmt.Errorf(_)", "if err != nil", "assign _,err := sdk.AccAddressFromBech32(msg.Creator)", "call sdk.AccAddressFromBech32(msg.Creator)", "return err", "return nil"]
 
 /-- x/pnft/types.MsgTransferDenomRequest.GetSignBytes -/
-def x_pnft_types_MsgTransferDenomRequest_GetSignBytes : List String := ["assign bz := ModuleCdc.MustMarshalJSON(msg)", "call ModuleCdc.MustMarshalJSON", "return _", "call sdk.MustSortJSON"]
+def x_pnft_types_MsgTransferDenomRequest_GetSignBytes : List String := ["assign bz := ModuleCdc.MustMarshalJSON(msg)", "call ModuleCdc.MustMarshalJSON(msg)", "return _", "call sdk.MustSortJSON(bz)"]
 
 /-- x/pnft/types.MsgTransferDenomRequest.GetSigners -/
-def x_pnft_types_MsgTransferDenomRequest_GetSigners : List String := ["assign from,err := sdk.AccAddressFromBech32(msg.Sender)", "call sdk.AccAddressFromBech32", "if err != nil", "call panic", "return _"]
+def x_pnft_types_MsgTransferDenomRequest_GetSigners : List String := ["assign from,err := sdk.AccAddressFromBech32(msg.Sender)", "call sdk.AccAddressFromBech32(msg.Sender)", "if err != nil", "call panic(err)", "return _"]
 
 /-- x/pnft/types.MsgTransferDenomRequest.ValidateBasic -/
-def x_pnft_types_MsgTransferDenomRequest_ValidateBasic : List String := ["if msg.Id == \"\"", "lit \"\"", "return _", "call errors.New", "if msg.Sender == \"\"", "lit \"\"", "return _", "call errors.New", "if err != nil", "assign _,err := sdk.AccAddressFromBech32(msg.Sender)", "call sdk.AccAddressFromBech32", "return err", "if msg.Receiver == \"\"", "lit \"\"", "return _", "call errors.New", "if err != nil", "assign _,err := sdk.AccAddressFromBech32(msg.Receiver)", "call sdk.AccAddressFromBech32", "return err", "return nil"]
+def x_pnft_types_MsgTransferDenomRequest_ValidateBasic : List String := ["if msg.Id == \"\"", "lit \"\"", "return _", "call errors.New(_)", "if msg.Sender == \"\"", "lit \"\"", "return _", "call errors.New(_)", "if err != nil", "assign _,err := sdk.AccAddressFromBech32(msg.Sender)", "call sdk.AccAddressFromBech32(msg.Sender)", "return err", "if msg.Receiver == \"\"", "lit \"\"", "return _", "call errors.New(_)", "if err != nil", "assign _,err := sdk.AccAddressFromBech32(msg.Receiver)", "call sdk.AccAddressFromBech32(msg.Receiver)", "return err", "return nil"]
 
 /-- x/pnft/types.MsgTransferPNFTRequest.GetSignBytes -/
-def x_pnft_types_MsgTransferPNFTRequest_GetSignBytes : List String := ["assign bz := ModuleCdc.MustMarshalJSON(msg)", "call ModuleCdc.MustMarshalJSON", "return _", "call sdk.MustSortJSON"]
+def x_pnft_types_MsgTransferPNFTRequest_GetSignBytes : List String := ["assign bz := ModuleCdc.MustMarshalJSON(msg)", "call ModuleCdc.MustMarshalJSON(msg)", "return _", "call sdk.MustSortJSON(bz)"]
 
 /-- x/pnft/types.MsgTransferPNFTRequest.GetSigners -/
-def x_pnft_types_MsgTransferPNFTRequest_GetSigners : List String := ["assign from,err := sdk.AccAddressFromBech32(msg.Sender)", "call sdk.AccAddressFromBech32", "if err != nil", "call panic", "return _"]
+def x_pnft_types_MsgTransferPNFTRequest_GetSigners : List String := ["assign from,err := sdk.AccAddressFromBech32(msg.Sender)", "call sdk.AccAddressFromBech32(msg.Sender)", "if err != nil", "call panic(err)", "return _"]
 
 /-- x/pnft/types.MsgTransferPNFTRequest.ValidateBasic -/
-def x_pnft_types_MsgTransferPNFTRequest_ValidateBasic : List String := ["if msg.DenomId == \"\"", "lit \"\"", "return _", "call fmt.Errorf", "if msg.Id == \"\"", "lit \"\"", "return _", "call fmt.Errorf", "if msg.Sender == \"\"", "lit \"\"", "return _", "call fmt.Errorf", "if err != nil", "assign _,err := sdk.AccAddressFromBech32(msg.Sender)", "call sdk.AccAddressFromBech32", "return err", "if msg.Receiver == \"\"", "lit \"\"", "return _", "call fmt.Errorf", "if err != nil", "assign _,err := sdk.AccAddressFromBech32(msg.Receiver)", "call sdk.AccAddressFromBech32", "return err", "return nil"]
+def x_pnft_types_MsgTransferPNFTRequest_ValidateBasic : List String := ["if msg.DenomId == \"\"", "lit \"\"", "return _", "call fmt.Errorf(_)", "if msg.Id == \"\"", "lit \"\"", "return _", "call fmt.Errorf(_)", "if msg.Sender == \"\"", "lit \"\"", "return _", "call fmt.Errorf(_)", "if err != nil", "assign _,err := sdk.AccAddressFromBech32(msg.Sender)", "call sdk.AccAddressFromBech32(msg.Sender)", "return err", "if msg.Receiver == \"\"", "lit \"\"", "return _", "call fmt.Errorf(_)", "if err != nil", "assign _,err := sdk.AccAddressFromBech32(msg.Receiver)", "call sdk.AccAddressFromBech32(msg.Receiver)", "return err", "return nil"]
 
 /-- x/pnft/types.MsgUpdateDenomRequest.GetSignBytes -/
-def x_pnft_types_MsgUpdateDenomRequest_GetSignBytes : List String := ["assign bz := ModuleCdc.MustMarshalJSON(msg)", "call ModuleCdc.MustMarshalJSON", "return _", "call sdk.MustSortJSON"]
+def x_pnft_types_MsgUpdateDenomRequest_GetSignBytes : List String := ["assign bz := ModuleCdc.MustMarshalJSON(msg)", "call ModuleCdc.MustMarshalJSON(msg)", "return _", "call sdk.MustSortJSON(bz)"]
 
 /-- x/pnft/types.MsgUpdateDenomRequest.GetSigners -/
-def x_pnft_types_MsgUpdateDenomRequest_GetSigners : List String := ["assign from,err := sdk.AccAddressFromBech32(msg.Updater)", "call sdk.AccAddressFromBech32", "if err != nil", "call panic", "return _"]
+def x_pnft_types_MsgUpdateDenomRequest_GetSigners : List String := ["assign from,err := sdk.AccAddressFromBech32(msg.Updater)", "call sdk.AccAddressFromBech32(msg.Updater)", "if err != nil", "call panic(err)", "return _"]
 
 /-- x/pnft/types.MsgUpdateDenomRequest.ValidateBasic -/
-def x_pnft_types_MsgUpdateDenomRequest_ValidateBasic : List String := ["if msg.Id == \"\"", "lit \"\"", "return _", "call errors.New", "if msg.Updater == \"\"", "lit \"\"", "return _", "call errors.New", "if err != nil", "assign _,err := sdk.AccAddressFromBech32(msg.Updater)", "call sdk.AccAddressFromBech32", "return err", "return nil"]
+def x_pnft_types_MsgUpdateDenomRequest_ValidateBasic : List String := ["if msg.Id == \"\"", "lit \"\"", "return _", "call errors.New(_)", "if msg.Updater == \"\"", "lit \"\"", "return _", "call errors.New(_)", "if err != nil", "assign _,err := sdk.AccAddressFromBech32(msg.Updater)", "call sdk.AccAddressFromBech32(msg.Updater)", "return err", "return nil"]
 
 /-- x/pnft/types.NewClassFromDenom -/
-def x_pnft_types_NewClassFromDenom : List String := ["assign meta,err := _", "call codectypes.NewAnyWithValue", "kv Owner=denom.Owner", "kv Data=denom.Data", "if err != nil", "return nil,err", "return _,nil", "kv Id=denom.Id", "kv Name=denom.Name", "kv Symbol=denom.Symbol", "kv Description=denom.Description", "kv Uri=denom.Uri", "kv UriHash=denom.UriHash", "kv Data=meta"]
+def x_pnft_types_NewClassFromDenom : List String := ["assign meta,err := _", "call codectypes.NewAnyWithValue(_)", "kv Owner=denom.Owner", "kv Data=denom.Data", "if err != nil", "return nil,err", "return _,nil", "kv Id=denom.Id", "kv Name=denom.Name", "kv Symbol=denom.Symbol", "kv Description=denom.Description", "kv Uri=denom.Uri", "kv UriHash=denom.UriHash", "kv Data=meta"]
 
 /-- x/pnft/types.NewDenomFromClass -/
-def x_pnft_types_NewDenomFromClass : List String := ["if err != nil", "assign err := cdc.Unmarshal(class.Data.GetValue(), &meta)", "call cdc.Unmarshal", "call _.GetValue", "return nil,err", "return _,nil", "kv Id=class.Id", "kv Name=class.Name", "kv Symbol=class.Symbol", "kv Description=class.Description", "kv Uri=class.Uri", "kv UriHash=class.UriHash", "kv Owner=meta.Owner", "kv Data=meta.Data"]
+def x_pnft_types_NewDenomFromClass : List String := ["if err != nil", "assign err := cdc.Unmarshal(class.Data.GetValue(), &meta)", "call cdc.Unmarshal(class.Data.GetValue(), &meta)", "call _.GetValue()", "return nil,err", "return _,nil", "kv Id=class.Id", "kv Name=class.Name", "kv Symbol=class.Symbol", "kv Description=class.Description", "kv Uri=class.Uri", "kv UriHash=class.UriHash", "kv Owner=meta.Owner", "kv Data=meta.Data"]
 
 /-- x/pnft/types.NewMsgBurnPNFTRequest -/
 def x_pnft_types_NewMsgBurnPNFTRequest : List String := ["return _", "kv DenomId=denomId", "kv Id=id", "kv Burner=bunner"]
@@ -1110,30 +1110,30 @@ def x_pnft_types_NewQueryPNFTsByOwnerRequest : List String := ["return _", "kv D
 def x_pnft_types_NewQueryPNFTsRequest : List String := ["return _", "kv DenomId=denomId"]
 
 /-- x/pnft/types.Pnft.ValidateBasic -/
-def x_pnft_types_Pnft_ValidateBasic : List String := ["if m.DenomId == \"\"", "lit \"\"", "return _", "call fmt.Errorf", "if m.Id == \"\"", "lit \"\"", "return _", "call fmt.Errorf", "if m.Name == \"\"", "lit \"\"", "return _", "call fmt.Errorf", "if m.Creator == \"\"", "lit \"\"", "return _", "call fmt.Errorf", "if m.Owner == \"\"", "lit \"\"", "return _", "call fmt.Errorf", "if m.CreatedAt.IsZero()", "call _.IsZero", "return _", "call fmt.Errorf", "return nil"]
+def x_pnft_types_Pnft_ValidateBasic : List String := ["if m.DenomId == \"\"", "lit \"\"", "return _", "call fmt.Errorf(_)", "if m.Id == \"\"", "lit \"\"", "return _", "call fmt.Errorf(_)", "if m.Name == \"\"", "lit \"\"", "return _", "call fmt.Errorf(_)", "if m.Creator == \"\"", "lit \"\"", "return _", "call fmt.Errorf(_)", "if m.Owner == \"\"", "lit \"\"", "return _", "call fmt.Errorf(_)", "if m.CreatedAt.IsZero()", "call _.IsZero()", "return _", "call fmt.Errorf(_)", "return nil"]
 
 /-- x/pnft/types.QueryDenomRequest.ValidateBasic -/
-def x_pnft_types_QueryDenomRequest_ValidateBasic : List String := ["if m.Id == \"\"", "lit \"\"", "return _", "call fmt.Errorf", "return nil"]
+def x_pnft_types_QueryDenomRequest_ValidateBasic : List String := ["if m.Id == \"\"", "lit \"\"", "return _", "call fmt.Errorf(_)", "return nil"]
 
 /-- x/pnft/types.QueryDenomsByOwnerRequest.ValidateBasic -/
-def x_pnft_types_QueryDenomsByOwnerRequest_ValidateBasic : List String := ["if m.Owner == \"\"", "lit \"\"", "return _", "call fmt.Errorf", "if err != nil", "assign _,err := sdk.AccAddressFromBech32(m.Owner)", "call sdk.AccAddressFromBech32", "return err", "return nil"]
+def x_pnft_types_QueryDenomsByOwnerRequest_ValidateBasic : List String := ["if m.Owner == \"\"", "lit \"\"", "return _", "call fmt.Errorf(_)", "if err != nil", "assign _,err := sdk.AccAddressFromBech32(m.Owner)", "call sdk.AccAddressFromBech32(m.Owner)", "return err", "return nil"]
 
 /-- x/pnft/types.QueryDenomsRequest.ValidateBasic -/
 def x_pnft_types_QueryDenomsRequest_ValidateBasic : List String := ["return nil"]
 
 /-- x/pnft/types.QueryPNFTRequest.ValidateBasic -/
-def x_pnft_types_QueryPNFTRequest_ValidateBasic : List String := ["if m.DenomId == \"\"", "lit \"\"", "return _", "call fmt.Errorf", "if m.Id == \"\"", "lit \"\"", "return _", "call fmt.Errorf", "return nil"]
+def x_pnft_types_QueryPNFTRequest_ValidateBasic : List String := ["if m.DenomId == \"\"", "lit \"\"", "return _", "call fmt.Errorf(_)", "if m.Id == \"\"", "lit \"\"", "return _", "call fmt.Errorf(_)", "return nil"]
 
 /-- x/pnft/types.QueryPNFTsByDenomOwnerRequest.ValidateBasic -/
-def x_pnft_types_QueryPNFTsByDenomOwnerRequest_ValidateBasic : List String := ["if m.DenomId == \"\"", "lit \"\"", "return _", "call fmt.Errorf", "if m.Owner == \"\"", "lit \"\"", "return _", "call fmt.Errorf", "if err != nil", "assign _,err := sdk.AccAddressFromBech32(m.Owner)", "call sdk.AccAddressFromBech32", "return err", "return nil"]
+def x_pnft_types_QueryPNFTsByDenomOwnerRequest_ValidateBasic : List String := ["if m.DenomId == \"\"", "lit \"\"", "return _", "call fmt.Errorf(_)", "if m.Owner == \"\"", "lit \"\"", "return _", "call fmt.Errorf(_)", "if err != nil", "assign _,err := sdk.AccAddressFromBech32(m.Owner)", "call sdk.AccAddressFromBech32(m.Owner)", "return err", "return nil"]
 
 /-- x/pnft/types.QueryPNFTsRequest.ValidateBasic -/
-def x_pnft_types_QueryPNFTsRequest_ValidateBasic : List String := ["if m.DenomId == \"\"", "lit \"\"", "return _", "call fmt.Errorf", "return nil"]
+def x_pnft_types_QueryPNFTsRequest_ValidateBasic : List String := ["if m.DenomId == \"\"", "lit \"\"", "return _", "call fmt.Errorf(_)", "return nil"]
 
 /-- x/pnft/types.RegisterCodec -/
-def x_pnft_types_RegisterCodec : List String := ["call cdc.RegisterConcrete", "lit \"pnft/CreateDenom\"", "call cdc.RegisterConcrete", "lit \"pnft/UpdateDenom\"", "call cdc.RegisterConcrete", "lit \"pnft/DeleteDenom\"", "call cdc.RegisterConcrete", "lit \"pnft/TransferDenom\"", "call cdc.RegisterConcrete", "lit \"pnft/MintPNFT\"", "call cdc.RegisterConcrete", "lit \"pnft/TransferPNFT\"", "call cdc.RegisterConcrete", "lit \"pnft/BurnPNFT\""]
+def x_pnft_types_RegisterCodec : List String := ["call cdc.RegisterConcrete(_, \"pnft/CreateDenom\", nil)", "lit \"pnft/CreateDenom\"", "call cdc.RegisterConcrete(_, \"pnft/UpdateDenom\", nil)", "lit \"pnft/UpdateDenom\"", "call cdc.RegisterConcrete(_, \"pnft/DeleteDenom\", nil)", "lit \"pnft/DeleteDenom\"", "call cdc.RegisterConcrete(_, \"pnft/TransferDenom\", nil)", "lit \"pnft/TransferDenom\"", "call cdc.RegisterConcrete(_, \"pnft/MintPNFT\", nil)", "lit \"pnft/MintPNFT\"", "call cdc.RegisterConcrete(_, \"pnft/TransferPNFT\", nil)", "lit \"pnft/TransferPNFT\"", "call cdc.RegisterConcrete(_, \"pnft/BurnPNFT\", nil)", "lit \"pnft/BurnPNFT\""]
 
 /-- x/pnft/types.RegisterInterfaces -/
-def x_pnft_types_RegisterInterfaces : List String := ["call registry.RegisterImplementations", "call ?", "call msgservice.RegisterMsgServiceDesc"]
+def x_pnft_types_RegisterInterfaces : List String := ["call registry.RegisterImplementations((*sdk.Msg)(nil), _, _, _, _, _, _, _)", "call ?(nil)", "call msgservice.RegisterMsgServiceDesc(registry, &_Msg_serviceDesc)"]
 
 end Panacea.Expected.Skel
